@@ -6,35 +6,21 @@ Definition w_good (g : N) : rreply := RReceipt (100 + 10 * g) 10 (1000 + 100 * g
 Definition w_att (adds : list areply) (more : bool) : attempt :=
   {| at_reg := w_good 9; at_adds := adds; at_order := []; at_more := more |}.
 
-(* two towers down; revocation 5 pending for both, both retriers running; abandon tower 0, register with it again;
-   its retrier (stale set {5}) delivers 5: tower 1 loses its pending row *)
+(* the former counterexamples (defects D1, D2, D4, repaired in the plugin): kept as regression witnesses.
+   D1: two towers down; revocation 5 pending for both, both retriers running; abandon tower 0, register with it again;
+   its retrier (stale set {5}) used to deliver 5 and delete the body tower 1's pending row hangs on *)
 Definition w_c05_ops : list fop :=
   [FRegister 0 (w_good 1); FRegister 1 (w_good 1); FRevocation 5 [] [(0, AConnErr); (1, AConnErr)];
    FManagerTick []; FManagerTick []; FManagerTick [];
    FRetrierRun 0 [w_att [] true]; FAbandon 0; FRegister 0 (w_good 1); FRetrierRun 0 [w_att [AAccept 110] true]].
 
-Lemma recorded_exactly_one_refuted :
-  exists ops t l, let s := frun f_init ops in
-    poisoned s = false /\ owed s t l = true /\ record_count (c_db (f_c s)) t l = 0%nat.
-Proof. exists w_c05_ops, 1, 5. vm_compute. repeat split; reflexivity. Qed.
-
-(* C14: a tower proven misbehaving is sent appointments again after `registertower` against it failed to connect
-   (status overwritten with temporary unreachable); a second wrong-key reply then aborts on the duplicate proof *)
+(* D2 + D4: a tower proven misbehaving, `registertower` against it fails to connect (the status used to be overwritten
+   with temporary unreachable), further revocations, a second wrong-key reply (used to abort on the duplicate proof) *)
 Definition w_c14_ops : list fop :=
   [FRegister 0 (w_good 1); FRevocation 0 [] [(0, AWrongKey)]; FRegister 0 RConnErr; FRevocation 1 [] [];
    FManagerTick []; FManagerTick []; FRetrierRun 0 [w_att [AAccept 110] true]].
 
 Definition is_add_to (t : N) (r : req) : bool := match r with ReqAdd t' _ => N.eqb t' t | _ => false end.
-
-Lemma misbehaviour_flagged_refuted :
-  exists ops1 ops2 t, let s1 := frun f_init ops1 in let s2 := frun s1 ops2 in
-    exists_misbehaving_proof (c_db (f_c s1)) t = true /\
-    existsb (is_add_to t) (skipn (length (f_log s1)) (f_log s2)) = true.
-Proof. exists (firstn 2 w_c14_ops), (skipn 2 w_c14_ops), 0. vm_compute. split; reflexivity. Qed.
-
-Lemma no_reply_aborts_refuted :
-  exists ops l, snd (fstep (frun f_init ops) (FRevocation l [] [(0, AWrongKey)])) = OPanic (SClient Site_store_misbehaving_proof_unwrap).
-Proof. exists w_c14_ops, 2. vm_compute. reflexivity. Qed.
 
 (* ====================================================================== *)
 (* generic helpers                                                        *)
@@ -77,8 +63,14 @@ Lemma TaskInv_same s s' : f_tasks s' = f_tasks s -> (forall t, rstat s' t = rsta
 Proof. intros E1 E2 [A B]. split; [rewrite E1; exact A|]. intros t Ht. rewrite E2. apply B. rewrite <- E1. exact Ht. Qed.
 
 (* ---- operations that do not touch the manager's retriers nor the tasks ---- *)
+Lemma flag_unreachable_mgr s t : f_tasks (flag_unreachable s t) = f_tasks s /\ f_mgr (flag_unreachable s t) = f_mgr s.
+Proof. unfold flag_unreachable. dmatch; cbn; split; reflexivity. Qed.
+
 Lemma f_register_mgr s t a rp : f_tasks (fst (f_register s t a rp)) = f_tasks s /\ f_mgr (fst (f_register s t a rp)) = f_mgr s.
-Proof. unfold f_register. dmatch; cbn; split; reflexivity. Qed.
+Proof.
+  unfold f_register. dmatch; cbn [fst]; try (split; reflexivity).
+  destruct (flag_unreachable_mgr (log_req s (ReqRegister t)) t) as [-> ->]. split; reflexivity.
+Qed.
 
 Lemma send_to_retrier_mgr s t l : f_tasks (send_to_retrier s t l) = f_tasks s /\ f_mgr (send_to_retrier s t l) = f_mgr s.
 Proof. unfold send_to_retrier. dmatch; cbn; split; reflexivity. Qed.
@@ -163,9 +155,11 @@ Qed.
 Lemma TaskInv_start s t r s' :
   TaskInv s -> aget (f_mgr s) t = Some r -> r_status r = RStopped -> retrier_start s t r = (s', None) -> TaskInv s'.
 Proof.
-  intros HT H Hs. unfold retrier_start. destruct (aget (c_towers (f_c s)) t) as [su|]; [|discriminate].
-  intros E. inversion E. subst s'. clear E.
+  intros HT H Hs. unfold retrier_start.
   assert (Hn : ~ In t (f_tasks s)) by (eapply not_task_if_not_running; eauto; congruence).
+  destruct (aget (c_towers (f_c s)) t) as [su|]; [|intros E; inversion E; apply TaskInv_put_not_task; assumption].
+  destruct (is_misbehaving (su_status su)); [intros E; inversion E; apply TaskInv_put_not_task; assumption|].
+  intros E. inversion E. subst s'. clear E.
   destruct HT as [A B]. split.
   - cbn. apply NoDup_app_iff. split; [exact A|]. split; [constructor; [tauto|constructor]|].
     intros x Hx [<-|[]]. contradiction.
@@ -175,8 +169,12 @@ Proof.
     + rewrite N.eqb_refl in Ek. discriminate.
 Qed.
 
+(* Retrier::start has no panic site left (fixes 29264ec, 9d6311c) *)
+Lemma retrier_start_no_abort s t r : snd (retrier_start s t r) = None.
+Proof. unfold retrier_start. destruct (aget (c_towers (f_c s)) t) as [su|]; [destruct (is_misbehaving (su_status su))|]; reflexivity. Qed.
+
 Lemma retrier_start_abort_tasks s t r s' site : retrier_start s t r = (s', Some site) -> f_tasks s' = f_tasks s /\ f_mgr s' = f_mgr s.
-Proof. unfold retrier_start. destruct (aget (c_towers (f_c s)) t); [discriminate|]. intros E. inversion E. split; reflexivity. Qed.
+Proof. intros E. pose proof (retrier_start_no_abort s t r) as H. rewrite E in H. discriminate. Qed.
 
 Lemma TaskInv_sweep elapsed : forall keys s started woke, TaskInv s -> TaskInv (fst (fst (fst (sweep s keys elapsed started woke)))).
 Proof.
@@ -277,7 +275,7 @@ Lemma run_for_same' t : forall locs a s adds, same_tasks a s -> same_tasks a (fs
 Proof.
   induction locs as [|l locs IH]; intros a s adds Ha; cbn [run_for]; [exact Ha|].
   destruct (poisoned s); [exact Ha|].
-  destruct (dbm_load_appointment (c_db (f_c s)) l) as [body|]; [|exact Ha].
+  destruct (load_pending (f_c s) t l) as [body|]; [|apply IH, st_drop, Ha].
   destruct (next_reply adds) as [rp adds'].
   destruct rp; cbn [fst]; try exact Ha.
   - destruct (wt_add_appointment_receipt _ _ _ _ _ _ _) as [c2 r2].
@@ -307,6 +305,7 @@ Lemma run_attempt_same s t a : same_tasks s (fst (run_attempt s t a)).
 Proof.
   unfold run_attempt. destruct (poisoned s); [apply same_tasks_refl|].
   destruct (aget (c_towers (f_c s)) t) as [su|]; [|apply same_tasks_refl].
+  destruct (is_misbehaving (su_status su)); [apply same_tasks_refl|].
   destruct (is_subscription_error (su_status su)); [|apply run_while_same].
   destruct (at_reg a); try (split; reflexivity).
   destruct (negb sig_ok); [split; reflexivity|].
@@ -358,7 +357,7 @@ Proof.
       - apply retrier_set_status_tasks.
       - intros k Hk. rewrite rstat_retrier_set_status. apply N.eqb_neq in Hk. rewrite Hk. reflexivity. }
     destruct H1 as [H1 H2].
-    destruct e as [[|]| |l|]; cbn [fst].
+    destruct e as [[|]| |l| |]; cbn [fst].
     + apply (TaskInv_end_task s); [exact HT|exact H1|exact H2].
     + apply (TaskInv_end_task s); [exact HT| |].
       * rewrite retrier_clear_tasks, retrier_set_status_tasks. exact H1.
@@ -370,6 +369,7 @@ Proof.
         apply N.eqb_neq in Hk. apply (H2 k Hk).
     + destruct (wt_flag_misbehaving_tower _ _ _ _ _ _ _) as [c2 r2]. destruct (lift_site r2); cbn [fst];
         (apply (TaskInv_end_task s); [exact HT|exact H1|exact H2]).
+    + apply (TaskInv_end_task s); [exact HT|exact H1|exact H2].
     + apply (TaskInv_end_task s); [exact HT|exact H1|exact H2].
   - cbn [fst]. apply (TaskInv_end_task s); [exact HT|reflexivity|reflexivity].
   - exact HT.
@@ -437,8 +437,9 @@ Proof.
       * destruct (retrier_start s k r) as [s1 [site|]] eqn:Es.
         -- inversion H. subst. left. exact Ht.
         -- eapply (Hother s1 r); [|exact H|].
-           ++ intros x Hx. unfold retrier_start in Es. destruct (aget (c_towers (f_c s)) k); [|discriminate].
-              inversion Es. cbn. apply aget_aset_other. exact Hx.
+           ++ intros x Hx. unfold retrier_start in Es.
+              destruct (aget (c_towers (f_c s)) k) as [su|]; [destruct (is_misbehaving (su_status su))|];
+                inversion Es; cbn; apply aget_aset_other; exact Hx.
            ++ intros x Hx. apply in_app_or in Hx. destruct Hx as [Hx|[<-|[]]]; [left; exact Hx|]. right. repeat split; assumption.
       * destruct (is_idle (r_status r) && memN k elapsed).
         -- eapply (Hother (wake s k r) r); [|exact H|intros x Hx; left; exact Hx].
@@ -600,10 +601,77 @@ Lemma store_proof_rows d t l sb u g rc d' :
   tbl d' T_appointment_receipts = tbl d T_appointment_receipts ++ [[l; t; sb; u; g]] /\
   tbl d' T_misbehaving_proofs = tbl d T_misbehaving_proofs ++ [[t; l; rc]].
 Proof.
-  unfold dbm_store_misbehaving_proof. rewrite receipt_row_eq, mkrow_proof.
+  unfold dbm_store_misbehaving_proof, proof_row. rewrite receipt_row_eq, mkrow_proof.
   destruct (db_insert CS d T_appointment_receipts [l; t; sb; u; g]) as [d1|] eqn:E1; [|discriminate]. intros H.
   pose proof (tbl_insert CS d _ _ d1 E1) as [T1 [O1 _]]. pose proof (tbl_insert CS d1 _ _ d' H) as [T2 [O2 _]].
   split; [rewrite O2 by discriminate; exact T1|]. rewrite T2, O1 by discriminate. reflexivity.
+Qed.
+
+(* store_misbehaving_proof_over_receipt: the receipt of (tower, locator) keeps its key, the proof row is appended *)
+Definition upd_receipt (t l sb u g : N) (r : row) : row :=
+  if key_eqb (proj r (ts_pk (tsch CS T_appointment_receipts))) [l; t]
+  then apply_sets r [(C_appointment_receipts_start_block, sb); (C_appointment_receipts_user_signature, u);
+                     (C_appointment_receipts_tower_signature, g)] else r.
+
+Lemma upd_receipt_key t l sb u g r :
+  col (upd_receipt t l sb u g r) C_appointment_receipts_locator = col r C_appointment_receipts_locator /\
+  col (upd_receipt t l sb u g r) C_appointment_receipts_tower_id = col r C_appointment_receipts_tower_id.
+Proof.
+  unfold upd_receipt. destruct (key_eqb _ _); [|split; reflexivity]. cbn. unfold col.
+  split; repeat rewrite nth_set_col by discriminate; reflexivity.
+Qed.
+
+Lemma store_proof_over_receipt_rows d t l sb u g rc d' :
+  length d = 8%nat -> dbm_store_misbehaving_proof_over_receipt d t l sb u g rc = DbOk d' ->
+  tbl d' T_appointment_receipts = map (upd_receipt t l sb u g) (tbl d T_appointment_receipts) /\
+  tbl d' T_misbehaving_proofs = tbl d T_misbehaving_proofs ++ [[t; l; rc]].
+Proof.
+  intros L. unfold dbm_store_misbehaving_proof_over_receipt, proof_row. rewrite mkrow_proof.
+  destruct (db_update CS d T_appointment_receipts [l; t] _ false) as [d1|] eqn:E1; [|discriminate]. intros H.
+  pose proof (tbl_update CS d _ _ _ _ d1 E1) as [O1 [_ T1]]. pose proof (tbl_insert CS d1 _ _ d' H) as [T2 [O2 _]].
+  split; [rewrite O2 by discriminate; apply T1; rewrite L; unfold T_appointment_receipts; lia|].
+  rewrite T2, O1 by discriminate. reflexivity.
+Qed.
+
+Lemma Rrow_map d d' f t l :
+  tbl d' T_appointment_receipts = map f (tbl d T_appointment_receipts) ->
+  (forall r, col (f r) C_appointment_receipts_locator = col r C_appointment_receipts_locator /\
+             col (f r) C_appointment_receipts_tower_id = col r C_appointment_receipts_tower_id) ->
+  (Rrow d' t l <-> Rrow d t l).
+Proof.
+  unfold Rrow. intros -> Hf. split.
+  - intros [r [A [B C]]]. apply in_map_iff in A. destruct A as [r0 [<- A]]. destruct (Hf r0) as [F1 F2].
+    exists r0. split; [exact A|]. split; congruence.
+  - intros [r [A [B C]]]. destruct (Hf r) as [F1 F2]. exists (f r). split; [apply in_map; exact A|]. split; congruence.
+Qed.
+
+(* what flag_misbehaving_tower's store (fix d35e2bc) does to the tables, whichever of its three branches runs *)
+Lemma flag_store_rows d t l sb u g rc d' :
+  DbInv d -> flag_store d t l sb u g rc = DbOk d' ->
+  Mrow d' t /\ (forall k, Mrow d' k <-> Mrow d k \/ k = t) /\
+  (forall k x, Rrow d' k x <-> Rrow d k x \/ (k = t /\ x = l /\ ~ Mrow d t)) /\
+  (forall tb, tb <> T_misbehaving_proofs -> tb <> T_appointment_receipts -> tbl d' tb = tbl d tb).
+Proof.
+  intros HD. unfold flag_store. destruct (exists_misbehaving_proof d t) eqn:Em.
+  - intros H. inversion H. subst d'. apply proof_iff in Em. split; [exact Em|]. split; [|split; [|reflexivity]].
+    + intros k. split; [tauto|]. intros [H0| ->]; assumption.
+    + intros k x. split; [tauto|]. intros [H0|[_ [_ H0]]]; [exact H0|contradiction].
+  - assert (Hn : ~ Mrow d t) by (intros H; apply proof_iff in H; congruence).
+    destruct (dbm_load_appointment_receipt d t l) as [rc0|] eqn:El; intros H.
+    + destruct (store_proof_over_receipt_spec _ _ _ _ _ _ _ _ HD H) as [_ Hfr].
+      destruct HD as [_ [_ [L _]]].
+      destruct (store_proof_over_receipt_rows _ _ _ _ _ _ _ _ L H) as [T5 T6].
+      assert (HR : Rrow d t l).
+      { unfold dbm_load_appointment_receipt in El. apply find_pk_Some in El. destruct El as [A B].
+        cbn in B. exists rc0. split; [exact A|]. inversion B. split; reflexivity. }
+      split; [apply (proj2 (Mrow_app _ _ _ _ _ t T6)); right; reflexivity|]. split; [intros k; apply (Mrow_app _ _ _ _ _ k T6)|].
+      split; [|exact Hfr]. intros k x. rewrite (Rrow_map _ _ _ k x T5 (upd_receipt_key t l sb u g)).
+      split; [tauto|]. intros [H0|[-> [-> _]]]; assumption.
+    + destruct (store_proof_spec _ _ _ _ _ _ _ _ HD H) as [_ Hfr].
+      destruct (store_proof_rows _ _ _ _ _ _ _ _ H) as [T5 T6].
+      split; [apply (proj2 (Mrow_app _ _ _ _ _ t T6)); right; reflexivity|]. split; [intros k; apply (Mrow_app _ _ _ _ _ k T6)|].
+      split; [|exact Hfr]. intros k x. rewrite (Rrow_app _ _ _ _ _ _ _ k x T5). split; [|tauto].
+      intros [H0|[-> ->]]; [left; exact H0|right; auto].
 Qed.
 
 Lemma Trow_map d d' f t :
@@ -770,19 +838,18 @@ Lemma prim_flag c t l sb u g rc c' r :
   ((c_db c' = c_db c /\ (forall k, stat c' k = stat c k) /\ r <> ROk) \/
    (r = ROk /\ c_poisoned c' = false /\ knownc c t /\
     (forall k, stat c' k = if N.eqb k t then Some Misbehaving else stat c k) /\
-    tbl (c_db c') T_appointment_receipts = tbl (c_db c) T_appointment_receipts ++ [[l; t; sb; u; g]] /\
-    tbl (c_db c') T_misbehaving_proofs = tbl (c_db c) T_misbehaving_proofs ++ [[t; l; rc]] /\
+    Mrow (c_db c') t /\ (forall k, Mrow (c_db c') k <-> Mrow (c_db c) k \/ k = t) /\
+    (forall k x, Rrow (c_db c') k x <-> Rrow (c_db c) k x \/ (k = t /\ x = l /\ ~ Mrow (c_db c) t)) /\
     (forall tb, tb <> T_misbehaving_proofs -> tb <> T_appointment_receipts -> tbl (c_db c') tb = tbl (c_db c) tb))).
 Proof.
   intros HI Hp E. pose proof (Inv_flag_misbehaving c t l sb u g rc HI Hp) as HI'. rewrite E in HI'. cbn [fst] in HI'.
   split; [exact HI'|]. revert E. unfold wt_flag_misbehaving_tower.
   destruct (aget (c_towers c) t) as [su|] eqn:Et.
   2:{ intros E. inversion E. subst. split; [reflexivity|]. split; [exact Hp|]. left. repeat split; discriminate. }
-  destruct (dbm_store_misbehaving_proof (c_db c) t l sb u g rc) as [d'|e] eqn:Es; intros E; inversion E; subst; clear E.
+  destruct (flag_store (c_db c) t l sb u g rc) as [d'|e] eqn:Es; intros E; inversion E; subst; clear E.
   - cbn [c_retriers c_db c_towers c_poisoned with_db with_towers]. split; [reflexivity|]. split; [exact Hp|].
-    right. destruct (store_proof_spec _ _ _ _ _ _ _ _ (proj1 HI) Es) as [_ Hfr].
-    destruct (store_proof_rows _ _ _ _ _ _ _ _ Es) as [T5 T6].
-    repeat split; auto.
+    right. destruct (flag_store_rows _ _ _ _ _ _ _ _ (proj1 HI) Es) as [M1 [M2 [R1 Hfr]]].
+    repeat split; auto; try (apply M2); try (apply R1).
     + unfold knownc, amem. rewrite Et. reflexivity.
     + intros k. unfold stat. cbn [c_towers with_db with_towers]. rewrite aget_aset. destruct (N.eqb k t); reflexivity.
   - cbn [c_retriers c_db c_towers c_poisoned poison]. split; [reflexivity|]. split; [reflexivity|].
@@ -793,20 +860,34 @@ Lemma flag_result c t l sb u g rc : knownc c t ->
   snd (wt_flag_misbehaving_tower c t l sb u g rc) = ROk \/ exists st, snd (wt_flag_misbehaving_tower c t l sb u g rc) = RAbort st.
 Proof.
   unfold knownc, amem, wt_flag_misbehaving_tower. destruct (aget (c_towers c) t); [|discriminate]. intros _.
-  destruct (dbm_store_misbehaving_proof (c_db c) t l sb u g rc); [left|right; eexists]; reflexivity.
+  destruct (flag_store (c_db c) t l sb u g rc); [left|right; eexists]; reflexivity.
 Qed.
+
+(* set_tower_status (fix 70d4134): misbehaving is never left *)
+Definition sticky (old st : tower_status) : tower_status :=
+  if is_misbehaving old && negb (is_misbehaving st) then old else st.
+Lemma sticky_misbehaving old st : sticky old st = Misbehaving <-> old = Misbehaving \/ st = Misbehaving.
+Proof. unfold sticky. destruct old, st; cbn; intuition congruence. Qed.
+Lemma sticky_other old st : old <> Misbehaving -> sticky old st = st.
+Proof. unfold sticky. destruct old; cbn; congruence. Qed.
 
 Lemma prim_set_status c t st :
   Inv c -> Inv (wt_set_tower_status c t st) /\ c_db (wt_set_tower_status c t st) = c_db c /\
   c_retriers (wt_set_tower_status c t st) = c_retriers c /\ c_poisoned (wt_set_tower_status c t st) = c_poisoned c /\
-  (forall k, stat (wt_set_tower_status c t st) k = if N.eqb k t then option_map (fun _ => st) (stat c t) else stat c k) /\
+  (forall k, stat (wt_set_tower_status c t st) k = if N.eqb k t then option_map (fun old => sticky old st) (stat c t) else stat c k) /\
   (forall k su', aget (c_towers (wt_set_tower_status c t st)) k = Some su' ->
      exists su, aget (c_towers c) k = Some su /\ su_pending su' = su_pending su /\ su_invalid su' = su_invalid su).
 Proof.
   intros HI. split; [apply Inv_set_status; exact HI|]. unfold wt_set_tower_status.
   destruct (aget (c_towers c) t) as [su|] eqn:Et.
-  - split; [reflexivity|]. split; [reflexivity|]. split; [reflexivity|]. split.
-    + intros k. unfold stat. cbn [c_towers with_towers]. rewrite aget_aset. destruct (N.eqb k t) eqn:Ek; [|reflexivity]. rewrite Et. reflexivity.
+  - destruct (is_misbehaving (su_status su) && negb (is_misbehaving st)) eqn:Eb.
+    { repeat split.
+      + intros k. destruct (N.eqb k t) eqn:Ek; [|reflexivity]. apply N.eqb_eq in Ek. subst. unfold stat. rewrite Et. cbn.
+        unfold sticky. rewrite Eb. reflexivity.
+      + intros k su' H. exists su'. repeat split; auto. }
+    split; [reflexivity|]. split; [reflexivity|]. split; [reflexivity|]. split.
+    + intros k. unfold stat. cbn [c_towers with_towers]. rewrite aget_aset. destruct (N.eqb k t) eqn:Ek; [|reflexivity]. rewrite Et. cbn.
+      unfold sticky. rewrite Eb. reflexivity.
     + intros k su'. cbn [c_towers with_towers]. rewrite aget_aset. destruct (N.eqb k t) eqn:Ek.
       * apply N.eqb_eq in Ek. subst. intros H. inversion H. exists su. repeat split; auto.
       * intros H. exists su'. repeat split; auto.
@@ -890,18 +971,13 @@ Definition DurInv (d : db) (due : list (N * N)) : Prop :=
   (forall t l, ~ Mrow d t -> excl3 (Rrow d t l) (Prow d t l) (Irow d t l)) /\
   (forall t l, In (t, l) due -> Trow d t /\ (~ Mrow d t -> Rrow d t l \/ Prow d t l \/ Irow d t l)).
 
-Definition chan_data (q : list (N * rdata)) (t : N) : list N :=
-  flat_map (fun m => if N.eqb (fst m) t then rdata_set (snd m) else []) q.
-Lemma tracked_eq s t : tracked s t = retrier_pending s t ++ chan_data (f_chan s) t.
-Proof. reflexivity. Qed.
-Lemma chan_data_app q q' t : chan_data (q ++ q') t = chan_data q t ++ chan_data q' t.
-Proof. unfold chan_data. apply flat_map_app. Qed.
-
-(* volatile part: holds while the mutex is healthy *)
+(* volatile part: holds while the mutex is healthy.  misbehaving in memory <-> a proof is stored (the second
+   direction is what the repairs 70d4134 / d35e2bc buy); a retrier's set has no duplicates; a Running retrier of the
+   manager is Running in WTClient::retriers.
+   NOTHING relates a retrier's set to the pending rows any more: Retrier::run checks every locator (fix 8108569). *)
 Definition VolInv (s : fstate) : Prop :=
   (forall t, stat (f_c s) t = Some Misbehaving -> Mrow (c_db (f_c s)) t) /\
-  (forall t, knownc (f_c s) t -> forall l, In l (tracked s t) -> Prow (c_db (f_c s)) t l) /\
-  (forall t, rstat s t = Some RRunning -> NoDup (tracked s t)) /\
+  (forall t, knownc (f_c s) t -> Mrow (c_db (f_c s)) t -> stat (f_c s) t = Some Misbehaving) /\
   (forall t r, aget (f_mgr s) t = Some r -> NoDup (r_pending r)) /\
   (forall t, rstat s t = Some RRunning -> aget (c_retriers (f_c s)) t = Some RRunning).
 
@@ -937,11 +1013,11 @@ Qed.
 
 (* ---- frame lemmas for FInv ---- *)
 Lemma FInv_core s s' :
-  f_c s' = f_c s -> f_mgr s' = f_mgr s -> f_chan s' = f_chan s -> f_tasks s' = f_tasks s -> f_due s' = f_due s ->
+  f_c s' = f_c s -> f_mgr s' = f_mgr s -> f_tasks s' = f_tasks s -> f_due s' = f_due s ->
   FInv s -> FInv s'.
 Proof.
-  intros E1 E2 E3 E4 E5 HF. unfold FInv, VolInv, poisoned, TaskInv, rstat, tracked, retrier_pending in *.
-  rewrite E1, E2, E3, E4, E5. exact HF.
+  intros E1 E2 E4 E5 HF. unfold FInv, VolInv, poisoned, TaskInv, rstat in *.
+  rewrite E1, E2, E4, E5. exact HF.
 Qed.
 
 (* a step that only replaces the client *)
@@ -949,14 +1025,14 @@ Lemma FInv_client s c' :
   FInv s -> Inv c' -> DurInv (c_db c') (f_due s) ->
   (c_poisoned c' = false -> poisoned s = false /\
      (forall t, stat c' t = Some Misbehaving -> Mrow (c_db c') t) /\
-     (forall t, knownc c' t -> forall l, In l (tracked s t) -> Prow (c_db c') t l) /\
+     (forall t, knownc c' t -> Mrow (c_db c') t -> stat c' t = Some Misbehaving) /\
      c_retriers c' = c_retriers (f_c s)) ->
   FInv (set_c s c').
 Proof.
   intros [HI [HD [HV HT]]] HI' HD' H. split; [exact HI'|]. split; [exact HD'|]. split; [|exact HT].
   intros Hp. change (poisoned (set_c s c')) with (c_poisoned c') in Hp. destruct (H Hp) as [Hp0 [A [B C]]].
-  destruct (HV Hp0) as [V1 [V2 [V3 [V4 V5]]]].
-  split; [exact A|]. split; [exact B|]. split; [exact V3|]. split; [exact V4|].
+  destruct (HV Hp0) as [V1 [V2 [V4 V5]]].
+  split; [exact A|]. split; [exact B|]. split; [exact V4|].
   intros t Ht. cbn [f_c set_c]. rewrite C. apply V5. exact Ht.
 Qed.
 
@@ -984,17 +1060,61 @@ Proof.
   - rewrite Hp. discriminate.
 Qed.
 
-(* ---- registertower ---- *)
-Lemma FInv_register s t rp : FInv s -> fresh_ok s (FRegister t rp) = true -> FInv (fst (f_register s t t rp)).
+Lemma Mrow_Trow d t : DbInv d -> Mrow d t -> Trow d t.
 Proof.
-  intros HF Hg. unfold f_register. destruct (poisoned s) eqn:Hp; [exact HF|].
+  intros [[Hfk _] _] [r [A B]]. destruct (fk_proof_receipt d r Hfk A) as [rc [A1 [_ B1]]].
+  destruct (fk_ar_tower d rc Hfk A1) as [tr [A2 B2]]. exists tr. split; [exact A2|]. congruence.
+Qed.
+
+Lemma knownc_stat c c' : (forall k, stat c' k = stat c k) -> forall k, knownc c' k <-> knownc c k.
+Proof. intros H k. unfold knownc. rewrite (stat_known c c' H k). tauto. Qed.
+
+Lemma knownc_set_status c t st k : knownc (wt_set_tower_status c t st) k <-> knownc c k.
+Proof.
+  unfold knownc, amem, wt_set_tower_status. destruct (aget (c_towers c) t) as [su|] eqn:E; [|tauto].
+  destruct (is_misbehaving (su_status su) && negb (is_misbehaving st)); [tauto|].
+  cbn [c_towers with_towers]. rewrite aget_aset. destruct (N.eqb k t) eqn:Ek; [|tauto]. apply N.eqb_eq in Ek. subst. rewrite E. tauto.
+Qed.
+Lemma poisoned_set_status c t st : c_poisoned (wt_set_tower_status c t st) = c_poisoned c.
+Proof. unfold wt_set_tower_status. destruct (aget (c_towers c) t); [destruct (_ && _)|]; reflexivity. Qed.
+Lemma retriers_set_status c t st : c_retriers (wt_set_tower_status c t st) = c_retriers c.
+Proof. unfold wt_set_tower_status. destruct (aget (c_towers c) t); [destruct (_ && _)|]; reflexivity. Qed.
+
+Lemma FInv_set_status s t st :
+  FInv s -> poisoned s = false -> st <> Misbehaving -> FInv (set_c s (wt_set_tower_status (f_c s) t st)).
+Proof.
+  intros HF Hp Hst. pose proof HF as [HI [HD [HV HT]]]. destruct (HV Hp) as [V1 [V2 _]].
+  destruct (prim_set_status (f_c s) t st HI) as [HI' [Ed [Hret [Hpo [Hs _]]]]].
+  apply FInv_client; [exact HF|exact HI'|rewrite Ed; exact HD|]. intros _. split; [exact Hp|]. split; [|split; [|exact Hret]].
+  - intros k Hk. rewrite Ed. apply V1. rewrite Hs in Hk. destruct (N.eqb k t) eqn:Ek; [|exact Hk]. apply N.eqb_eq in Ek. subst k.
+    destruct (stat (f_c s) t) as [old|]; cbn in Hk; [|discriminate]. injection Hk as Hk'.
+    apply sticky_misbehaving in Hk'. destruct Hk' as [Hk'|Hk']; [rewrite Hk'; reflexivity|contradiction].
+  - intros k Hk Hm. rewrite Ed in Hm. apply (proj1 (knownc_set_status _ t st k)) in Hk. specialize (V2 k Hk Hm). rewrite Hs.
+    destruct (N.eqb k t) eqn:Ek; [|exact V2]. apply N.eqb_eq in Ek. subst k. rewrite V2. cbn. f_equal.
+    apply sticky_misbehaving. left. reflexivity.
+Qed.
+
+(* pushing a message: the client and the retriers are untouched *)
+Lemma FInv_push s t d : FInv s -> FInv (push_chan s t d).
+Proof. intros [HI [HD [HV HT]]]. split; [exact HI|]. split; [exact HD|]. split; [exact HV|exact HT]. Qed.
+
+Lemma FInv_flag_unreachable s t : FInv s -> poisoned s = false -> FInv (flag_unreachable s t).
+Proof.
+  intros HF Hp. unfold flag_unreachable. destruct (aget (c_towers (f_c s)) t) as [su|]; [|exact HF].
+  destruct (_ && _); [|exact HF]. apply FInv_push. apply FInv_set_status; [exact HF|exact Hp|discriminate].
+Qed.
+
+(* ---- registertower ---- *)
+Lemma FInv_register s t rp : FInv s -> FInv (fst (f_register s t t rp)).
+Proof.
+  intros HF. unfold f_register. destruct (poisoned s) eqn:Hp; [exact HF|].
   assert (HF1 : FInv (log_req s (ReqRegister t))) by (apply (FInv_core s); auto).
   set (s1 := log_req s (ReqRegister t)) in *.
   assert (Hp1 : poisoned s1 = false) by exact Hp.
   destruct rp as [slots start expiry sig_ok| | | |]; cbn [fst]; try exact HF1.
   - destruct (negb sig_ok); [exact HF1|].
     destruct (wt_add_update_tower (f_c s1) t t slots start expiry REG_SIG) as [c' r] eqn:E.
-    destruct HF1 as [HI [HD [HV HT]]]. destruct (HV Hp1) as [V1 [V2 [V3 [V4 V5]]]].
+    destruct HF1 as [HI [HD [HV HT]]]. destruct (HV Hp1) as [V1 [V2 [V4 V5]]].
     destruct (prim_add_update_tower _ _ _ _ _ _ _ _ _ HI Hp1 E) as [HI' [Hret [Hh Heff]]].
     assert (Hgoal : FInv (set_c s1 c')).
     { apply FInv_client; [exact (conj HI (conj HD (conj HV HT)))|exact HI'| |].
@@ -1003,34 +1123,20 @@ Proof.
         intros k Hk. apply HTr. left. exact Hk.
       - intros Hp'. split; [exact Hp1|]. destruct Heff as [[Ed Hst]|[_ [_ [Hst [T4 [HTr Hfr]]]]]].
         + split; [intros k Hk; rewrite Ed; apply V1; rewrite <- Hst; exact Hk|]. split; [|exact Hret].
-          intros k Hk l Hl. rewrite Ed. apply V2; [|exact Hl]. unfold knownc in *. rewrite <- (stat_known _ _ Hst k). exact Hk.
+          intros k Hk Hm. rewrite Hst. apply V2; [apply (knownc_stat _ _ Hst), Hk|rewrite <- Ed; exact Hm].
         + split.
           { intros k Hk. rewrite (Mrow_ext _ _ k (Hfr T_misbehaving_proofs ltac:(discriminate) ltac:(discriminate))). apply V1.
             rewrite Hst in Hk. destruct (N.eqb k t) eqn:Ek; [|exact Hk]. apply N.eqb_eq in Ek. subst k.
             destruct (stat (f_c s1) t); [exact Hk|discriminate]. }
           split; [|exact Hret].
-          intros k Hk l Hl. rewrite (Prow_ext _ _ k l (Hfr T_pending_appointments ltac:(discriminate) ltac:(discriminate))).
-          destruct (amem (c_towers (f_c s1)) k) eqn:Eam; [apply V2; [exact Eam|exact Hl]|].
-          (* a tower that was not known: only the one being registered, and the guard says nothing is tracked for it *)
-          exfalso. assert (k = t).
-          { unfold knownc, amem in Hk, Eam. specialize (Hst k). unfold stat in Hst.
-            destruct (N.eqb k t) eqn:Ek; [apply N.eqb_eq; exact Ek|].
-            destruct (aget (c_towers c') k), (aget (c_towers (f_c s1)) k); cbn in Hst; try discriminate. }
-          subst k. cbn in Hg. change (c_towers (f_c s)) with (c_towers (f_c s1)) in Hg. rewrite Eam in Hg. cbn in Hg.
-          change (tracked s t) with (tracked s1 t) in Hg. destruct (tracked s1 t); [contradiction|discriminate]. }
+          (* a tower with a proof row has a tower row, so it was known: its status is kept *)
+          intros k Hk Hm. rewrite (Mrow_ext _ _ k (Hfr T_misbehaving_proofs ltac:(discriminate) ltac:(discriminate))) in Hm.
+          assert (Hk0 : knownc (f_c s1) k) by (apply (known_iff_Trow _ k HI Hp1), (Mrow_Trow _ _ (proj1 HI) Hm)).
+          specialize (V2 k Hk0 Hm). rewrite Hst. destruct (N.eqb k t) eqn:Ek; [|exact V2].
+          apply N.eqb_eq in Ek. subst k. rewrite V2. reflexivity. }
     destruct r; cbn [fst]; exact Hgoal.
   - (* connection error *)
-    destruct (amem (c_towers (f_c s1)) t) eqn:Ek; [|exact HF1].
-    destruct HF1 as [HI [HD [HV HT]]]. destruct (HV Hp1) as [V1 [V2 [V3 [V4 V5]]]].
-    destruct (prim_set_status (f_c s1) t TemporaryUnreachable HI) as [HI' [Ed [Hret [Hpo [Hst _]]]]].
-    apply FInv_client; [exact (conj HI (conj HD (conj HV HT)))|exact HI'|rewrite Ed; exact HD|].
-    intros _. split; [exact Hp1|]. split; [|split; [|exact Hret]].
-    + intros k Hk. rewrite Ed. apply V1. rewrite Hst in Hk. destruct (N.eqb k t); [|exact Hk].
-      destruct (stat (f_c s1) t); discriminate.
-    + intros k Hk l Hl. rewrite Ed. apply V2; [|exact Hl]. unfold knownc, amem in *. specialize (Hst k). unfold stat in Hst.
-      destruct (N.eqb k t) eqn:Ekt.
-      * apply N.eqb_eq in Ekt. subst k. exact Ek.
-      * destruct (aget (c_towers (wt_set_tower_status (f_c s1) t TemporaryUnreachable)) k), (aget (c_towers (f_c s1)) k); cbn in Hst; try discriminate; auto.
+    destruct (amem (c_towers (f_c s1)) t) eqn:Ek; [|exact HF1]. apply FInv_flag_unreachable; assumption.
 Qed.
 
 (* ---- sets ---- *)
@@ -1051,28 +1157,6 @@ Proof. intros H. unfold set_remove. apply NoDup_filter. exact H. Qed.
 Lemma NoDup_rdata_set d : NoDup (rdata_set d).
 Proof. destruct d; cbn; [constructor; [tauto|constructor]|apply NoDup_set_union; constructor|constructor]. Qed.
 
-Lemma tracked_push s t d k : tracked (push_chan s t d) k = tracked s k ++ (if N.eqb t k then rdata_set d else []).
-Proof.
-  rewrite !tracked_eq. unfold push_chan. cbn [f_chan set_chan]. rewrite chan_data_app, <- app_assoc. f_equal. f_equal.
-  unfold chan_data. cbn. rewrite app_nil_r. reflexivity.
-Qed.
-
-(* pushing a message: the client is untouched *)
-Lemma FInv_push s t d :
-  FInv s ->
-  (poisoned s = false -> knownc (f_c s) t -> forall l, In l (rdata_set d) -> Prow (c_db (f_c s)) t l) ->
-  (poisoned s = false -> rstat s t = Some RRunning -> NoDup (tracked s t ++ rdata_set d)) ->
-  FInv (push_chan s t d).
-Proof.
-  intros [HI [HD [HV HT]]] H1 H2. split; [exact HI|]. split; [exact HD|]. split; [|exact HT].
-  intros Hp. change (poisoned (push_chan s t d)) with (poisoned s) in Hp. destruct (HV Hp) as [V1 [V2 [V3 [V4 V5]]]].
-  split; [exact V1|]. split; [|split; [|split; [exact V4|exact V5]]].
-  - intros k Hk l Hl. rewrite tracked_push in Hl. apply in_app_or in Hl. destruct Hl as [Hl|Hl]; [apply V2; assumption|].
-    destruct (N.eqb t k) eqn:E; [|contradiction]. apply N.eqb_eq in E. subst k. apply H1; assumption.
-  - intros k Hk. change (rstat (push_chan s t d) k) with (rstat s k) in Hk. rewrite tracked_push.
-    destruct (N.eqb t k) eqn:E; [|rewrite app_nil_r; apply V3, Hk]. apply N.eqb_eq in E. subst k. apply H2; assumption.
-Qed.
-
 (* ---- retrytower ---- *)
 Lemma su_pending_rows c t su l : Inv c -> c_poisoned c = false -> aget (c_towers c) t = Some su -> In l (su_pending su) -> Prow (c_db c) t l.
 Proof.
@@ -1085,13 +1169,8 @@ Proof.
   intros HF. unfold f_manual_retry. destruct (poisoned s) eqn:Hp; [exact HF|].
   destruct (aget (c_towers (f_c s)) t) as [su|] eqn:Et; [|exact HF].
   destruct (aget (c_retriers (f_c s)) t) as [st|] eqn:Er.
-  - destruct (is_idle st); [|exact HF]. cbn [fst]. apply FInv_push; [exact HF| |].
-    + intros _ _ l [].
-    + intros _ Hr. cbn [rdata_set]. rewrite app_nil_r. destruct HF as [_ [_ [HV _]]]. destruct (HV Hp) as [_ [_ [V3 _]]]. apply V3, Hr.
-  - destruct (is_retryable (su_status su)); [|exact HF]. cbn [fst]. apply FInv_push; [exact HF| |].
-    + intros _ _ l Hl. cbn in Hl. apply In_set_union in Hl. destruct Hl as [[]|Hl].
-      destruct HF as [HI _]. eapply su_pending_rows; eauto.
-    + intros _ Hr. destruct HF as [_ [_ [HV _]]]. destruct (HV Hp) as [_ [_ [_ [_ V5]]]]. rewrite (V5 t Hr) in Er. discriminate.
+  - destruct (is_idle st); [|exact HF]. cbn [fst]. apply FInv_push. exact HF.
+  - destruct (is_retryable (su_status su)); [|exact HF]. cbn [fst]. apply FInv_push. exact HF.
 Qed.
 
 (* ---- restart ---- *)
@@ -1120,19 +1199,16 @@ Proof.
   intros HF HD. assert (HDb : DbInv d) by apply HD.
   assert (HI' : Inv (wt_reload (with_db (f_c s) d))) by (apply Inv_reload; exact HDb).
   split; [exact HI'|]. split; [exact HD|]. split; [|apply TaskInv_restart].
-  intros _. split; [|split; [|split; [|split]]].
+  intros _. split; [|split; [|split]].
   - intros t Ht. unfold stat, restart_with in *. cbn [f_c c_towers wt_reload c_db with_db] in *.
     destruct (aget (load_towers d) t) as [su|] eqn:E; [|cbn in Ht; discriminate]. cbn in Ht. inversion Ht as [Hs].
     apply aget_In, load_towers_In in E. destruct E as [_ Est]. rewrite Est in Hs. unfold db_status in Hs.
     destruct (exists_misbehaving_proof d t) eqn:Ep; [apply proof_iff; exact Ep|].
     destruct (pending_locators d t); discriminate.
-  - intros t Hk l Hl. rewrite tracked_eq in Hl. unfold retrier_pending, restart_with in *. cbn [f_mgr f_chan f_c aget app] in *. unfold chan_data in Hl. rewrite in_flat_map in Hl. destruct Hl as [[k dt] [A B]].
-    apply in_map_iff in A. destruct A as [[k' ls] [A1 A2]]. cbn in A1. inversion A1. subst. clear A1.
-    cbn in B. destruct (N.eqb k t) eqn:Ek; [|contradiction]. apply N.eqb_eq in Ek. subst k.
-    apply reload_retries_In in A2. destruct A2 as [su [A2 ->]]. cbn [c_towers wt_reload c_db with_db] in A2.
-    apply load_towers_In in A2. destruct A2 as [Epend _]. apply In_set_union in B. destruct B as [[]|B].
-    rewrite Epend in B. apply In_pending_locators in B. destruct B as [row [B1 [B2 B3]]]. exists row. auto.
-  - intros t Ht. discriminate.
+  - intros t Hk Hm. unfold stat, knownc, amem, restart_with in *. cbn [f_c c_towers wt_reload c_db with_db] in *.
+    destruct (aget (load_towers d) t) as [su|] eqn:E; [|discriminate]. cbn. f_equal.
+    apply aget_In, load_towers_In in E. destruct E as [_ Est]. rewrite Est. unfold db_status.
+    apply proof_iff in Hm. rewrite Hm. reflexivity.
   - intros t r Ht. discriminate.
   - intros t Ht. discriminate.
 Qed.
@@ -1203,7 +1279,7 @@ Proof.
       (split; [first [exact HF|apply (FInv_core s); auto]|repeat split; reflexivity]). }
   destruct HF0 as [HF0 [Ec [Ed [Em [Ech Et]]]]]. rewrite Ec.
   destruct (wt_remove_tower (f_c s) t) as [c' r] eqn:E.
-  destruct HF as [HI [HD [HV HT]]]. destruct (HV Hp) as [V1 [V2 [V3 [V4 V5]]]].
+  destruct HF as [HI [HD [HV HT]]]. destruct (HV Hp) as [V1 [V2 [V4 V5]]].
   destruct (prim_remove_tower _ _ _ _ HI Hp Ek E) as [HI' [Hret [-> [Hp' [Hst Hfr]]]]].
   cbn [fst]. rewrite Ed.
   assert (R : forall k l, Rrow (c_db c') k l <-> Rrow (c_db (f_c s)) k l /\ k <> t) by (intros; apply Rrow_filter, Hfr; discriminate).
@@ -1219,15 +1295,13 @@ Proof.
     + intros k l Hin. cbn [f_due set_due] in Hin. apply filter_In in Hin. destruct Hin as [Hin Hn]. cbn in Hn.
       apply negb_true_iff, N.eqb_neq in Hn. destruct (E0 k l Hin) as [A B]. split; [apply T; tauto|].
       intros Hm. rewrite R, P, I. assert (Hm0 : ~ Mrow (c_db (f_c s)) k) by (intros H; apply Hm, M; tauto). specialize (B Hm0). tauto.
-  - intros _. cbn [f_c set_due wr_c]. split; [|split; [|split; [|split]]].
+  - intros _. cbn [f_c set_due wr_c]. split; [|split; [|split]].
     + intros k Hk. rewrite Hst in Hk. destruct (N.eqb k t) eqn:Ekt; [discriminate Hk|]. apply N.eqb_neq in Ekt. apply M. split; [apply V1, Hk|exact Ekt].
-    + intros k Hk l Hl. assert (Hkn : k <> t /\ knownc (f_c s) k).
-      { unfold knownc, amem in *. cbn [f_c set_due wr_c] in Hk. specialize (Hst k). unfold stat in Hst. destruct (N.eqb k t) eqn:Ekt; try rewrite Ekt in Hst.
-        - destruct (aget (c_towers c') k); cbn in Hst; [discriminate Hst|discriminate Hk].
-        - apply N.eqb_neq in Ekt. split; [exact Ekt|]. destruct (aget (c_towers c') k), (aget (c_towers (f_c s)) k); cbn in Hst; try discriminate; auto. }
-      apply P. split; [|tauto]. apply V2; [tauto|].
-      unfold tracked, retrier_pending in *. cbn [f_mgr f_chan set_due wr_c] in Hl. rewrite Em, Ech in Hl. exact Hl.
-    + intros k Hk. unfold tracked, retrier_pending, rstat in *. cbn [f_mgr f_chan set_due wr_c] in *. rewrite Em in *. rewrite Ech. apply V3, Hk.
+    + intros k Hk Hm. apply M in Hm. destruct Hm as [Hm Hkt]. apply N.eqb_neq in Hkt.
+      assert (Hkn : knownc (f_c s) k).
+      { unfold knownc, amem in *. cbn [f_c set_due wr_c] in Hk. pose proof (Hst k) as Hs. unfold stat in Hs. rewrite Hkt in Hs.
+        destruct (aget (c_towers c') k), (aget (c_towers (f_c s)) k); cbn in Hs; try discriminate Hs; try discriminate Hk; reflexivity. }
+      rewrite Hst, Hkt. apply V2; assumption.
     + intros k r0 Hk. cbn [f_mgr set_due wr_c] in Hk. rewrite Em in Hk. eapply V4, Hk.
     + intros k Hk. unfold rstat in *. cbn [f_mgr set_due wr_c] in Hk. rewrite Em in Hk. cbn [f_c set_due wr_c]. rewrite Hret. apply V5, Hk.
   - apply (TaskInv_same s); [exact Et| |exact HT]. intros k. unfold rstat. cbn [f_mgr set_due wr_c]. rewrite Em. reflexivity.
@@ -1253,9 +1327,6 @@ Proof.
   destruct (memN l (su_pending s)); [left; reflexivity|]. destruct (dbm_store_pending_appointment (c_db c) t l b dl); [left|right; eexists]; reflexivity.
 Qed.
 
-Lemma knownc_stat c c' : (forall k, stat c' k = stat c k) -> forall k, knownc c' k <-> knownc c k.
-Proof. intros H k. unfold knownc. rewrite (stat_known c c' H k). tauto. Qed.
-
 Lemma FInv_rev_pend s l t send s' o :
   FInv s -> poisoned s = false -> knownc (f_c s) t ->
   ~ Prow (c_db (f_c s)) t l -> (~ Mrow (c_db (f_c s)) t -> ~ Rrow (c_db (f_c s)) t l /\ ~ Irow (c_db (f_c s)) t l) ->
@@ -1265,7 +1336,7 @@ Lemma FInv_rev_pend s l t send s' o :
 Proof.
   intros HF Hp Hk HnP HnRI. unfold rev_pend.
   destruct (wt_add_pending_appointment (f_c s) t l BLOB DELAY) as [c2 r] eqn:E.
-  pose proof HF as [HI [HD [HV HT]]]. destruct (HV Hp) as [V1 [V2 [V3 [V4 V5]]]].
+  pose proof HF as [HI [HD [HV HT]]]. destruct (HV Hp) as [V1 [V2 [V4 V5]]].
   destruct (prim_add_pending _ _ _ _ _ _ _ HI Hp E) as [HI' [Hret [Hst [Hh [Heff Hrow]]]]].
   pose proof (add_pending_result (f_c s) t l BLOB DELAY Hk) as Hres. rewrite E in Hres. cbn [snd] in Hres.
   (* the database effect, uniformly *)
@@ -1296,7 +1367,7 @@ Proof.
   { apply FInv_client; [exact HF|exact HI'|exact HD2|]. intros Hp2. destruct (Hrows Hp2) as [EP EM].
     split; [exact Hp|]. split; [|split; [|exact Hret]].
     - intros k Hk'. apply EM, V1. rewrite <- Hst. exact Hk'.
-    - intros k Hk' x Hx. apply EP. left. apply V2; [apply (knownc_stat _ _ Hst), Hk'|exact Hx]. }
+    - intros k Hk' Hm'. rewrite Hst. apply V2; [apply (knownc_stat _ _ Hst), Hk'|apply EM, Hm']. }
   destruct r; inversion 1; subst; clear H; try (destruct Hres as [Hres|[st Hres]]; discriminate).
   - (* stored: maybe hand it to the retrier *)
     assert (Hp2 : c_poisoned c2 = false) by exact Hh.
@@ -1305,11 +1376,7 @@ Proof.
     assert (Hpush : FInv (send_to_retrier (wr_c s c2) t l)).
     { unfold send_to_retrier.
       assert (Hgo : FInv (push_chan (wr_c s c2) t (DFresh l))).
-      { apply FInv_push; [exact HF2| |].
-        - intros _ _ x [<-|[]]. exact Hrowl.
-        - intros _ Hr. change (tracked (wr_c s c2) t) with (tracked s t). cbn [rdata_set].
-          apply NoDup_app_iff. split; [apply V3; exact Hr|]. split; [constructor; [tauto|constructor]|].
-          intros x Hx [<-|[]]. apply HnP. apply V2; assumption. }
+      { apply FInv_push. exact HF2. }
       destruct (aget (c_retriers (f_c (wr_c s c2))) t) as [st|]; [destruct (is_running st)|]; try exact Hgo; exact HF2. }
     split; [destruct send; [exact Hpush|exact HF2]|].
     split; [destruct send; [unfold send_to_retrier; dmatch|]; reflexivity|].
@@ -1353,34 +1420,17 @@ Proof.
   destruct (memN l (su_invalid s)); [left; reflexivity|]. destruct (dbm_store_invalid_appointment (c_db c) t l b dl); [left|right; eexists]; reflexivity.
 Qed.
 
-(* the volatile facts survive a primitive that keeps the statuses and only grows the pending rows *)
+(* the volatile facts survive a primitive that keeps the statuses and the proof rows *)
 Lemma FInv_client_grow s c' :
   FInv s -> poisoned s = false -> Inv c' -> DurInv (c_db c') (f_due s) ->
   (forall k, stat c' k = stat (f_c s) k) -> c_retriers c' = c_retriers (f_c s) ->
-  (forall k x, Prow (c_db (f_c s)) k x -> Prow (c_db c') k x) -> (forall k, Mrow (c_db (f_c s)) k -> Mrow (c_db c') k) ->
+  (forall k, Mrow (c_db c') k <-> Mrow (c_db (f_c s)) k) ->
   FInv (set_c s c').
 Proof.
-  intros HF Hp HI' HD' Hst Hret HP HM. pose proof HF as [_ [_ [HV _]]]. destruct (HV Hp) as [V1 [V2 _]].
+  intros HF Hp HI' HD' Hst Hret HM. pose proof HF as [_ [_ [HV _]]]. destruct (HV Hp) as [V1 [V2 _]].
   apply FInv_client; [exact HF|exact HI'|exact HD'|]. intros _. split; [exact Hp|]. split; [|split; [|exact Hret]].
   - intros k Hk. apply HM, V1. rewrite <- Hst. exact Hk.
-  - intros k Hk x Hx. apply HP, V2; [apply (knownc_stat _ _ Hst), Hk|exact Hx].
-Qed.
-
-Lemma knownc_set_status c t st k : knownc (wt_set_tower_status c t st) k <-> knownc c k.
-Proof.
-  unfold knownc, amem, wt_set_tower_status. destruct (aget (c_towers c) t) as [su|] eqn:E; [|tauto].
-  cbn [c_towers with_towers]. rewrite aget_aset. destruct (N.eqb k t) eqn:Ek; [|tauto]. apply N.eqb_eq in Ek. subst. rewrite E. tauto.
-Qed.
-
-Lemma FInv_set_status s t st :
-  FInv s -> poisoned s = false -> st <> Misbehaving -> FInv (set_c s (wt_set_tower_status (f_c s) t st)).
-Proof.
-  intros HF Hp Hst. pose proof HF as [HI [HD [HV HT]]]. destruct (HV Hp) as [V1 [V2 _]].
-  destruct (prim_set_status (f_c s) t st HI) as [HI' [Ed [Hret [Hpo [Hs _]]]]].
-  apply FInv_client; [exact HF|exact HI'|rewrite Ed; exact HD|]. intros _. split; [exact Hp|]. split; [|split; [|exact Hret]].
-  - intros k Hk. rewrite Ed. apply V1. rewrite Hs in Hk. destruct (N.eqb k t); [|exact Hk].
-    destruct (stat (f_c s) t); cbn in Hk; [inversion Hk; congruence|discriminate].
-  - intros k Hk x Hx. rewrite Ed. apply V2; [apply (knownc_set_status _ t st k), Hk|exact Hx].
+  - intros k Hk Hm. rewrite Hst. apply V2; [apply (knownc_stat _ _ Hst), Hk|apply HM, Hm].
 Qed.
 
 Lemma FInv_rev_tower s l t st rp s' o :
@@ -1392,7 +1442,7 @@ Lemma FInv_rev_tower s l t st rp s' o :
 Proof.
   intros HF Hk Hsnap. unfold rev_tower. destruct (poisoned s) eqn:Hp.
   { intros E. inversion E. subst. split; [exact HF|]. split; [reflexivity|]. split; [apply grows_refl|]. split; [tauto|]. intros H0; discriminate H0. }
-  pose proof HF as [HI [HD [HV HT]]]. destruct (HV Hp) as [V1 [V2 [V3 [V4 V5]]]].
+  pose proof HF as [HI [HD [HV HT]]]. destruct (HV Hp) as [V1 [V2 [V4 V5]]].
   pose proof (proj1 (known_iff_Trow _ t HI Hp) Hk) as HTr.
   pose proof (has_appointment_iff _ t l HI Hp Hk) as Hha.
   destruct (wt_has_appointment (f_c s) t l) eqn:Eha.
@@ -1419,8 +1469,10 @@ Proof.
         - intros k. apply (Trow_map _ _ _ k T0 (upd_slots_key t slots)).
         - tauto. }
       destruct Hdb as [HD2 Hg].
+      assert (HM2 : forall k, Mrow (c_db c2) k <-> Mrow (c_db (f_c s)) k).
+      { destruct Heff as [Ed|[_ [_ [_ [_ [T5 [T0 Hfr]]]]]]]; [intros k; rewrite Ed; tauto|]. intros k. apply Mrow_ext, Hfr; discriminate. }
       assert (HF2 : FInv (set_c s1 c2)).
-      { apply FInv_client_grow; [exact HF1|exact Hp|exact HI'|exact HD2|exact Hst|exact Hret|apply Hg|apply Hg]. }
+      { apply FInv_client_grow; [exact HF1|exact Hp|exact HI'|exact HD2|exact Hst|exact Hret|exact HM2]. }
       intros E2. inversion E2. subst. clear E2.
       split; [exact HF2|]. split; [reflexivity|]. split; [exact Hg|]. split; [apply (knownc_stat _ _ Hst)|].
       intros Ho. destruct Hres as [->|[st0 ->]]; [|discriminate]. split; [exact Hh|]. split; [apply Hg, HTr|].
@@ -1429,16 +1481,14 @@ Proof.
       destruct (wt_flag_misbehaving_tower (f_c s1) t l START_BLOCK USER_SIG SIG_OTHER (other_id t)) as [c2 r] eqn:E.
       destruct (prim_flag _ _ _ _ _ _ _ _ _ HI Hp E) as [HI' [Hret [Hh Heff]]].
       intros E2. inversion E2. subst. clear E2.
-      destruct Heff as [[Ed [Hst Hne]]|[-> [Hp2 [_ [Hst [T5 [T6 Hfr]]]]]]].
+      destruct Heff as [[Ed [Hst Hne]]|[-> [Hp2 [_ [Hst [M1 [EM [ER Hfr]]]]]]]].
       * assert (HF2 : FInv (set_c s1 c2)).
-        { apply FInv_client_grow; [exact HF1|exact Hp|exact HI'|rewrite Ed; exact HD|exact Hst|exact Hret|intros k x H; rewrite Ed; exact H|intros k H; rewrite Ed; exact H]. }
+        { apply FInv_client_grow; [exact HF1|exact Hp|exact HI'|rewrite Ed; exact HD|exact Hst|exact Hret|intros k; rewrite Ed; tauto]. }
         split; [exact HF2|]. split; [reflexivity|]. split; [apply grows_eq, Ed|]. split; [apply (knownc_stat _ _ Hst)|].
         intros Ho. exfalso. pose proof (flag_result (f_c s1) t l START_BLOCK USER_SIG SIG_OTHER (other_id t) Hk) as Hr.
         rewrite E in Hr. cbn [snd] in Hr. destruct Hr as [->|[st0 ->]]; [apply Hne; reflexivity|discriminate Ho].
-      * assert (ER : forall k x, Rrow (c_db c2) k x <-> Rrow (c_db (f_c s)) k x \/ (k = t /\ x = l)) by (intros; apply (Rrow_app _ _ _ _ _ _ _ k x T5)).
-        assert (EPr : forall k x, Prow (c_db c2) k x <-> Prow (c_db (f_c s)) k x) by (intros; apply Prow_ext, Hfr; discriminate).
+      * assert (EPr : forall k x, Prow (c_db c2) k x <-> Prow (c_db (f_c s)) k x) by (intros; apply Prow_ext, Hfr; discriminate).
         assert (EI : forall k x, Irow (c_db c2) k x <-> Irow (c_db (f_c s)) k x) by (intros; apply Irow_ext, Hfr; discriminate).
-        assert (EM : forall k, Mrow (c_db c2) k <-> Mrow (c_db (f_c s)) k \/ k = t) by (intros; apply (Mrow_app _ _ _ _ _ k T6)).
         assert (ET : forall k, Trow (c_db c2) k <-> Trow (c_db (f_c s)) k) by (intros; apply Trow_ext, Hfr; discriminate).
         assert (Hg : grows (c_db (f_c s)) (c_db c2)).
         { split; [intros k x H; apply ER; tauto|]. split; [intros k x H; apply EPr; tauto|]. split; [intros k x H; apply EI; tauto|].
@@ -1453,10 +1503,10 @@ Proof.
         assert (HF2 : FInv (set_c s1 c2)).
         { apply FInv_client; [exact HF1|exact HI'|exact HD2|]. intros _. split; [exact Hp|]. split; [|split; [|exact Hret]].
           - intros k Hk'. apply EM. rewrite Hst in Hk'. destruct (N.eqb k t) eqn:Ekt; [right; apply N.eqb_eq; exact Ekt|left; apply V1, Hk'].
-          - intros k Hk' x Hx. apply EPr. apply V2; [|exact Hx]. unfold knownc, amem in *. specialize (Hst k). unfold stat in Hst.
-            change (f_c s1) with (f_c s) in *.
-            destruct (N.eqb k t) eqn:Ekt; [apply N.eqb_eq in Ekt; subst k; exact Hk|].
-            destruct (aget (c_towers c2) k), (aget (c_towers (f_c s)) k); cbn in Hst; try discriminate; auto. }
+          - intros k Hk' Hm'. rewrite Hst. destruct (N.eqb k t) eqn:Ekt; [reflexivity|]. apply V2.
+            + unfold knownc, amem in *. pose proof (Hst k) as Hs. unfold stat in Hs. rewrite Ekt in Hs. change (f_c s1) with (f_c s) in *.
+              destruct (aget (c_towers c2) k), (aget (c_towers (f_c s)) k); cbn in Hs; try discriminate; auto.
+            + apply EM in Hm'. destruct Hm' as [H|H]; [exact H|]. apply N.eqb_neq in Ekt. contradiction. }
         split; [exact HF2|]. split; [reflexivity|]. split; [exact Hg|]. split.
         { intros k. unfold knownc, amem. specialize (Hst k). unfold stat in Hst. change (f_c s1) with (f_c s) in *. cbn [f_c set_c wr_c]. destruct (N.eqb k t) eqn:Ekt.
           - apply N.eqb_eq in Ekt. subst k. unfold knownc, amem in Hk. destruct (aget (c_towers c2) t), (aget (c_towers (f_c s)) t); cbn in Hst; try discriminate; intuition congruence.
@@ -1465,8 +1515,8 @@ Proof.
     + (* undecodable signature: the request failed: pending, status, retrier *)
       intros E. set (s2 := set_c s1 (wt_set_tower_status (f_c s1) t TemporaryUnreachable)) in *.
       assert (HF2 : FInv s2) by (apply FInv_set_status; [exact HF1|exact Hp|discriminate]).
-      assert (Ed2 : c_db (f_c s2) = c_db (f_c s)) by (unfold s2, wt_set_tower_status; cbn [f_c set_c]; destruct (aget (c_towers (f_c s1)) t); reflexivity).
-      assert (Hp2 : poisoned s2 = false) by (unfold s2, poisoned, wt_set_tower_status; cbn [f_c set_c]; destruct (aget (c_towers (f_c s1)) t); exact Hp).
+      assert (Ed2 : c_db (f_c s2) = c_db (f_c s)) by (apply DbInv_set_status).
+      assert (Hp2 : poisoned s2 = false) by (unfold s2, poisoned; cbn [f_c set_c]; rewrite poisoned_set_status; exact Hp).
       assert (Hk2 : knownc (f_c s2) t) by (apply knownc_set_status; exact Hk).
       destruct (FInv_rev_pend s2 l t true s' o HF2 Hp2 Hk2) as [HF' [Hdue [Hg [Hst' Hok]]]]; try (rewrite Ed2; tauto); [exact E|].
       split; [exact HF'|]. split; [exact Hdue|]. split; [rewrite <- Ed2; exact Hg|]. split.
@@ -1475,8 +1525,8 @@ Proof.
     + (* connection error: the request failed: pending, status, retrier *)
       intros E. set (s2 := set_c s1 (wt_set_tower_status (f_c s1) t TemporaryUnreachable)) in *.
       assert (HF2 : FInv s2) by (apply FInv_set_status; [exact HF1|exact Hp|discriminate]).
-      assert (Ed2 : c_db (f_c s2) = c_db (f_c s)) by (unfold s2, wt_set_tower_status; cbn [f_c set_c]; destruct (aget (c_towers (f_c s1)) t); reflexivity).
-      assert (Hp2 : poisoned s2 = false) by (unfold s2, poisoned, wt_set_tower_status; cbn [f_c set_c]; destruct (aget (c_towers (f_c s1)) t); exact Hp).
+      assert (Ed2 : c_db (f_c s2) = c_db (f_c s)) by (apply DbInv_set_status).
+      assert (Hp2 : poisoned s2 = false) by (unfold s2, poisoned; cbn [f_c set_c]; rewrite poisoned_set_status; exact Hp).
       assert (Hk2 : knownc (f_c s2) t) by (apply knownc_set_status; exact Hk).
       destruct (FInv_rev_pend s2 l t true s' o HF2 Hp2 Hk2) as [HF' [Hdue [Hg [Hst' Hok]]]]; try (rewrite Ed2; tauto); [exact E|].
       split; [exact HF'|]. split; [exact Hdue|]. split; [rewrite <- Ed2; exact Hg|]. split.
@@ -1485,8 +1535,8 @@ Proof.
     + (* undecodable body: the request failed: pending, status, retrier *)
       intros E. set (s2 := set_c s1 (wt_set_tower_status (f_c s1) t TemporaryUnreachable)) in *.
       assert (HF2 : FInv s2) by (apply FInv_set_status; [exact HF1|exact Hp|discriminate]).
-      assert (Ed2 : c_db (f_c s2) = c_db (f_c s)) by (unfold s2, wt_set_tower_status; cbn [f_c set_c]; destruct (aget (c_towers (f_c s1)) t); reflexivity).
-      assert (Hp2 : poisoned s2 = false) by (unfold s2, poisoned, wt_set_tower_status; cbn [f_c set_c]; destruct (aget (c_towers (f_c s1)) t); exact Hp).
+      assert (Ed2 : c_db (f_c s2) = c_db (f_c s)) by (apply DbInv_set_status).
+      assert (Hp2 : poisoned s2 = false) by (unfold s2, poisoned; cbn [f_c set_c]; rewrite poisoned_set_status; exact Hp).
       assert (Hk2 : knownc (f_c s2) t) by (apply knownc_set_status; exact Hk).
       destruct (FInv_rev_pend s2 l t true s' o HF2 Hp2 Hk2) as [HF' [Hdue [Hg [Hst' Hok]]]]; try (rewrite Ed2; tauto); [exact E|].
       split; [exact HF'|]. split; [exact Hdue|]. split; [rewrite <- Ed2; exact Hg|]. split.
@@ -1495,8 +1545,8 @@ Proof.
     + (* unexpected: the request failed: pending, status, retrier *)
       intros E. set (s2 := set_c s1 (wt_set_tower_status (f_c s1) t TemporaryUnreachable)) in *.
       assert (HF2 : FInv s2) by (apply FInv_set_status; [exact HF1|exact Hp|discriminate]).
-      assert (Ed2 : c_db (f_c s2) = c_db (f_c s)) by (unfold s2, wt_set_tower_status; cbn [f_c set_c]; destruct (aget (c_towers (f_c s1)) t); reflexivity).
-      assert (Hp2 : poisoned s2 = false) by (unfold s2, poisoned, wt_set_tower_status; cbn [f_c set_c]; destruct (aget (c_towers (f_c s1)) t); exact Hp).
+      assert (Ed2 : c_db (f_c s2) = c_db (f_c s)) by (apply DbInv_set_status).
+      assert (Hp2 : poisoned s2 = false) by (unfold s2, poisoned; cbn [f_c set_c]; rewrite poisoned_set_status; exact Hp).
       assert (Hk2 : knownc (f_c s2) t) by (apply knownc_set_status; exact Hk).
       destruct (FInv_rev_pend s2 l t true s' o HF2 Hp2 Hk2) as [HF' [Hdue [Hg [Hst' Hok]]]]; try (rewrite Ed2; tauto); [exact E|].
       split; [exact HF'|]. split; [exact Hdue|]. split; [rewrite <- Ed2; exact Hg|]. split.
@@ -1505,8 +1555,8 @@ Proof.
     + (* subscription error: the request failed: pending, status, retrier *)
       intros E. set (s2 := set_c s1 (wt_set_tower_status (f_c s1) t SubscriptionError)) in *.
       assert (HF2 : FInv s2) by (apply FInv_set_status; [exact HF1|exact Hp|discriminate]).
-      assert (Ed2 : c_db (f_c s2) = c_db (f_c s)) by (unfold s2, wt_set_tower_status; cbn [f_c set_c]; destruct (aget (c_towers (f_c s1)) t); reflexivity).
-      assert (Hp2 : poisoned s2 = false) by (unfold s2, poisoned, wt_set_tower_status; cbn [f_c set_c]; destruct (aget (c_towers (f_c s1)) t); exact Hp).
+      assert (Ed2 : c_db (f_c s2) = c_db (f_c s)) by (apply DbInv_set_status).
+      assert (Hp2 : poisoned s2 = false) by (unfold s2, poisoned; cbn [f_c set_c]; rewrite poisoned_set_status; exact Hp).
       assert (Hk2 : knownc (f_c s2) t) by (apply knownc_set_status; exact Hk).
       destruct (FInv_rev_pend s2 l t true s' o HF2 Hp2 Hk2) as [HF' [Hdue [Hg [Hst' Hok]]]]; try (rewrite Ed2; tauto); [exact E|].
       split; [exact HF'|]. split; [exact Hdue|]. split; [rewrite <- Ed2; exact Hg|]. split.
@@ -1526,8 +1576,10 @@ Proof.
         - intros k. apply Trow_ext, Hfr; discriminate.
         - tauto. }
       destruct Hdb as [HD2 Hg].
+      assert (HM2 : forall k, Mrow (c_db c2) k <-> Mrow (c_db (f_c s)) k).
+      { destruct Heff as [Ed|[_ [_ [_ [T3 Hfr]]]]]; [intros k; rewrite Ed; tauto|]. intros k. apply Mrow_ext, Hfr; discriminate. }
       assert (HF2 : FInv (set_c s1 c2)).
-      { apply FInv_client_grow; [exact HF1|exact Hp|exact HI'|exact HD2|exact Hst|exact Hret|apply Hg|apply Hg]. }
+      { apply FInv_client_grow; [exact HF1|exact Hp|exact HI'|exact HD2|exact Hst|exact Hret|exact HM2]. }
       intros E2. inversion E2. subst. clear E2.
       split; [exact HF2|]. split; [reflexivity|]. split; [exact Hg|]. split; [apply (knownc_stat _ _ Hst)|].
       intros Ho. destruct Hres as [->|[st0 ->]]; [|discriminate]. split; [exact Hh|]. split; [apply Hg, HTr|].
@@ -1623,76 +1675,34 @@ Proof.
 Qed.
 
 (* ---- the retry manager ---- *)
-Lemma NoDup_app_drop_mid {A} (a b c : list A) : NoDup (a ++ b ++ c) -> NoDup (a ++ c).
-Proof.
-  intros H. apply NoDup_app_iff in H. destruct H as [Ha [Hbc Hd]]. apply NoDup_app_iff in Hbc. destruct Hbc as [Hb [Hc Hd2]].
-  apply NoDup_app_iff. split; [exact Ha|]. split; [exact Hc|]. intros x Hx Hy. apply (Hd x Hx). apply in_or_app. right. exact Hy.
-Qed.
-
-Lemma NoDup_union_mid (a b c : list N) : NoDup (a ++ b ++ c) -> NoDup (set_union a b ++ c).
-Proof.
-  intros H. apply NoDup_app_iff in H. destruct H as [Ha [Hbc Hd]]. apply NoDup_app_iff in Hbc. destruct Hbc as [Hb [Hc Hd2]].
-  apply NoDup_app_iff. split; [apply NoDup_set_union; exact Ha|]. split; [exact Hc|].
-  intros x Hx Hy. apply In_set_union in Hx. destruct Hx as [Hx|Hx].
-  - apply (Hd x Hx). apply in_or_app. right. exact Hy.
-  - apply (Hd2 x Hx Hy).
-Qed.
-
 Lemma Inv_with_retriers c m : Inv c -> Inv (with_retriers c m).
 Proof. intros H. exact H. Qed.
-
-Lemma tracked_set_chan s q k : tracked (set_chan s q) k = retrier_pending s k ++ chan_data q k.
-Proof. reflexivity. Qed.
-
-Lemma chan_data_cons t data rest k :
-  chan_data ((t, data) :: rest) k = (if N.eqb t k then rdata_set data else []) ++ chan_data rest k.
-Proof. reflexivity. Qed.
 
 Lemma retrier_pending_put s t r k : retrier_pending (put_retrier s t r) k = if N.eqb k t then r_pending r else retrier_pending s k.
 Proof. unfold retrier_pending, put_retrier, set_mgr. cbn [f_mgr]. rewrite aget_aset. destruct (N.eqb k t); reflexivity. Qed.
 
-Lemma tracked_put s t r k :
-  tracked (put_retrier s t r) k = (if N.eqb k t then r_pending r else retrier_pending s k) ++ chan_data (f_chan s) k.
-Proof. rewrite tracked_eq, retrier_pending_put. reflexivity. Qed.
-
 (* replacing the retrier of tower t (the client untouched) *)
 Lemma FInv_put s t r :
   FInv s ->
-  (poisoned s = false -> knownc (f_c s) t -> forall l, In l (r_pending r) -> Prow (c_db (f_c s)) t l) ->
-  (poisoned s = false -> r_status r = RRunning -> NoDup (r_pending r ++ chan_data (f_chan s) t) /\ aget (c_retriers (f_c s)) t = Some RRunning) ->
+  (poisoned s = false -> r_status r = RRunning -> aget (c_retriers (f_c s)) t = Some RRunning) ->
   (poisoned s = false -> NoDup (r_pending r)) ->
   TaskInv (put_retrier s t r) ->
   FInv (put_retrier s t r).
 Proof.
-  intros [HI [HD [HV HT]]] H1 H2 H3 HT'. split; [exact HI|]. split; [exact HD|]. split; [|exact HT'].
-  intros Hp. change (poisoned (put_retrier s t r)) with (poisoned s) in Hp. destruct (HV Hp) as [V1 [V2 [V3 [V4 V5]]]].
-  split; [exact V1|]. split; [|split; [|split]].
-  - intros k Hk l Hl. change (f_c (put_retrier s t r)) with (f_c s) in *. rewrite tracked_put in Hl.
-    destruct (N.eqb k t) eqn:E.
-    + apply N.eqb_eq in E. subst k. apply in_app_or in Hl. destruct Hl as [Hl|Hl]; [apply H1; assumption|].
-      apply V2; [exact Hk|]. rewrite tracked_eq. apply in_or_app. right. exact Hl.
-    + apply V2; [exact Hk|]. exact Hl.
-  - intros k Hk. rewrite rstat_put in Hk. rewrite tracked_put. destruct (N.eqb k t) eqn:E.
-    + apply N.eqb_eq in E. subst k. assert (Hs : r_status r = RRunning) by congruence. apply (proj1 (H2 Hp Hs)).
-    + apply V3, Hk.
+  intros [HI [HD [HV HT]]] H2 H3 HT'. split; [exact HI|]. split; [exact HD|]. split; [|exact HT'].
+  intros Hp. change (poisoned (put_retrier s t r)) with (poisoned s) in Hp. destruct (HV Hp) as [V1 [V2 [V4 V5]]].
+  split; [exact V1|]. split; [exact V2|]. split.
   - intros k r0 Hk. unfold put_retrier, set_mgr in Hk. cbn [f_mgr] in Hk. rewrite aget_aset in Hk. destruct (N.eqb k t).
     + inversion Hk. subst. exact (H3 Hp).
     + eapply V4, Hk.
   - intros k Hk. rewrite rstat_put in Hk. change (f_c (put_retrier s t r)) with (f_c s). destruct (N.eqb k t) eqn:E.
-    + apply N.eqb_eq in E. subst k. assert (Hs : r_status r = RRunning) by congruence. apply (proj2 (H2 Hp Hs)).
+    + apply N.eqb_eq in E. subst k. assert (Hs : r_status r = RRunning) by congruence. apply (H2 Hp Hs).
     + apply V5, Hk.
 Qed.
 
 (* taking the head of the channel away *)
 Lemma FInv_pop s t data rest : FInv s -> f_chan s = (t, data) :: rest -> FInv (set_chan s rest).
-Proof.
-  intros [HI [HD [HV HT]]] Ec. split; [exact HI|]. split; [exact HD|]. split; [|exact HT].
-  intros Hp. destruct (HV Hp) as [V1 [V2 [V3 [V4 V5]]]]. split; [exact V1|]. split; [|split; [|split; [exact V4|exact V5]]].
-  - intros k Hk l Hl. apply V2; [exact Hk|]. rewrite tracked_set_chan in Hl. rewrite tracked_eq, Ec, chan_data_cons.
-    apply in_app_or in Hl. destruct Hl as [Hl|Hl]; apply in_or_app; [left; exact Hl|right; apply in_or_app; right; exact Hl].
-  - intros k Hk. rewrite tracked_set_chan. specialize (V3 k Hk). rewrite tracked_eq, Ec, chan_data_cons in V3.
-    apply NoDup_app_drop_mid in V3. exact V3.
-Qed.
+Proof. intros HF _. apply (FInv_core s); auto. Qed.
 
 Lemma FInv_kill_mgr s : FInv s -> FInv (kill_mgr s).
 Proof. apply FInv_core; reflexivity. Qed.
@@ -1703,43 +1713,30 @@ Proof.
   intros HF Hp Hr Hi. unfold wake.
   set (c1 := with_retriers (f_c s) (aremove (c_retriers (f_c s)) t)).
   assert (HF1 : FInv (set_c s c1)).
-  { pose proof HF as [HI [HD [HV HT]]]. destruct (HV Hp) as [V1 [V2 [V3 [V4 V5]]]].
+  { pose proof HF as [HI [HD [HV HT]]]. destruct (HV Hp) as [V1 [V2 [V4 V5]]].
     split; [exact HI|]. split; [exact HD|]. split; [|exact HT]. intros _.
-    split; [exact V1|]. split; [exact V2|]. split; [exact V3|]. split; [exact V4|].
+    split; [exact V1|]. split; [exact V2|]. split; [exact V4|].
     intros k Hk. cbn [f_c set_c c_retriers with_retriers c1]. unfold c1. cbn [c_retriers with_retriers]. rewrite aget_aremove.
     destruct (N.eqb k t) eqn:E; [|apply V5, Hk]. apply N.eqb_eq in E. subst k. unfold rstat in Hk. cbn [f_mgr set_c] in Hk. rewrite Hr in Hk. cbn in Hk. congruence. }
-  pose proof HF as [HI [_ [HV _]]]. destruct (HV Hp) as [_ [V2 [_ [V4 _]]]].
-  apply FInv_put; [exact HF1| | | |].
-  - intros _ Hk l Hl. cbn [r_pending] in Hl. apply In_set_union in Hl. destruct Hl as [Hl|Hl].
-    + apply V2; [exact Hk|]. rewrite tracked_eq. apply in_or_app. left. unfold retrier_pending. rewrite Hr. exact Hl.
-    + apply In_pending_locators in Hl. destruct Hl as [row [A [B C]]]. exists row. auto.
+  pose proof HF as [HI [_ [HV _]]]. destruct (HV Hp) as [_ [_ [V4 _]]].
+  apply FInv_put; [exact HF1| | |].
   - intros _ H. discriminate H.
   - intros _. cbn [r_pending]. apply NoDup_set_union. eapply V4, Hr.
   - apply TaskInv_put_not_task; [apply HF1|]. cbn. eapply not_task_if_not_running; [apply HF|exact Hr|congruence].
 Qed.
 
-(* the receive branch: `s0` is the state with the message already taken from the channel; the facts about the
-   data come from the state that still had it *)
+(* the receive branch: `s0` is the state with the message already taken from the channel *)
 Lemma FInv_add_pending s0 t locs :
-  FInv s0 -> poisoned s0 = false ->
-  (knownc (f_c s0) t -> forall l, In l locs -> Prow (c_db (f_c s0)) t l) ->
-  NoDup locs ->
-  (rstat s0 t = Some RRunning -> NoDup (retrier_pending s0 t ++ locs ++ chan_data (f_chan s0) t)) ->
-  FInv (add_pending_appointments s0 t locs).
+  FInv s0 -> poisoned s0 = false -> NoDup locs -> FInv (add_pending_appointments s0 t locs).
 Proof.
-  intros HF Hp H1 H2 H3. unfold add_pending_appointments.
-  pose proof HF as [HI [HD [HV HT]]]. destruct (HV Hp) as [V1 [V2 [V3 [V4 V5]]]].
+  intros HF Hp H2. unfold add_pending_appointments.
+  pose proof HF as [HI [HD [HV HT]]]. destruct (HV Hp) as [V1 [V2 [V4 V5]]].
   destruct (aget (f_mgr s0) t) as [r|] eqn:Er.
-  - apply FInv_put; [exact HF| | | |].
-    + intros _ Hk l Hl. cbn [r_pending] in Hl. apply In_set_union in Hl. destruct Hl as [Hl|Hl]; [|apply H1; assumption].
-      apply V2; [exact Hk|]. rewrite tracked_eq. apply in_or_app. left. unfold retrier_pending. rewrite Er. exact Hl.
-    + intros _ Hs. cbn [r_status r_pending] in *.
-      assert (Hr : rstat s0 t = Some RRunning) by (unfold rstat; rewrite Er; cbn; congruence).
-      split; [|apply V5, Hr]. apply NoDup_union_mid. specialize (H3 Hr). unfold retrier_pending in H3. rewrite Er in H3. exact H3.
+  - apply FInv_put; [exact HF| | |].
+    + intros _ Hs. cbn [r_status r_pending] in *. apply V5. unfold rstat. rewrite Er. cbn. congruence.
     + intros _. cbn [r_pending]. apply NoDup_set_union. eapply V4, Er.
     + eapply TaskInv_put_same_status; [exact HT|exact Er|reflexivity].
-  - apply FInv_put; [exact HF| | | |].
-    + intros _ Hk l Hl. apply H1; assumption.
+  - apply FInv_put; [exact HF| | |].
     + intros _ Hs. discriminate Hs.
     + intros _. exact H2.
     + apply TaskInv_put_not_task; [exact HT|]. apply not_task_if_absent; assumption.
@@ -1751,17 +1748,12 @@ Proof.
   intros HF Ec. pose proof (FInv_pop s t data rest HF Ec) as HF0. set (s0 := set_chan s rest) in *.
   unfold mgr_receive. destruct (poisoned s0) eqn:Hp; [apply FInv_kill_mgr, HF0|].
   destruct (negb (amem (c_towers (f_c s0)) t)) eqn:Ek; [exact HF0|].
-  pose proof HF as [_ [_ [HV _]]]. destruct (HV Hp) as [_ [V2 [V3 _]]].
-  assert (Hdata : knownc (f_c s0) t -> forall l, In l (rdata_set data) -> Prow (c_db (f_c s0)) t l).
-  { intros Hk l Hl. apply (V2 t Hk). rewrite tracked_eq, Ec, chan_data_cons, N.eqb_refl. apply in_or_app. right. apply in_or_app. left. exact Hl. }
-  assert (Hnd : rstat s0 t = Some RRunning -> NoDup (retrier_pending s0 t ++ rdata_set data ++ chan_data (f_chan s0) t)).
-  { intros Hr. specialize (V3 t Hr). rewrite tracked_eq, Ec, chan_data_cons, N.eqb_refl in V3. exact V3. }
   destruct (aget (f_mgr s0) t) as [r|] eqn:Er.
   - destruct (is_idle (r_status r)) eqn:Ei.
     + destruct (rdata_is_none data); cbn [fst]; [|exact HF0].
       apply FInv_wake; [exact HF0|exact Hp|exact Er|]. destruct (r_status r); try discriminate. reflexivity.
-    + cbn [fst]. apply FInv_add_pending; [exact HF0|exact Hp|exact Hdata|apply NoDup_rdata_set|exact Hnd].
-  - cbn [fst]. apply FInv_add_pending; [exact HF0|exact Hp|exact Hdata|apply NoDup_rdata_set|exact Hnd].
+    + cbn [fst]. apply FInv_add_pending; [exact HF0|exact Hp|apply NoDup_rdata_set].
+  - cbn [fst]. apply FInv_add_pending; [exact HF0|exact Hp|apply NoDup_rdata_set].
 Qed.
 
 (* the Empty branch *)
@@ -1775,12 +1767,8 @@ Proof. unfold rstat, retain_state, set_mgr. cbn [f_mgr]. rewrite aget_aretain. d
 Lemma FInv_retain s : FInv s -> FInv (retain_state s).
 Proof.
   intros [HI [HD [HV HT]]]. split; [exact HI|]. split; [exact HD|]. split; [|apply TaskInv_retain, HT].
-  intros Hp. change (poisoned (retain_state s)) with (poisoned s) in Hp. destruct (HV Hp) as [V1 [V2 [V3 [V4 V5]]]].
-  split; [exact V1|]. split; [|split; [|split]].
-  - intros k Hk l Hl. apply V2; [exact Hk|]. rewrite tracked_eq in *. change (f_chan (retain_state s)) with (f_chan s) in Hl.
-    rewrite retrier_pending_retain in Hl. destruct (retrier_kept s k); [exact Hl|]. apply in_or_app. right. exact Hl.
-  - intros k Hk. rewrite rstat_retain in Hk. rewrite tracked_eq. change (f_chan (retain_state s)) with (f_chan s).
-    rewrite retrier_pending_retain. destruct (retrier_kept s k); [apply V3, Hk|discriminate].
+  intros Hp. change (poisoned (retain_state s)) with (poisoned s) in Hp. destruct (HV Hp) as [V1 [V2 [V4 V5]]].
+  split; [exact V1|]. split; [exact V2|]. split.
   - intros k r Hk. unfold retain_state, set_mgr in Hk. cbn [f_mgr] in Hk. rewrite aget_aretain in Hk.
     destruct (retrier_kept s k); [eapply V4, Hk|discriminate].
   - intros k Hk. rewrite rstat_retain in Hk. destruct (retrier_kept s k) eqn:Ek; [|discriminate].
@@ -1793,58 +1781,58 @@ Lemma FInv_set_tasks x ts : FInv x -> TaskInv (set_tasks x ts) -> FInv (set_task
 Proof. intros [HI [HD [HV _]]] HT. split; [exact HI|]. split; [exact HD|]. split; [exact HV|exact HT]. Qed.
 
 Lemma FInv_retrier_start s t r s' o :
-  FInv s -> f_chan s = [] -> aget (f_mgr s) t = Some r -> should_start r = true -> poisoned s = false ->
-  retrier_start s t r = (s', o) -> FInv s' /\ f_chan s' = [] /\ (o = None -> poisoned s' = false).
+  FInv s -> aget (f_mgr s) t = Some r -> should_start r = true -> poisoned s = false ->
+  retrier_start s t r = (s', o) -> FInv s' /\ f_chan s' = f_chan s /\ o = None /\ poisoned s' = false.
 Proof.
-  intros HF Ec Er Hss Hp E.
+  intros HF Er Hss Hp E.
   assert (Hstop : r_status r = RStopped).
   { unfold should_start in Hss. apply andb_true_iff in Hss. destruct Hss as [Hss _]. destruct (r_status r); try discriminate. reflexivity. }
-  pose proof HF as [HI [HD [HV HT]]]. destruct (HV Hp) as [V1 [V2 [V3 [V4 V5]]]].
+  pose proof HF as [HI [HD [HV HT]]]. destruct (HV Hp) as [V1 [V2 [V4 V5]]].
+  assert (Hfail : FInv (put_retrier s t {| r_status := RFailed; r_pending := r_pending r |})).
+  { apply FInv_put; [exact HF| | |].
+    - intros _ H. discriminate H.
+    - intros _. cbn [r_pending]. eapply V4, Er.
+    - apply TaskInv_put_not_task; [exact HT|]. eapply not_task_if_not_running; [exact HT|exact Er|congruence]. }
   revert E. unfold retrier_start. destruct (aget (c_towers (f_c s)) t) as [su|] eqn:Et.
-  - intros E. inversion E. subst s' o. clear E. split; [|split; [exact Ec|]].
-    2:{ intros _. unfold poisoned in *. cbn [f_c set_tasks put_retrier set_mgr set_c c_poisoned with_retriers].
-        destruct (is_subscription_error (su_status su)); [exact Hp|].
-        destruct (prim_set_status (f_c s) t TemporaryUnreachable HI) as [_ [_ [_ [Hpo _]]]]. congruence. }
-    set (c1 := if is_subscription_error (su_status su) then f_c s else wt_set_tower_status (f_c s) t TemporaryUnreachable).
-    assert (HF1 : FInv (set_c s c1) /\ c_retriers c1 = c_retriers (f_c s) /\ c_db c1 = c_db (f_c s) /\ (forall k, knownc c1 k <-> knownc (f_c s) k)).
-    { unfold c1. destruct (is_subscription_error (su_status su)).
-      - split; [apply (FInv_core s); auto|]. repeat split; auto.
-      - split; [apply FInv_set_status; [exact HF|exact Hp|discriminate]|].
-        destruct (prim_set_status (f_c s) t TemporaryUnreachable HI) as [_ [Ed [Hret _]]]. split; [exact Hret|]. split; [exact Ed|].
-        intros k. apply knownc_set_status. }
-    destruct HF1 as [HF1 [Hret1 [Ed1 Hkn1]]].
-    set (c2 := with_retriers c1 (aset (c_retriers c1) t RRunning)).
-    assert (HF2 : FInv (set_c s c2)).
-    { destruct HF1 as [HI1 [HD1 [HV1 HT1]]]. split; [exact HI1|]. split; [exact HD1|]. split; [|exact HT1].
-      intros Hp2. destruct (HV1 Hp2) as [W1 [W2 [W3 [W4 W5]]]]. split; [exact W1|]. split; [exact W2|]. split; [exact W3|]. split; [exact W4|].
-      intros k Hk. cbn [f_c set_c c2 c_retriers with_retriers]. unfold c2. cbn [c_retriers with_retriers]. rewrite aget_aset.
-      destruct (N.eqb k t); [reflexivity|]. apply W5, Hk. }
-    apply FInv_set_tasks.
-    + apply FInv_put; [exact HF2| | | |].
-      * intros _ Hk l Hl. cbn [r_pending] in Hl. change (c_db (f_c (set_c s c2))) with (c_db c1). rewrite Ed1.
-        apply V2; [apply Hkn1; exact Hk|]. rewrite tracked_eq. apply in_or_app. left. unfold retrier_pending. rewrite Er. exact Hl.
-      * intros _ _. cbn [r_pending]. change (f_chan (set_c s c2)) with (f_chan s). rewrite Ec. cbn. rewrite app_nil_r.
-        split; [eapply V4, Er|]. cbn [f_c set_c]. unfold c2. cbn [c_retriers with_retriers]. apply aget_aset_same.
-      * intros _. cbn [r_pending]. eapply V4, Er.
-      * apply TaskInv_put_not_task; [apply HF2|]. cbn. eapply not_task_if_not_running; [exact HT|exact Er|congruence].
-    + assert (Es : retrier_start s t r = (set_tasks (put_retrier (set_c s c2) t {| r_status := RRunning; r_pending := r_pending r |}) (f_tasks s ++ [t]), None)).
-      { unfold retrier_start. rewrite Et. reflexivity. }
-      exact (TaskInv_start s t r _ HT Er Hstop Es).
-  - intros E. inversion E. subst s' o. clear E. split; [|split; [exact Ec|discriminate]].
-    apply FInv_kill_mgr. apply FInv_client; [exact HF|apply Inv_poison, HI|exact HD|]. cbn. discriminate.
+  2:{ intros E. inversion E. subst s' o. split; [exact Hfail|split; [reflexivity|split; [reflexivity|exact Hp]]]. }
+  destruct (is_misbehaving (su_status su)) eqn:Emis.
+  { intros E. inversion E. subst s' o. split; [exact Hfail|split; [reflexivity|split; [reflexivity|exact Hp]]]. }
+  intros E. inversion E. subst s' o. clear E. split; [|split; [reflexivity|split; [reflexivity|]]].
+  2:{ unfold poisoned in *. cbn [f_c set_tasks put_retrier set_mgr set_c c_poisoned with_retriers].
+      destruct (is_subscription_error (su_status su)); [exact Hp|]. rewrite poisoned_set_status. exact Hp. }
+  set (c1 := if is_subscription_error (su_status su) then f_c s else wt_set_tower_status (f_c s) t TemporaryUnreachable).
+  assert (HF1 : FInv (set_c s c1) /\ c_retriers c1 = c_retriers (f_c s)).
+  { unfold c1. destruct (is_subscription_error (su_status su)).
+    - split; [apply (FInv_core s); auto|reflexivity].
+    - split; [apply FInv_set_status; [exact HF|exact Hp|discriminate]|apply retriers_set_status]. }
+  destruct HF1 as [HF1 Hret1].
+  set (c2 := with_retriers c1 (aset (c_retriers c1) t RRunning)).
+  assert (HF2 : FInv (set_c s c2)).
+  { destruct HF1 as [HI1 [HD1 [HV1 HT1]]]. split; [exact HI1|]. split; [exact HD1|]. split; [|exact HT1].
+    intros Hp2. destruct (HV1 Hp2) as [W1 [W2 [W4 W5]]]. split; [exact W1|]. split; [exact W2|]. split; [exact W4|].
+    intros k Hk. cbn [f_c set_c c2 c_retriers with_retriers]. unfold c2. cbn [c_retriers with_retriers]. rewrite aget_aset.
+    destruct (N.eqb k t); [reflexivity|]. apply W5, Hk. }
+  apply FInv_set_tasks.
+  + apply FInv_put; [exact HF2| | |].
+    * intros _ _. cbn [f_c set_c]. unfold c2. cbn [c_retriers with_retriers]. apply aget_aset_same.
+    * intros _. cbn [r_pending]. eapply V4, Er.
+    * apply TaskInv_put_not_task; [apply HF2|]. cbn. eapply not_task_if_not_running; [exact HT|exact Er|congruence].
+  + assert (Es : retrier_start s t r = (set_tasks (put_retrier (set_c s c2) t {| r_status := RRunning; r_pending := r_pending r |}) (f_tasks s ++ [t]), None)).
+    { unfold retrier_start. rewrite Et, Emis. reflexivity. }
+    exact (TaskInv_start s t r _ HT Er Hstop Es).
 Qed.
 
 Lemma FInv_sweep elapsed : forall keys s started woke,
-  FInv s -> f_chan s = [] -> poisoned s = false -> FInv (fst (fst (fst (sweep s keys elapsed started woke)))).
+  FInv s -> poisoned s = false -> FInv (fst (fst (fst (sweep s keys elapsed started woke)))).
 Proof.
-  induction keys as [|t keys IH]; intros s started woke HF Ec Hp; cbn [sweep]; [exact HF|].
+  induction keys as [|t keys IH]; intros s started woke HF Hp; cbn [sweep]; [exact HF|].
   destruct (aget (f_mgr s) t) as [r|] eqn:Er; [|apply IH; assumption].
   destruct (should_start r) eqn:Ess.
   - destruct (retrier_start s t r) as [s1 o] eqn:Es.
-    destruct (FInv_retrier_start s t r s1 o HF Ec Er Ess Hp Es) as [HF1 [Ec1 Hp1]].
-    destruct o; cbn [fst]; [exact HF1|]. apply IH; auto.
+    destruct (FInv_retrier_start s t r s1 o HF Er Ess Hp Es) as [HF1 [_ [-> Hp1]]].
+    apply IH; auto.
   - destruct (is_idle (r_status r) && memN t elapsed) eqn:Ei; [|apply IH; assumption].
-    apply IH; [|exact Ec|exact Hp]. apply FInv_wake; [exact HF|exact Hp|exact Er|].
+    apply IH; [|exact Hp]. apply FInv_wake; [exact HF|exact Hp|exact Er|].
     apply andb_true_iff in Ei. destruct Ei as [Ei _]. destruct (r_status r); try discriminate. reflexivity.
 Qed.
 
@@ -1860,9 +1848,9 @@ Proof.
   - apply IH. intros k r0 Hk. apply H. right. exact Hk.
 Qed.
 
-Lemma FInv_mgr_sweep s elapsed : FInv s -> f_chan s = [] -> FInv (fst (mgr_sweep s elapsed)).
+Lemma FInv_mgr_sweep s elapsed : FInv s -> FInv (fst (mgr_sweep s elapsed)).
 Proof.
-  intros HF Ec. unfold mgr_sweep.
+  intros HF. unfold mgr_sweep.
   match goal with |- context [if ?b then _ else _] => destruct b end; [apply FInv_kill_mgr, HF|]. cbv zeta.
   pose proof (FInv_retain s HF) as HF1.
   destruct (poisoned (retain_state s)) eqn:Hp; cbn [andb].
@@ -1872,7 +1860,7 @@ Proof.
     destruct (should_start r || is_idle (r_status r) && memN k elapsed) eqn:Eb; [|reflexivity].
     assert (existsb (fun kv : N * retrier => should_start (snd kv) || is_idle (r_status (snd kv)) && memN (fst kv) elapsed) (f_mgr (retain_state s)) = true); [|congruence].
     apply existsb_exists. exists (k, r). split; [apply aget_In, Hr|exact Eb].
-  - pose proof (FInv_sweep elapsed (map fst (f_mgr (retain_state s))) (retain_state s) [] [] HF1 Ec Hp) as H.
+  - pose proof (FInv_sweep elapsed (map fst (f_mgr (retain_state s))) (retain_state s) [] [] HF1 Hp) as H.
     destruct (sweep (retain_state s) (map fst (f_mgr (retain_state s))) elapsed [] []) as [[[s2 st] wk] [site|]]; exact H.
 Qed.
 
@@ -1909,15 +1897,9 @@ Lemma FInv_retrier_drop s t l : FInv s -> FInv (retrier_drop s t l).
 Proof.
   intros HF. unfold retrier_drop. destruct (aget (f_mgr s) t) as [r|] eqn:Er; [|exact HF].
   pose proof HF as [HI [HD [HV HT]]].
-  apply FInv_put; [exact HF| | | |].
-  - intros Hp Hk x Hx. cbn [r_pending] in Hx. apply In_set_remove in Hx. destruct (HV Hp) as [_ [V2 _]]. apply V2; [exact Hk|].
-    rewrite tracked_eq. apply in_or_app. left. unfold retrier_pending. rewrite Er. tauto.
-  - intros Hp Hs. cbn [r_status r_pending] in *. destruct (HV Hp) as [_ [_ [V3 [_ V5]]]].
-    assert (Hr : rstat s t = Some RRunning) by (unfold rstat; rewrite Er; cbn; congruence).
-    split; [|apply V5, Hr]. specialize (V3 t Hr). rewrite tracked_eq in V3. unfold retrier_pending in V3. rewrite Er in V3.
-    apply NoDup_app_iff in V3. destruct V3 as [A [B C]]. apply NoDup_app_iff. split; [apply NoDup_set_remove, A|]. split; [exact B|].
-    intros x Hx. apply In_set_remove in Hx. apply C. tauto.
-  - intros Hp. cbn [r_pending]. apply NoDup_set_remove. destruct (HV Hp) as [_ [_ [_ [V4 _]]]]. eapply V4, Er.
+  apply FInv_put; [exact HF| | |].
+  - intros Hp Hs. cbn [r_status r_pending] in *. destruct (HV Hp) as [_ [_ [_ V5]]]. apply V5. unfold rstat. rewrite Er. cbn. congruence.
+  - intros Hp. cbn [r_pending]. apply NoDup_set_remove. destruct (HV Hp) as [_ [_ [V4 _]]]. eapply V4, Er.
   - eapply TaskInv_put_same_status; [exact HT|exact Er|reflexivity].
 Qed.
 
@@ -1954,7 +1936,7 @@ Lemma keeps_grows d d' : grows d d' -> keeps d d'.
 Proof. intros [G1 [G2 [G3 _]]] k x [H|[H|H]]; [left; apply G1, H|right; left; apply G2, H|right; right; apply G3, H]. Qed.
 
 Lemma FInv_move_generic s t l (kind : nat) c2 r2 :
-  FInv s -> poisoned s = false -> knownc (f_c s) t -> rstat s t = Some RRunning -> In l (retrier_pending s t) ->
+  FInv s -> poisoned s = false -> knownc (f_c s) t -> Prow (c_db (f_c s)) t l ->
   (kind = 0%nat \/ kind = 2%nat) ->
   Inv c2 -> c_retriers c2 = c_retriers (f_c s) -> (forall k, stat c2 k = stat (f_c s) k) -> healthy_or_abort c2 r2 ->
   (r2 = ROk \/ exists st, r2 = RAbort st) ->
@@ -1974,13 +1956,11 @@ Lemma FInv_move_generic s t l (kind : nat) c2 r2 :
             (forall k x, Prow (c_db (fst (wt_remove_pending_appointment c2 t l))) k x <-> Prow (c_db (f_c s)) k x /\ ~ (k = t /\ x = l))
   end.
 Proof.
-  intros HF Hp Hk Hrun Hl Hkind HI2 Hret2 Hst2 Hh2 Hres2 Habort Hok.
-  pose proof HF as [HI [HD [HV HT]]]. destruct (HV Hp) as [V1 [V2 [V3 [V4 V5]]]].
+  intros HF Hp Hk HPl Hkind HI2 Hret2 Hst2 Hh2 Hres2 Habort Hok.
+  pose proof HF as [HI [HD [HV HT]]]. destruct (HV Hp) as [V1 [V2 [V4 V5]]].
   pose proof (FInv_retrier_drop s t l HF) as HF2. set (s2 := retrier_drop s t l) in *.
   assert (Ec2 : f_c s2 = f_c s) by (unfold s2, retrier_drop; destruct (aget (f_mgr s) t); reflexivity).
   assert (Ed2 : f_due s2 = f_due s) by (unfold s2, retrier_drop; destruct (aget (f_mgr s) t); reflexivity).
-  assert (HPl : Prow (c_db (f_c s)) t l).
-  { apply V2; [exact Hk|]. rewrite tracked_eq. apply in_or_app. left. exact Hl. }
   destruct Hres2 as [->|[st0 ->]]; cbn [lift_site].
   2:{ apply FInv_poisoned_same_db; [exact HF2|exact HI2|rewrite Ec2; apply Habort; reflexivity|exact Hh2]. }
   destruct (Hok eq_refl) as [ER [EI [EPt [EM ET]]]].
@@ -2013,18 +1993,8 @@ Proof.
     exact (DurInv_move (c_db (f_c s)) (c_db c2) (c_db c3) (f_due s) t l kind (proj1 HI3) Hkind HPl ER EI ER0 EI0 EP EM3 ET3 HD).
   - intros _. split; [unfold poisoned; rewrite Ec2; exact Hp|]. split; [|split].
     + intros k Hk'. apply EM3, V1. rewrite <- Hst2, <- Hst3. exact Hk'.
-    + intros k Hk' x Hx. apply EP.
-      assert (Hx0 : In x (tracked s k)).
-      { rewrite tracked_eq in *.
-        assert (Ech : f_chan s2 = f_chan s) by (unfold s2, retrier_drop; destruct (aget (f_mgr s) t); reflexivity).
-        rewrite Ech in Hx. unfold s2 in Hx. rewrite retrier_pending_drop in Hx. destruct (N.eqb k t) eqn:Ekt; [|exact Hx].
-        apply N.eqb_eq in Ekt. subst k. apply in_app_or in Hx. destruct Hx as [Hx|Hx]; apply in_or_app; [left; apply In_set_remove in Hx; tauto|right; exact Hx]. }
-      split.
-      * apply V2; [|exact Hx0]. apply (knownc_stat _ _ Hst2). apply (knownc_stat _ _ Hst3). exact Hk'.
-      * intros [-> ->]. specialize (V3 t Hrun). rewrite tracked_eq in V3, Hx. apply NoDup_app_iff in V3. destruct V3 as [_ [_ Hdis]].
-        assert (Ech : f_chan s2 = f_chan s) by (unfold s2, retrier_drop; destruct (aget (f_mgr s) t); reflexivity).
-        rewrite Ech in Hx. unfold s2 in Hx. rewrite retrier_pending_drop, N.eqb_refl in Hx.
-        apply in_app_or in Hx. destruct Hx as [Hx|Hx]; [apply In_set_remove in Hx; tauto|exact (Hdis l Hl Hx)].
+    + intros k Hk' Hm'. rewrite Hst3, Hst2.
+      apply V2; [apply (knownc_stat _ _ Hst2), (knownc_stat _ _ Hst3), Hk'|apply EM3, Hm'].
     + rewrite Hret3, Hret2, Ec2. reflexivity.
 Qed.
 
@@ -2084,6 +2054,30 @@ Qed.
 Lemma f_c_retrier_drop s t l : f_c (retrier_drop s t l) = f_c s.
 Proof. unfold retrier_drop. destruct (aget (f_mgr s) t); reflexivity. Qed.
 
+(* Retrier::run's check (fix 8108569): a body is loaded exactly for a locator that is a pending row of this (known) tower *)
+Lemma load_pending_spec c t l : Inv c -> c_poisoned c = false ->
+  match load_pending c t l with
+  | Some _ => knownc c t /\ Prow (c_db c) t l
+  | None => ~ Prow (c_db c) t l
+  end.
+Proof.
+  intros HI Hp. pose proof HI as [HD HM]. destruct (HM Hp) as [M1 M2]. unfold load_pending, still_pending.
+  destruct (aget (c_towers c) t) as [su|] eqn:Et.
+  - destruct (M1 t su Et) as [tr [rr [_ [_ [_ [_ [_ [_ [C5 _]]]]]]]]].
+    assert (HP : In l (su_pending su) <-> Prow (c_db c) t l).
+    { rewrite (C5 l), In_pending_locators. unfold Prow. split; intros [r0 [A [B C]]]; exists r0; auto. }
+    destruct (memN l (su_pending su)) eqn:Em.
+    + apply memN_In, HP in Em. destruct (dbm_load_appointment (c_db c) l) as [body|] eqn:El.
+      * split; [unfold knownc, amem; rewrite Et; reflexivity|exact Em].
+      * exfalso. destruct Em as [r0 [A [B C]]]. destruct HD as [[Hfk _] _].
+        destruct (fk_pending_body _ r0 Hfk A) as [b [Hb Eb]]. unfold dbm_load_appointment in El.
+        apply (proj1 (find_pk_None (c_db c) T_appointments [l]) El b Hb). cbn [ts_pk tsch CS client_schema nth T_appointments]. rewrite proj1_col. f_equal. etransitivity; [exact Eb|exact B].
+    + intros H. apply HP, memN_In in H. congruence.
+  - intros [r0 [A [B C]]]. destruct HD as [[Hfk _] _]. destruct (fk_pending_tower _ r0 Hfk A) as [tr [A1 B1]].
+    assert (Hk : knownc c t) by (apply (known_iff_Trow c t HI Hp); exists tr; split; [exact A1|congruence]).
+    unfold knownc, amem in Hk. rewrite Et in Hk. discriminate.
+Qed.
+
 Lemma FInv_run_for t : forall locs s adds s' adds' res,
   RunPre s t -> NoDup locs -> (forall l, In l locs -> In l (retrier_pending s t)) ->
   run_for s t locs adds = (s', adds', res) ->
@@ -2099,14 +2093,9 @@ Proof.
   unfold poisoned in Hp. pose proof Hp as Hp'. unfold poisoned in E. rewrite Hp in E.
   inversion Hnd as [|? ? Hnl Hnd']. subst.
   pose proof HF as [HI [HD [HV HT]]].
-  destruct (dbm_load_appointment (c_db (f_c s)) l) as [body|].
-  2:{ inversion E. subst. split; [|split; [intros []|split; [discriminate|split; [auto|split; [discriminate|split; [apply keeps_refl|split; [auto|discriminate]]]]]]].
-      apply FInv_poisoned_same_db; [exact HF|apply Inv_poison, HI|reflexivity|reflexivity]. }
-  set (s1 := log_req s (ReqAdd t l)) in *.
-  assert (HF1 : FInv s1) by (apply (FInv_core s); auto).
-  destruct (next_reply adds) as [rp adds1].
-  (* the continuation after a completed move *)
-  assert (Hcont : forall c3 s3, s3 = set_c (retrier_drop s1 t l) c3 \/ True ->
+  pose proof (load_pending_spec (f_c s) t l HI Hp') as Hlp.
+  (* the continuation after the locator has left the set (dropped, or its move completed) *)
+  assert (Hcont : forall adds1 (c3 : client) (s3 : fstate), True ->
             forall sX, FInv sX -> poisoned sX = false -> (forall k, knownc (f_c sX) k <-> knownc (f_c s) k) -> rstat sX t = Some RRunning ->
             (forall x, In x (retrier_pending sX t) <-> In x (retrier_pending s t) /\ x <> l) -> keeps (c_db (f_c s)) (c_db (f_c sX)) ->
             (forall k x, Prow (c_db (f_c sX)) k x <-> Prow (c_db (f_c s)) k x /\ ~ (k = t /\ x = l)) ->
@@ -2116,7 +2105,7 @@ Proof.
             (forall x, In x (retrier_pending s' t) -> In x (retrier_pending s t)) /\ res <> Some RunFuel /\ keeps (c_db (f_c s)) (c_db (f_c s')) /\
             (forall k x, Prow (c_db (f_c s')) k x -> Prow (c_db (f_c s)) k x) /\
             (res = None -> forall x, In x (l :: locs) -> ~ Prow (c_db (f_c s')) t x)).
-  { intros _ _ _ sX HFX HpX HkX HrX HpendX HkeepX HPX EX.
+  { intros adds1 _ _ _ sX HFX HpX HkX HrX HpendX HkeepX HPX EX.
     destruct (IH sX adds1 s' adds' res) as [A [B [C [D [F [G [PA PN]]]]]]]; [exact (conj HFX (conj HpX (conj (proj2 (HkX t) Hk) HrX)))|exact Hnd'| |exact EX|].
     - intros x Hx. apply HpendX. split; [apply Hsub; right; exact Hx|]. intros ->. contradiction.
     - split; [exact A|]. split; [intros Hna; destruct (B Hna) as [B1 B2]; split; [exact B1|intros k; rewrite B2; apply HkX]|].
@@ -2124,16 +2113,28 @@ Proof.
       * intros Hr x [<-|Hx]; [|apply C; assumption]. intros Hin. apply D, HpendX in Hin. tauto.
       * intros k x Hx. apply PA, HPX in Hx. tauto.
       * intros Hr x [<-|Hx]; [|apply PN; assumption]. intros Hx. apply PA, HPX in Hx. tauto. }
+  destruct (load_pending (f_c s) t l) as [body|].
+  2:{ (* not pending for the tower any more: dropped from the set, nothing sent *)
+      eapply (Hcont adds (f_c s) s I (retrier_drop s t l)); [apply FInv_retrier_drop, HF| | | | | | |exact E].
+      - unfold poisoned. rewrite f_c_retrier_drop. exact Hp'.
+      - intros k. rewrite f_c_retrier_drop. tauto.
+      - rewrite retrier_drop_rstat. exact Hrun.
+      - intros x. rewrite retrier_pending_drop, N.eqb_refl, In_set_remove. reflexivity.
+      - rewrite f_c_retrier_drop. apply keeps_refl.
+      - intros k x. rewrite f_c_retrier_drop. split; [|tauto]. intros H. split; [exact H|]. intros [-> ->]. contradiction. }
+  destruct Hlp as [_ HPl].
+  set (s1 := log_req s (ReqAdd t l)) in *.
+  assert (HF1 : FInv s1) by (apply (FInv_core s); auto).
+  destruct (next_reply adds) as [rp adds1].
   assert (Hpend_drop : forall sX, (forall k, retrier_pending sX k = retrier_pending (retrier_drop s1 t l) k) ->
             forall x, In x (retrier_pending sX t) <-> In x (retrier_pending s t) /\ x <> l).
   { intros sX HX x. rewrite HX, retrier_pending_drop, N.eqb_refl, In_set_remove. reflexivity. }
-  assert (Hl : In l (retrier_pending s1 t)) by (apply Hsub; left; reflexivity).
   destruct rp as [slots| | | | | | |].
   - (* accepted *)
     rewrite f_c_retrier_drop in E.
     destruct (wt_add_appointment_receipt (f_c s1) t l slots START_BLOCK USER_SIG SIG_TOWER) as [c2 r2] eqn:E2.
     destruct (add_receipt_spec_for_move _ _ _ _ _ _ HI Hp' Hk E2) as [S1 [S2 [S3 [S4 [S5 [S6 S7]]]]]].
-    pose proof (FInv_move_generic s1 t l 0 c2 r2 HF1 Hp' Hk Hrun Hl (or_introl eq_refl) S1 S2 S3 S4 S5 S6 S7) as Hmove.
+    pose proof (FInv_move_generic s1 t l 0 c2 r2 HF1 Hp' Hk HPl (or_introl eq_refl) S1 S2 S3 S4 S5 S6 S7) as Hmove.
     destruct (lift_site r2) as [site|] eqn:El2.
     + inversion E. subst. split; [exact Hmove|]. split; [intros []|]. split; [discriminate|]. split; [|split; [discriminate|]].
       * intros x Hx. change (retrier_pending (wr_c (retrier_drop s1 t l) c2) t) with (retrier_pending (retrier_drop s1 t l) t) in Hx.
@@ -2141,7 +2142,7 @@ Proof.
       * cbn [f_c wr_c]. assert (Edb : c_db c2 = c_db (f_c s)) by (apply S6; destruct S5 as [->|[st0 ->]]; [discriminate El2|reflexivity]).
         rewrite Edb. split; [apply keeps_refl|split; [auto|discriminate]].
     + destruct (wt_remove_pending_appointment c2 t l) as [c3 r3] eqn:E3. cbn [fst snd] in Hmove. destruct Hmove as [M1 [M2 [M3 [M4 [M5 M6]]]]].
-      rewrite M1 in E. eapply (Hcont c3 (set_c s c3) (or_intror I) (wr_c (wr_c (retrier_drop s1 t l) c2) c3)); [exact M2|exact M3| | | |exact M5|exact M6|exact E].
+      rewrite M1 in E. eapply (Hcont adds1 c3 (set_c s c3) I (wr_c (wr_c (retrier_drop s1 t l) c2) c3)); [exact M2|exact M3| | | |exact M5|exact M6|exact E].
       * intros k. cbn [f_c wr_c]. apply (knownc_stat _ _ M4).
       * change (rstat (wr_c (wr_c (retrier_drop s1 t l) c2) c3) t) with (rstat (retrier_drop s1 t l) t). rewrite retrier_drop_rstat. exact Hrun.
       * apply Hpend_drop. reflexivity.
@@ -2160,7 +2161,7 @@ Proof.
     rewrite f_c_retrier_drop in E.
     destruct (wt_add_invalid_appointment (f_c s1) t l (col body C_appointments_encrypted_blob) (col body C_appointments_to_self_delay)) as [c2 r2] eqn:E2.
     destruct (add_invalid_spec_for_move _ _ _ _ _ _ _ HI Hp' Hk E2) as [S1 [S2 [S3 [S4 [S5 [S6 S7]]]]]].
-    pose proof (FInv_move_generic s1 t l 2 c2 r2 HF1 Hp' Hk Hrun Hl (or_intror eq_refl) S1 S2 S3 S4 S5 S6 S7) as Hmove.
+    pose proof (FInv_move_generic s1 t l 2 c2 r2 HF1 Hp' Hk HPl (or_intror eq_refl) S1 S2 S3 S4 S5 S6 S7) as Hmove.
     destruct (lift_site r2) as [site|] eqn:El2.
     + inversion E. subst. split; [exact Hmove|]. split; [intros []|]. split; [discriminate|]. split; [|split; [discriminate|]].
       * intros x Hx. change (retrier_pending (wr_c (retrier_drop s1 t l) c2) t) with (retrier_pending (retrier_drop s1 t l) t) in Hx.
@@ -2168,7 +2169,7 @@ Proof.
       * cbn [f_c wr_c]. assert (Edb : c_db c2 = c_db (f_c s)) by (apply S6; destruct S5 as [->|[st0 ->]]; [discriminate El2|reflexivity]).
         rewrite Edb. split; [apply keeps_refl|split; [auto|discriminate]].
     + destruct (wt_remove_pending_appointment c2 t l) as [c3 r3] eqn:E3. cbn [fst snd] in Hmove. destruct Hmove as [M1 [M2 [M3 [M4 [M5 M6]]]]].
-      rewrite M1 in E. eapply (Hcont c3 (set_c s c3) (or_intror I) (wr_c (wr_c (retrier_drop s1 t l) c2) c3)); [exact M2|exact M3| | | |exact M5|exact M6|exact E].
+      rewrite M1 in E. eapply (Hcont adds1 c3 (set_c s c3) I (wr_c (wr_c (retrier_drop s1 t l) c2) c3)); [exact M2|exact M3| | | |exact M5|exact M6|exact E].
       * intros k. cbn [f_c wr_c]. apply (knownc_stat _ _ M4).
       * change (rstat (wr_c (wr_c (retrier_drop s1 t l) c2) c3) t) with (rstat (retrier_drop s1 t l) t). rewrite retrier_drop_rstat. exact Hrun.
       * apply Hpend_drop. reflexivity.
@@ -2203,7 +2204,7 @@ Qed.
 Lemma run_for_not_ok t : forall locs s adds s1 adds1 r, run_for s t locs adds = (s1, adds1, Some r) -> r <> RunOk /\ r <> RunFuel.
 Proof.
   induction locs as [|l0 l IHl]; intros s adds s1 adds1 r E1; cbn [run_for] in E1; [discriminate|].
-  destruct (poisoned s); [inversion E1; split; discriminate|]. destruct (dbm_load_appointment (c_db (f_c s)) l0); [|inversion E1; split; discriminate].
+  destruct (poisoned s); [inversion E1; split; discriminate|]. destruct (load_pending (f_c s) t l0); [|eapply IHl, E1].
   destruct (next_reply adds) as [rp adds']. destruct rp; try (inversion E1; split; discriminate).
   - destruct (wt_add_appointment_receipt _ _ _ _ _ _ _) as [c2 r2]. destruct (lift_site r2); [inversion E1; split; discriminate|].
     destruct (wt_remove_pending_appointment c2 t l0) as [c3 r3]. destruct (lift_site r3); [inversion E1; split; discriminate|]. eapply IHl, E1.
@@ -2225,7 +2226,7 @@ Proof.
   destruct (run_for s t (reorder hint (x :: p)) adds) as [[s1 adds1] r1] eqn:E1.
   pose proof Hpre as [HF [Hp [Hk Hrun]]].
   assert (Hnd : NoDup (x :: p)).
-  { destruct HF as [_ [_ [HV _]]]. destruct (HV Hp) as [_ [_ [_ [V4 _]]]]. unfold retrier_pending in Ep.
+  { destruct HF as [_ [_ [HV _]]]. destruct (HV Hp) as [_ [_ [V4 _]]]. unfold retrier_pending in Ep.
     destruct (aget (f_mgr s) t) as [r|] eqn:Er; [|discriminate]. rewrite <- Ep. eapply V4, Er. }
   destruct (FInv_run_for t _ s adds s1 adds1 r1 Hpre (NoDup_reorder hint _ Hnd)) as [A [B [C [D [F [G [PA PN]]]]]]]; [|exact E1|].
   { intros l Hl. rewrite Ep. apply In_reorder in Hl. exact Hl. }
@@ -2248,7 +2249,7 @@ Lemma FInv_renew s t addr slots start expiry sg c' r :
   wt_add_update_tower (f_c s) t addr slots start expiry sg = (c', r) ->
   FInv (set_c s c') /\ (is_abort r = false -> c_poisoned c' = false /\ (forall k, knownc c' k <-> knownc (f_c s) k)).
 Proof.
-  intros HF Hp Hk E. pose proof HF as [HI [HD [HV HT]]]. destruct (HV Hp) as [V1 [V2 [V3 [V4 V5]]]].
+  intros HF Hp Hk E. pose proof HF as [HI [HD [HV HT]]]. destruct (HV Hp) as [V1 [V2 [V4 V5]]].
   destruct (prim_add_update_tower _ _ _ _ _ _ _ _ _ HI Hp E) as [HI' [Hret [Hh Heff]]].
   assert (Hkn : forall k, knownc c' k <-> knownc (f_c s) k).
   { destruct Heff as [[_ Hst]|[_ [_ [Hst _]]]]; [apply (knownc_stat _ _ Hst)|].
@@ -2262,14 +2263,15 @@ Proof.
       intros k Hk'. apply HTr. left. exact Hk'.
     + intros _. split; [exact Hp|]. destruct Heff as [[Ed Hst]|[_ [_ [Hst [T4 [HTr Hfr]]]]]].
       * split; [intros k Hk'; rewrite Ed; apply V1; rewrite <- Hst; exact Hk'|]. split; [|exact Hret].
-        intros k Hk' l Hl. rewrite Ed. apply V2; [apply Hkn, Hk'|exact Hl].
+        intros k Hk' Hm'. rewrite Hst. apply V2; [apply Hkn, Hk'|rewrite <- Ed; exact Hm'].
       * split.
         { intros k Hk'. rewrite (Mrow_ext _ _ k (Hfr T_misbehaving_proofs ltac:(discriminate) ltac:(discriminate))). apply V1.
           rewrite Hst in Hk'. destruct (N.eqb k t) eqn:Ek; [|exact Hk']. apply N.eqb_eq in Ek. subst k.
           destruct (stat (f_c s) t) eqn:Es; [exact Hk'|]. unfold knownc, amem in Hk. unfold stat in Es. destruct (aget (c_towers (f_c s)) t); discriminate. }
         split; [|exact Hret].
-        intros k Hk' l Hl. rewrite (Prow_ext _ _ k l (Hfr T_pending_appointments ltac:(discriminate) ltac:(discriminate))).
-        apply V2; [apply Hkn, Hk'|exact Hl].
+        intros k Hk' Hm'. rewrite (Mrow_ext _ _ k (Hfr T_misbehaving_proofs ltac:(discriminate) ltac:(discriminate))) in Hm'.
+        specialize (V2 k (proj1 (Hkn k) Hk') Hm'). rewrite Hst. destruct (N.eqb k t) eqn:Ek; [|exact V2].
+        apply N.eqb_eq in Ek. subst k. rewrite V2. reflexivity.
   - intros Ha. unfold healthy_or_abort in Hh. rewrite Ha in Hh. split; [exact Hh|exact Hkn].
 Qed.
 
@@ -2285,6 +2287,8 @@ Proof.
   destruct (aget (c_towers (f_c s)) t) as [su|] eqn:Et.
   2:{ inversion E. subst. split; [exact HF|]. split; [intros _; exact Hp|split; [discriminate|split; [apply keeps_refl|split; [auto|discriminate]]]]. }
   assert (Hk : knownc (f_c s) t) by (unfold knownc, amem; rewrite Et; reflexivity).
+  destruct (is_misbehaving (su_status su)).
+  { inversion E. subst. split; [exact HF|]. split; [intros _; exact Hp|split; [discriminate|split; [apply keeps_refl|split; [auto|discriminate]]]]. }
   assert (Hgo : forall s0, FInv s0 -> poisoned s0 = false -> knownc (f_c s0) t -> rstat s0 t = Some RRunning ->
             run_while (run_fuel s0 t) s0 t (at_order a) (at_adds a) = (s', res) ->
             FInv s' /\ (match res with RunAbort _ => False | _ => True end -> poisoned s' = false) /\
@@ -2335,14 +2339,12 @@ Lemma FInv_flag s t l c2 r :
   wt_flag_misbehaving_tower (f_c s) t l START_BLOCK USER_SIG SIG_OTHER (other_id t) = (c2, r) ->
   FInv (set_c s c2).
 Proof.
-  intros HF Hp E. pose proof HF as [HI [HD [HV HT]]]. destruct (HV Hp) as [V1 [V2 [V3 [V4 V5]]]].
+  intros HF Hp E. pose proof HF as [HI [HD [HV HT]]]. destruct (HV Hp) as [V1 [V2 [V4 V5]]].
   destruct (prim_flag _ _ _ _ _ _ _ _ _ HI Hp E) as [HI' [Hret [Hh Heff]]].
-  destruct Heff as [[Ed [Hst Hne]]|[-> [Hp2 [Hk [Hst [T5 [T6 Hfr]]]]]]].
-  - apply FInv_client_grow; [exact HF|exact Hp|exact HI'|rewrite Ed; exact HD|exact Hst|exact Hret|intros k x H; rewrite Ed; exact H|intros k H; rewrite Ed; exact H].
-  - assert (ER : forall k x, Rrow (c_db c2) k x <-> Rrow (c_db (f_c s)) k x \/ (k = t /\ x = l)) by (intros; apply (Rrow_app _ _ _ _ _ _ _ k x T5)).
-    assert (EPr : forall k x, Prow (c_db c2) k x <-> Prow (c_db (f_c s)) k x) by (intros; apply Prow_ext, Hfr; discriminate).
+  destruct Heff as [[Ed [Hst Hne]]|[-> [Hp2 [Hk [Hst [M1 [EM [ER Hfr]]]]]]]].
+  - apply FInv_client_grow; [exact HF|exact Hp|exact HI'|rewrite Ed; exact HD|exact Hst|exact Hret|intros k; rewrite Ed; tauto].
+  - assert (EPr : forall k x, Prow (c_db c2) k x <-> Prow (c_db (f_c s)) k x) by (intros; apply Prow_ext, Hfr; discriminate).
     assert (EI : forall k x, Irow (c_db c2) k x <-> Irow (c_db (f_c s)) k x) by (intros; apply Irow_ext, Hfr; discriminate).
-    assert (EM : forall k, Mrow (c_db c2) k <-> Mrow (c_db (f_c s)) k \/ k = t) by (intros; apply (Mrow_app _ _ _ _ _ k T6)).
     assert (ET : forall k, Trow (c_db c2) k <-> Trow (c_db (f_c s)) k) by (intros; apply Trow_ext, Hfr; discriminate).
     assert (HD2 : DurInv (c_db c2) (f_due s)).
     { destruct HD as [_ [U E0]]. split; [apply HI'|]. split.
@@ -2353,9 +2355,10 @@ Proof.
         assert (Hm0 : ~ Mrow (c_db (f_c s)) k) by (intros H; apply Hm, EM; tauto). rewrite ER, EPr, EI. specialize (B Hm0). tauto. }
     apply FInv_client; [exact HF|exact HI'|exact HD2|]. intros _. split; [exact Hp|]. split; [|split; [|exact Hret]].
     + intros k Hk'. apply EM. rewrite Hst in Hk'. destruct (N.eqb k t) eqn:Ekt; [right; apply N.eqb_eq; exact Ekt|left; apply V1, Hk'].
-    + intros k Hk' x Hx. apply EPr. apply V2; [|exact Hx]. unfold knownc, amem in *. specialize (Hst k). unfold stat in Hst.
-      destruct (N.eqb k t) eqn:Ekt; [apply N.eqb_eq in Ekt; subst k; exact Hk|].
-      destruct (aget (c_towers c2) k), (aget (c_towers (f_c s)) k); cbn in Hst; try discriminate; auto.
+    + intros k Hk' Hm'. rewrite Hst. destruct (N.eqb k t) eqn:Ekt; [reflexivity|]. apply V2.
+      * unfold knownc, amem in *. pose proof (Hst k) as Hs. unfold stat in Hs. rewrite Ekt in Hs.
+        destruct (aget (c_towers c2) k), (aget (c_towers (f_c s)) k); cbn in Hs; try discriminate Hs; try discriminate Hk'; reflexivity.
+      * apply EM in Hm'. destruct Hm' as [H|H]; [exact H|]. apply N.eqb_neq in Ekt. contradiction.
 Qed.
 
 (* changing the status of t's retrier to a status that is not Running, possibly clearing its set *)
@@ -2367,11 +2370,9 @@ Proof.
   change (notasks (put_retrier s t {| r_status := st; r_pending := if clear then [] else r_pending r |}))
     with (put_retrier (notasks s) t {| r_status := st; r_pending := if clear then [] else r_pending r |}).
   pose proof HC as [HI [HD [HV HT]]].
-  apply FInv_put; [exact HC| | | |].
-  - intros Hp Hk l Hl. cbn [r_pending] in Hl. destruct clear; [contradiction|]. destruct (HV Hp) as [_ [V2 _]]. apply V2; [exact Hk|].
-    rewrite tracked_eq. apply in_or_app. left. unfold retrier_pending. change (f_mgr (notasks s)) with (f_mgr s). rewrite Hr. exact Hl.
+  apply FInv_put; [exact HC| | |].
   - intros _ H. cbn in H. congruence.
-  - intros Hp. cbn [r_pending]. destruct clear; [constructor|]. destruct (HV Hp) as [_ [_ [_ [V4 _]]]]. eapply (V4 t r). exact Hr.
+  - intros Hp. cbn [r_pending]. destruct clear; [constructor|]. destruct (HV Hp) as [_ [_ [V4 _]]]. eapply (V4 t r). exact Hr.
   - split; [constructor|intros k []].
 Qed.
 
@@ -2379,8 +2380,8 @@ Lemma CInv_retriers_change s m :
   CInv s -> (forall k, rstat s k = Some RRunning -> aget m k = Some RRunning) ->
   CInv (set_c s (with_retriers (f_c s) m)).
 Proof.
-  intros [HI [HD HV]] H. split; [exact HI|]. split; [exact HD|]. intros Hp. destruct (HV Hp) as [V1 [V2 [V3 [V4 V5]]]].
-  split; [exact V1|]. split; [exact V2|]. split; [exact V3|]. split; [exact V4|]. intros k Hk. apply H, Hk.
+  intros [HI [HD HV]] H. split; [exact HI|]. split; [exact HD|]. intros Hp. destruct (HV Hp) as [V1 [V2 [V4 V5]]].
+  split; [exact V1|]. split; [exact V2|]. split; [exact V4|]. intros k Hk. apply H, Hk.
 Qed.
 
 Lemma CInv_set_status s t st : CInv s -> poisoned s = false -> st <> Misbehaving -> CInv (set_c s (wt_set_tower_status (f_c s) t st)).
@@ -2388,11 +2389,6 @@ Proof.
   intros HC Hp Hst. apply CInv_FInv_notasks in HC. apply CInv_FInv_notasks.
   exact (FInv_set_status (notasks s) t st HC Hp Hst).
 Qed.
-
-Lemma poisoned_set_status c t st : c_poisoned (wt_set_tower_status c t st) = c_poisoned c.
-Proof. unfold wt_set_tower_status. destruct (aget (c_towers c) t); reflexivity. Qed.
-Lemma retriers_set_status c t st : c_retriers (wt_set_tower_status c t st) = c_retriers c.
-Proof. unfold wt_set_tower_status. destruct (aget (c_towers c) t); reflexivity. Qed.
 
 Lemma retrier_set_status_eq s t st r : aget (f_mgr s) t = Some r ->
   retrier_set_status s t st = put_retrier s t {| r_status := st; r_pending := r_pending r |}.
@@ -2422,7 +2418,7 @@ Proof.
       change (rstat sb k) with (rstat sa k) in Hk. unfold sa in Hk. rewrite rstat_put in Hk. destruct (N.eqb k t) eqn:Ek; [discriminate|].
       destruct H2 as [_ [_ HV2]].
       assert (Hpb : poisoned sb = false) by (unfold sb, poisoned; cbn [f_c set_c]; rewrite poisoned_set_status; exact Hnp).
-      destruct (HV2 Hpb) as [_ [_ [_ [_ V5]]]]. apply V5.
+      destruct (HV2 Hpb) as [_ [_ [_ V5]]]. apply V5.
       change (rstat sb k) with (rstat sa k). unfold sa. rewrite rstat_put, Ek. exact Hk. }
     exact H3.
   - destruct (negb (is_permanent e) && more); [exact HC|]. specialize (Hnp I).
@@ -2434,7 +2430,7 @@ Proof.
         split; [exact Hnp|]. split; [reflexivity|]. eexists. split; [unfold put_retrier, set_mgr; cbn [f_mgr]; apply aget_aset_same|]. split; [reflexivity|discriminate].
       - split; [exact HC|]. split; [exact Hnp|]. split; [reflexivity|]. exists r0. auto. }
     destruct H1 as [HC1 [Hp1 [Ec1 [r1 [Er1 [Epend Hsame]]]]]].
-    destruct e as [[|]| |l|]; cbn [fst].
+    destruct e as [[|]| |l| |]; cbn [fst].
     + apply CInv_end_task. apply CInv_set_status; [exact HC1|exact Hp1|discriminate].
     + (* gave up: idle *)
       apply CInv_end_task. specialize (Hsame eq_refl). subst s1.
@@ -2450,7 +2446,7 @@ Proof.
       set (sb := put_retrier sa t {| r_status := RIdle; r_pending := [] |}) in *.
       assert (Hc : CInv (set_c sb (with_retriers (f_c sb) (aset (c_retriers (f_c sb)) t RIdle)))).
       { apply CInv_retriers_change; [exact Hb|]. intros k Hk. rewrite aget_aset. unfold sb in Hk. rewrite rstat_put in Hk.
-        destruct (N.eqb k t) eqn:Ek; [discriminate|]. destruct Ha as [_ [_ HVa]]. destruct (HVa Hnp) as [_ [_ [_ [_ V5]]]]. apply V5. exact Hk. }
+        destruct (N.eqb k t) eqn:Ek; [discriminate|]. destruct Ha as [_ [_ HVa]]. destruct (HVa Hnp) as [_ [_ [_ V5]]]. apply V5. exact Hk. }
       set (sc := set_c sb (with_retriers (f_c sb) (aset (c_retriers (f_c sb)) t RIdle))) in *.
       exact (CInv_set_status sc t Unreachable Hc Hnp ltac:(discriminate)).
     + apply CInv_end_task. specialize (Hsame eq_refl). subst s1.
@@ -2466,7 +2462,7 @@ Proof.
       set (sb := put_retrier sa t {| r_status := RIdle; r_pending := [] |}) in *.
       assert (Hc : CInv (set_c sb (with_retriers (f_c sb) (aset (c_retriers (f_c sb)) t RIdle)))).
       { apply CInv_retriers_change; [exact Hb|]. intros k Hk. rewrite aget_aset. unfold sb in Hk. rewrite rstat_put in Hk.
-        destruct (N.eqb k t) eqn:Ek; [discriminate|]. destruct Ha as [_ [_ HVa]]. destruct (HVa Hnp) as [_ [_ [_ [_ V5]]]]. apply V5. exact Hk. }
+        destruct (N.eqb k t) eqn:Ek; [discriminate|]. destruct Ha as [_ [_ HVa]]. destruct (HVa Hnp) as [_ [_ [_ V5]]]. apply V5. exact Hk. }
       set (sc := set_c sb (with_retriers (f_c sb) (aset (c_retriers (f_c sb)) t RIdle))) in *.
       exact (CInv_set_status sc t Unreachable Hc Hnp ltac:(discriminate)).
     + (* misbehaving *)
@@ -2474,6 +2470,7 @@ Proof.
       assert (H2 : CInv (set_c s1 c2)).
       { apply CInv_FInv_notasks. apply CInv_FInv_notasks in HC1. exact (FInv_flag (notasks s1) t l c2 r2 HC1 Hp1 E2). }
       destruct (lift_site r2); cbn [fst]; apply CInv_end_task; exact H2.
+    + apply CInv_end_task. exact HC1.
     + apply CInv_end_task. exact HC1.
   - cbn [fst]. apply CInv_end_task. exact HC.
   - exact HC.
@@ -2503,9 +2500,9 @@ Proof.
 Qed.
 
 (* ---- every operation ---- *)
-Lemma FInv_fstep s o : FInv s -> fresh_ok s o = true -> FInv (fst (fstep s o)).
+Lemma FInv_fstep s o : FInv s -> FInv (fst (fstep s o)).
 Proof.
-  intros HF Hg. destruct o; cbn [fstep].
+  intros HF. destruct o; cbn [fstep].
   - apply FInv_register; assumption.
   - apply FInv_revocation, HF.
   - apply FInv_manager_tick, HF.
@@ -2521,15 +2518,13 @@ Proof.
   - split; [apply Inv_wt_new|]. split.
     + intros t l _. repeat split; intros [[r [[] _]] _].
     + intros t l [].
-  - intros _. split; [intros t Ht; discriminate Ht|]. split; [intros t _ l []|]. split; [intros t Ht; discriminate Ht|].
+  - intros _. split; [intros t Ht; discriminate Ht|]. split; [intros t Ht; discriminate Ht|].
     split; [intros t r Ht; discriminate Ht|intros t Ht; discriminate Ht].
 Qed.
 
-Lemma FInv_frun ops : forall s, FInv s -> ops_fresh s ops = true -> FInv (frun s ops).
-Proof.
-  induction ops as [|o ops IH]; intros s HF Hg; cbn in *; [exact HF|].
-  apply andb_true_iff in Hg. destruct Hg as [G1 G2]. apply IH; [apply FInv_fstep; assumption|exact G2].
-Qed.
+(* EVERY operation sequence keeps the invariant: no guard is left *)
+Lemma FInv_frun ops : forall s, FInv s -> FInv (frun s ops).
+Proof. induction ops as [|o ops IH]; intros s HF; cbn in *; [exact HF|]. apply IH, FInv_fstep, HF. Qed.
 
 (* ====================================================================== *)
 (* C05 recorded_exactly_one                                               *)
@@ -2557,25 +2552,13 @@ Proof.
   - intros H. apply proof_iff in H. congruence.
 Qed.
 
-(* after every completed operation of every guarded sequence: exactly one record per owed (tower, locator) *)
+(* after every completed operation of EVERY sequence: exactly one record per owed (tower, locator) *)
 Theorem recorded_exactly_one ops :
-  ops_fresh f_init ops = true ->
   let s := frun f_init ops in
   forall t l, owed s t l = true -> record_count (c_db (f_c s)) t l = 1%nat.
 Proof.
-  intros Hg s t l Ho. pose proof (FInv_frun ops f_init FInv_init Hg) as [_ [[_ [U E]] _]]. fold s in U, E.
+  intros s t l Ho. pose proof (FInv_frun ops f_init FInv_init) as [_ [[_ [U E]] _]]. fold s in U, E.
   destruct (owed_spec s t l Ho) as [Hin [HT HM]]. apply record_count_one; [apply U, HM|]. apply (E t l Hin), HM.
-Qed.
-
-(* ... also from a state reached through a restart after any guarded prefix, and for every state on the way *)
-Theorem recorded_exactly_one_prefixes ops1 ops2 :
-  ops_fresh f_init (ops1 ++ ops2) = true ->
-  let s := frun f_init ops1 in
-  forall t l, owed s t l = true -> record_count (c_db (f_c s)) t l = 1%nat.
-Proof.
-  intros Hg. apply recorded_exactly_one. clear - Hg. revert Hg. generalize f_init.
-  induction ops1 as [|o ops1 IH]; intros s0 Hg; cbn in *; [reflexivity|].
-  apply andb_true_iff in Hg. destruct Hg as [A B]. rewrite A. cbn. apply IH, B.
 Qed.
 
 (* ====================================================================== *)
@@ -2631,6 +2614,12 @@ Proof.
   - destruct Hstore as [[A B]|[A [B C]]]; [left; tauto|right; split; [exact A|split; [exact B|intros _; exact C]]].
 Qed.
 
+Lemma flag_unreachable_db s t : c_db (f_c (flag_unreachable s t)) = c_db (f_c s).
+Proof.
+  unfold flag_unreachable. destruct (aget (c_towers (f_c s)) t) as [su|]; [|reflexivity].
+  destruct (_ && _); [|reflexivity]. cbn [f_c push_chan set_chan set_c]. apply DbInv_set_status.
+Qed.
+
 Theorem registration_gate s t rp :
   (snd (f_register s t t rp) = OOk ->
      exists slots start expiry, rp = RReceipt slots start expiry true /\ reg_extends (f_c s) t slots expiry = true /\ poisoned s = false /\
@@ -2658,7 +2647,7 @@ Proof.
     right. eexists. reflexivity.
   - (* connection error *)
     split; [discriminate|]. split; [|intros; discriminate]. intros _.
-    destruct (amem (c_towers (f_c (log_req s (ReqRegister t)))) t); [|reflexivity]. cbn [f_c set_c]. apply DbInv_set_status.
+    destruct (amem (c_towers (f_c (log_req s (ReqRegister t)))) t); [|reflexivity]. exact (flag_unreachable_db (log_req s (ReqRegister t)) t).
 Qed.
 
 (* ====================================================================== *)
@@ -2667,25 +2656,31 @@ Qed.
 Lemma f_log_retrier_drop s t l : f_log (retrier_drop s t l) = f_log s.
 Proof. unfold retrier_drop. destruct (aget (f_mgr s) t); reflexivity. Qed.
 
-(* the for loop emits one add_appointment per locator it gets to, in order: a prefix of its list *)
+(* the for loop emits one add_appointment per locator it sends (the ones still pending for the tower), in order *)
 Lemma run_for_log t : forall locs s adds s' adds' res,
   run_for s t locs adds = (s', adds', res) ->
-  exists done rest, locs = done ++ rest /\ f_log s' = f_log s ++ map (ReqAdd t) done /\ (res = None -> rest = []).
+  exists sent, f_log s' = f_log s ++ map (ReqAdd t) sent /\ incl sent locs /\ (NoDup locs -> NoDup sent).
 Proof.
   induction locs as [|l locs IH]; intros s adds s' adds' res E; cbn [run_for] in E.
-  { inversion E. subst. exists [], []. cbn. rewrite app_nil_r. repeat split; reflexivity. }
-  destruct (poisoned s).
-  { inversion E. subst. exists [], (l :: locs). cbn. rewrite app_nil_r. repeat split; try reflexivity. discriminate. }
-  destruct (dbm_load_appointment (c_db (f_c s)) l).
-  2:{ inversion E. subst. exists [], (l :: locs). cbn. rewrite app_nil_r. repeat split; try reflexivity. discriminate. }
+  { inversion E. subst. exists []. cbn. rewrite app_nil_r. repeat split; [intros y []|constructor]. }
+  assert (Hnone : forall sx, f_log sx = f_log s -> forall rx, (sx, adds, Some rx) = (s', adds', res) ->
+            exists sent, f_log s' = f_log s ++ map (ReqAdd t) sent /\ incl sent (l :: locs) /\ (NoDup (l :: locs) -> NoDup sent)).
+  { intros sx Hx rx Hr. inversion Hr. subst. exists []. cbn. rewrite app_nil_r. repeat split; [exact Hx|intros y []|constructor]. }
+  destruct (poisoned s); [eapply Hnone; [|exact E]; reflexivity|].
+  destruct (load_pending (f_c s) t l).
+  2:{ destruct (IH _ _ _ _ _ E) as [sent [A [B C]]]. exists sent. rewrite f_log_retrier_drop in A.
+      split; [exact A|]. split; [intros y Hy; right; apply B, Hy|]. intros Hnd. inversion Hnd. auto. }
   destruct (next_reply adds) as [rp adds1].
   assert (Hstop : forall sx, f_log sx = f_log s ++ [ReqAdd t l] -> forall rx, (sx, adds1, Some rx) = (s', adds', res) ->
-            exists done rest, l :: locs = done ++ rest /\ f_log s' = f_log s ++ map (ReqAdd t) done /\ (res = None -> rest = [])).
-  { intros sx Hx rx Hr. inversion Hr. subst. exists [l], locs. cbn. repeat split; try reflexivity; [exact Hx|discriminate]. }
+            exists sent, f_log s' = f_log s ++ map (ReqAdd t) sent /\ incl sent (l :: locs) /\ (NoDup (l :: locs) -> NoDup sent)).
+  { intros sx Hx rx Hr. inversion Hr. subst. exists [l]. cbn. repeat split; [exact Hx|intros y [<-|[]]; left; reflexivity|].
+    intros _. constructor; [intros []|constructor]. }
   assert (Hgo : forall sx, f_log sx = f_log s ++ [ReqAdd t l] -> run_for sx t locs adds1 = (s', adds', res) ->
-            exists done rest, l :: locs = done ++ rest /\ f_log s' = f_log s ++ map (ReqAdd t) done /\ (res = None -> rest = [])).
-  { intros sx Hx Hr. destruct (IH sx adds1 s' adds' res Hr) as [dn [rest [A [B C]]]]. exists (l :: dn), rest.
-    split; [cbn; rewrite A; reflexivity|]. split; [rewrite B, Hx; cbn; rewrite <- app_assoc; reflexivity|exact C]. }
+            exists sent, f_log s' = f_log s ++ map (ReqAdd t) sent /\ incl sent (l :: locs) /\ (NoDup (l :: locs) -> NoDup sent)).
+  { intros sx Hx Hr. destruct (IH sx adds1 s' adds' res Hr) as [dn [A [B C]]]. exists (l :: dn).
+    split; [rewrite A, Hx; cbn; rewrite <- app_assoc; reflexivity|]. split.
+    - intros y [<-|Hy]; [left; reflexivity|right; apply B, Hy].
+    - intros Hnd. inversion Hnd as [|? ? Hnl Hnd']. subst. constructor; [intros Hin; apply Hnl, B, Hin|apply C, Hnd']. }
   destruct rp.
   - destruct (wt_add_appointment_receipt _ _ _ _ _ _ _) as [c2 r2]. destruct (lift_site r2).
     + eapply Hstop; [|exact E]. cbn [f_log wr_c]. rewrite f_log_retrier_drop. reflexivity.
@@ -2725,15 +2720,14 @@ Proof.
   destruct (run_for s t (reorder hint (x :: p)) adds) as [[s1 adds1] r1] eqn:E1.
   pose proof Hpre as [HF [Hp [Hk Hrun]]].
   assert (Hnd : NoDup (x :: p)).
-  { destruct HF as [_ [_ [HV _]]]. destruct (HV Hp) as [_ [_ [_ [V4 _]]]]. unfold retrier_pending in Ep.
+  { destruct HF as [_ [_ [HV _]]]. destruct (HV Hp) as [_ [_ [V4 _]]]. unfold retrier_pending in Ep.
     destruct (aget (f_mgr s) t) as [r|] eqn:Er; [|discriminate]. rewrite <- Ep. eapply V4, Er. }
   pose proof (NoDup_reorder hint _ Hnd) as Hndr.
   destruct (FInv_run_for t _ s adds s1 adds1 r1 Hpre Hndr) as [A [B [C [D [F [G [PA PN]]]]]]]; [|exact E1|].
   { intros l Hl. rewrite Ep. apply In_reorder in Hl. exact Hl. }
-  destruct (run_for_log t _ s adds s1 adds1 r1 E1) as [dn [rest [Hsplit [Hlog Hrest]]]].
+  destruct (run_for_log t _ s adds s1 adds1 r1 E1) as [dn [Hlog [Hincl Hnds]]].
   assert (Hsent : NoDup dn /\ incl dn (x :: p)).
-  { rewrite Hsplit in Hndr. apply NoDup_app_iff in Hndr. split; [apply Hndr|]. intros y Hy. apply (In_reorder hint).
-    rewrite Hsplit. apply in_or_app. left. exact Hy. }
+  { split; [apply Hnds, Hndr|]. intros y Hy. apply (In_reorder hint). apply Hincl, Hy. }
   destruct r1 as [r|].
   - inversion E. subst. split; [apply (run_for_not_ok t _ _ _ _ _ _ E1)|]. exists dn. split; [exact Hlog|exact Hsent].
   - (* the whole set was processed: the next round finds it empty *)
@@ -2745,7 +2739,6 @@ Proof.
 Qed.
 
 Theorem run_bounded ops t a :
-  ops_fresh f_init ops = true ->
   let s := frun f_init ops in
   In t (f_tasks s) ->
   fst (run_attempt s t a) = fst (run_attempt s t a) /\
@@ -2753,14 +2746,16 @@ Theorem run_bounded ops t a :
   exists reg sent, f_log (fst (run_attempt s t a)) = f_log s ++ reg ++ map (ReqAdd t) sent /\
                    (reg = [] \/ reg = [ReqRegister t]) /\ NoDup sent /\ incl sent (retrier_pending s t).
 Proof.
-  intros Hg s Hin. split; [reflexivity|].
-  pose proof (FInv_frun ops f_init FInv_init Hg) as HF. fold s in HF.
+  intros s Hin. split; [reflexivity|].
+  pose proof (FInv_frun ops f_init FInv_init) as HF. fold s in HF.
   assert (Hrun : rstat s t = Some RRunning) by (apply HF, Hin).
   unfold run_attempt. destruct (poisoned s) eqn:Hp.
   { cbn. split; [discriminate|]. exists [], []. cbn. rewrite app_nil_r. repeat split; [left; reflexivity|constructor|intros y []]. }
   destruct (aget (c_towers (f_c s)) t) as [su|] eqn:Et.
   2:{ cbn. split; [discriminate|]. exists [], []. cbn. rewrite app_nil_r. repeat split; [left; reflexivity|constructor|intros y []]. }
   assert (Hk : knownc (f_c s) t) by (unfold knownc, amem; rewrite Et; reflexivity).
+  destruct (is_misbehaving (su_status su)).
+  { cbn. split; [discriminate|]. exists [], []. cbn. rewrite app_nil_r. repeat split; [left; reflexivity|constructor|intros y []]. }
   assert (Hgo : forall s0 reg, FInv s0 -> poisoned s0 = false -> knownc (f_c s0) t -> rstat s0 t = Some RRunning ->
             f_log s0 = f_log s ++ reg -> retrier_pending s0 t = retrier_pending s t ->
             snd (run_while (run_fuel s0 t) s0 t (at_order a) (at_adds a)) <> RunFuel /\
@@ -2807,19 +2802,20 @@ Proof.
   - destruct (negb (is_permanent e) && more); [apply keeps_refl|].
     set (s1 := if is_permanent e then retrier_set_status s t RFailed else s).
     assert (Ec1 : f_c s1 = f_c s) by (unfold s1; destruct (is_permanent e); [apply f_c_retrier_set_status|reflexivity]).
-    destruct e as [[|]| |l|]; cbn [fst f_c end_task set_tasks set_c].
+    destruct e as [[|]| |l| |]; cbn [fst f_c end_task set_tasks set_c].
     + rewrite DbInv_set_status, Ec1. apply keeps_refl.
     + rewrite f_c_retrier_clear, f_c_retrier_set_status. cbn [f_c set_c]. rewrite DbInv_set_status. cbn [c_db with_retriers]. rewrite Ec1. apply keeps_refl.
     + rewrite f_c_retrier_clear, f_c_retrier_set_status. cbn [f_c set_c]. rewrite DbInv_set_status. cbn [c_db with_retriers]. rewrite Ec1. apply keeps_refl.
     + rewrite Ec1. destruct (wt_flag_misbehaving_tower (f_c s) t l START_BLOCK USER_SIG SIG_OTHER (other_id t)) as [c2 r2] eqn:E2.
       destruct (prim_flag _ _ _ _ _ _ _ _ _ HI (Hnp I) E2) as [_ [_ [_ Heff]]].
       assert (Hk : keeps (c_db (f_c s)) (c_db c2)).
-      { destruct Heff as [[Ed _]|[_ [_ [_ [_ [T5 [T6 Hfr]]]]]]]; [rewrite Ed; apply keeps_refl|].
+      { destruct Heff as [[Ed _]|[_ [_ [_ [_ [_ [_ [ER Hfr]]]]]]]]; [rewrite Ed; apply keeps_refl|].
         intros k x [H|[H|H]].
-        - left. apply (Rrow_app _ _ _ _ _ _ _ k x T5). left. exact H.
+        - left. apply ER. left. exact H.
         - right. left. apply (Prow_ext _ _ k x (Hfr T_pending_appointments ltac:(discriminate) ltac:(discriminate))), H.
         - right. right. apply (Irow_ext _ _ k x (Hfr T_invalid_appointments ltac:(discriminate) ltac:(discriminate))), H. }
       destruct (lift_site r2); cbn [fst f_c end_task set_tasks set_c wr_c]; exact Hk.
+    + rewrite Ec1. apply keeps_refl.
     + rewrite Ec1. apply keeps_refl.
   - apply keeps_refl.
   - apply keeps_refl.
@@ -2842,14 +2838,13 @@ Proof.
 Qed.
 
 (* a retrier run never loses a record: every (tower, locator) that had a receipt, a pending row or an invalid
-   row before still has one of the three after — from every state of every guarded operation sequence, for every
+   row before still has one of the three after — from every state of EVERY operation sequence, for every
    reply sequence given to the retrier *)
 Theorem no_record_lost_by_retry ops t atts :
-  ops_fresh f_init ops = true ->
   let s := frun f_init ops in
   forall k x, recorded (c_db (f_c s)) k x -> recorded (c_db (f_c (fst (fstep s (FRetrierRun t atts))))) k x.
 Proof.
-  intros Hg s k x H. pose proof (FInv_frun ops f_init FInv_init Hg) as HF. fold s in HF.
+  intros s k x H. pose proof (FInv_frun ops f_init FInv_init) as HF. fold s in HF.
   cbn [fstep]. pose proof (retrier_run_keeps t atts s HF) as K. destruct (f_retrier_run s t atts) as [s' o]. cbn [fst] in *. apply K, H.
 Qed.
 
@@ -2945,7 +2940,7 @@ Qed.
 Lemma store_proof_succeeds d t l sb u g rc :
   DbInv d -> Trow d t -> ~ Rrow d t l -> ~ Mrow d t -> exists d', dbm_store_misbehaving_proof d t l sb u g rc = DbOk d'.
 Proof.
-  intros HD HT HR HM. unfold dbm_store_misbehaving_proof. rewrite receipt_row_eq, mkrow_proof.
+  intros HD HT HR HM. unfold dbm_store_misbehaving_proof, proof_row. rewrite receipt_row_eq, mkrow_proof.
   destruct (db_insert_succeeds d T_appointment_receipts [l; t; sb; u; g]) as [d1 E1].
   - rewrite (DbInv_len d HD). unfold T_appointment_receipts. lia.
   - reflexivity.
@@ -2997,46 +2992,68 @@ Proof.
   apply C6, In_invalid_locators. destruct HP as [row [A [B C]]]. exists row. auto.
 Qed.
 
-Lemma flag_ok c t l sb u g rc : Inv c -> c_poisoned c = false -> knownc c t -> ~ Rrow (c_db c) t l -> ~ Mrow (c_db c) t ->
-  snd (wt_flag_misbehaving_tower c t l sb u g rc) = ROk.
+(* store_misbehaving_proof_over_receipt (fix d35e2bc): the receipt of (tower, locator) is there, no proof yet *)
+Lemma store_proof_over_receipt_succeeds d t l sb u g rc :
+  DbInv d -> Rrow d t l -> ~ Mrow d t -> exists d', dbm_store_misbehaving_proof_over_receipt d t l sb u g rc = DbOk d'.
 Proof.
-  intros HI Hp Hk HR HM. pose proof (proj1 (known_iff_Trow c t HI Hp) Hk) as HT. unfold wt_flag_misbehaving_tower.
-  unfold knownc, amem in Hk. destruct (aget (c_towers c) t); [|discriminate].
-  destruct (store_proof_succeeds (c_db c) t l sb u g rc (proj1 HI) HT HR HM) as [d' ->]. reflexivity.
+  intros HD HR HM. unfold dbm_store_misbehaving_proof_over_receipt, proof_row. rewrite mkrow_proof.
+  destruct (db_update CS d T_appointment_receipts [l; t]
+              [(C_appointment_receipts_start_block, sb); (C_appointment_receipts_user_signature, u); (C_appointment_receipts_tower_signature, g)] false) as [d1|e] eqn:E1.
+  2:{ unfold db_update in E1. cbn in E1. discriminate. }
+  pose proof (tbl_update CS _ _ _ _ _ d1 E1) as [O1 [L1 T1]].
+  apply db_insert_succeeds.
+  - rewrite L1, (DbInv_len d HD). unfold T_misbehaving_proofs. lia.
+  - reflexivity.
+  - destruct (has_pk CS d1 T_misbehaving_proofs (proj [t; l; rc] (ts_pk (tsch CS T_misbehaving_proofs)))) eqn:E; [|reflexivity].
+    exfalso. apply HM. apply proof_iff. unfold exists_misbehaving_proof, has_pk in *. rewrite <- (O1 T_misbehaving_proofs) by discriminate. exact E.
+  - cbn [ts_fks tsch CS client_schema nth T_misbehaving_proofs forallb]. rewrite andb_true_r.
+    apply parent_present_iff. cbn [fk_parent fk_pcols fk_cols]. destruct HR as [row [A [B C]]].
+    exists (upd_receipt t l sb u g row). split.
+    + change 5%nat with T_appointment_receipts. rewrite T1 by (rewrite (DbInv_len d HD); unfold T_appointment_receipts; lia).
+      apply in_map_iff. exists row. split; [reflexivity|exact A].
+    + destruct (upd_receipt_key t l sb u g row) as [K1 K2].
+      change (proj (upd_receipt t l sb u g row) [0%nat; 1%nat]) with
+        [col (upd_receipt t l sb u g row) C_appointment_receipts_locator; col (upd_receipt t l sb u g row) C_appointment_receipts_tower_id].
+      rewrite K1, K2, B, C. reflexivity.
 Qed.
 
-(* when flagging aborts, it is the duplicate-proof site *)
-Lemma flag_abort_site c t l sb u g rc st : snd (wt_flag_misbehaving_tower c t l sb u g rc) = RAbort st -> st = Site_store_misbehaving_proof_unwrap.
+Lemma flag_store_succeeds d t l sb u g rc : DbInv d -> Trow d t -> exists d', flag_store d t l sb u g rc = DbOk d'.
 Proof.
-  unfold wt_flag_misbehaving_tower. destruct (aget (c_towers c) t); [|discriminate].
-  destruct (dbm_store_misbehaving_proof (c_db c) t l sb u g rc); [discriminate|]. cbn. intros H. inversion H. reflexivity.
+  intros HD HT. unfold flag_store. destruct (exists_misbehaving_proof d t) eqn:Em; [eexists; reflexivity|].
+  assert (HM : ~ Mrow d t) by (intros H; apply proof_iff in H; congruence).
+  destruct (dbm_load_appointment_receipt d t l) as [rc0|] eqn:El.
+  - apply store_proof_over_receipt_succeeds; [exact HD| |exact HM].
+    unfold dbm_load_appointment_receipt in El. apply find_pk_Some in El. destruct El as [A B].
+    cbn in B. exists rc0. split; [exact A|]. inversion B. split; reflexivity.
+  - apply store_proof_succeeds; [exact HD|exact HT| |exact HM].
+    intros HR. apply has_receipt_row_iff in HR. unfold has_receipt_row in HR. rewrite has_pk_find in HR.
+    unfold dbm_load_appointment_receipt in El. rewrite El in HR. discriminate.
+Qed.
+
+(* flag_misbehaving_tower never aborts (fix d35e2bc): whatever is already stored for the tower *)
+Lemma flag_ok c t l sb u g rc : Inv c -> c_poisoned c = false -> knownc c t ->
+  snd (wt_flag_misbehaving_tower c t l sb u g rc) = ROk.
+Proof.
+  intros HI Hp Hk. pose proof (proj1 (known_iff_Trow c t HI Hp) Hk) as HT. unfold wt_flag_misbehaving_tower.
+  unfold knownc, amem in Hk. destruct (aget (c_towers c) t); [|discriminate].
+  destruct (flag_store_succeeds (c_db c) t l sb u g rc (proj1 HI) HT) as [d' ->]. reflexivity.
 Qed.
 
 (* ====================================================================== *)
 (* C14 no_reply_aborts                                                    *)
 (* ====================================================================== *)
-Definition PROOF_SITE : fsite := SClient Site_store_misbehaving_proof_unwrap.
-
-Lemma classic_Mrow d t : Mrow d t \/ ~ Mrow d t.
-Proof. destruct (exists_misbehaving_proof d t) eqn:E; [left; apply proof_iff, E|right; intros H; apply proof_iff in H; congruence]. Qed.
-
 Lemma rev_pend_no_abort s0 l t send : Inv (f_c s0) -> poisoned s0 = false -> knownc (f_c s0) t -> snd (rev_pend s0 l t send) = None.
 Proof.
   intros HI Hp Hk. unfold rev_pend. pose proof (add_pending_ok (f_c s0) t l BLOB DELAY HI Hp Hk) as H.
   destruct (wt_add_pending_appointment (f_c s0) t l BLOB DELAY) as [c2 r]. cbn [snd] in H. subst r. reflexivity.
 Qed.
 
-(* the notification path: whatever the tower replies, the handler does not panic — except when a tower whose
-   misbehaviour proof is ALREADY stored answers with another key's signature again (duplicate proof) *)
+(* the notification path: whatever the tower replies, the handler does not panic *)
 Lemma rev_tower_no_abort s l t st rp :
-  FInv s -> poisoned s = false -> knownc (f_c s) t ->
-  snd (rev_tower s l t st rp) = None \/
-  (snd (rev_tower s l t st rp) = Some PROOF_SITE /\ rp = AWrongKey /\ Mrow (c_db (f_c s)) t).
+  FInv s -> poisoned s = false -> knownc (f_c s) t -> snd (rev_tower s l t st rp) = None.
 Proof.
   intros HF Hp Hk. pose proof HF as [HI _]. unfold rev_tower. rewrite Hp.
-  pose proof (has_appointment_iff _ t l HI Hp Hk) as Hha.
-  destruct (wt_has_appointment (f_c s) t l) eqn:Eha; [left; reflexivity|].
-  assert (NR : ~ Rrow (c_db (f_c s)) t l) by (intros H; assert (false = true) by (apply Hha; tauto); discriminate).
+  destruct (wt_has_appointment (f_c s) t l) eqn:Eha; [reflexivity|].
   set (s1 := log_req s (ReqAdd t l)).
   assert (Hst : forall st', Inv (f_c (set_c s1 (wt_set_tower_status (f_c s1) t st'))) /\ poisoned (set_c s1 (wt_set_tower_status (f_c s1) t st')) = false /\
                             knownc (f_c (set_c s1 (wt_set_tower_status (f_c s1) t st'))) t).
@@ -3044,45 +3061,36 @@ Proof.
     apply knownc_set_status. exact Hk. }
   destruct (is_reachable st).
   - destruct rp as [slots| | | | | | |].
-    + left. pose proof (add_receipt_ok (f_c s1) t l slots START_BLOCK USER_SIG SIG_TOWER HI Hp Hk) as H.
+    + pose proof (add_receipt_ok (f_c s1) t l slots START_BLOCK USER_SIG SIG_TOWER HI Hp Hk) as H.
       destruct (wt_add_appointment_receipt (f_c s1) t l slots START_BLOCK USER_SIG SIG_TOWER) as [c2 r]. cbn [snd] in *. subst r. reflexivity.
-    + destruct (wt_flag_misbehaving_tower (f_c s1) t l START_BLOCK USER_SIG SIG_OTHER (other_id t)) as [c2 r] eqn:E. cbn [snd].
-      destruct r; try (left; reflexivity). right.
-      pose proof (flag_abort_site (f_c s1) t l START_BLOCK USER_SIG SIG_OTHER (other_id t) s0) as Hs. rewrite E in Hs. cbn [snd] in Hs. rewrite (Hs eq_refl).
-      split; [reflexivity|]. split; [reflexivity|].
-      destruct (classic_Mrow (c_db (f_c s)) t) as [Hm|Hm]; [exact Hm|]. exfalso.
-      pose proof (flag_ok (f_c s1) t l START_BLOCK USER_SIG SIG_OTHER (other_id t) HI Hp Hk NR Hm) as Hok. rewrite E in Hok. discriminate.
-    + left. destruct (Hst TemporaryUnreachable) as [A [B C]]. apply rev_pend_no_abort; assumption.
-    + left. destruct (Hst TemporaryUnreachable) as [A [B C]]. apply rev_pend_no_abort; assumption.
-    + left. destruct (Hst TemporaryUnreachable) as [A [B C]]. apply rev_pend_no_abort; assumption.
-    + left. destruct (Hst TemporaryUnreachable) as [A [B C]]. apply rev_pend_no_abort; assumption.
-    + left. destruct (Hst SubscriptionError) as [A [B C]]. apply rev_pend_no_abort; assumption.
-    + left. pose proof (add_invalid_ok (f_c s1) t l BLOB DELAY HI Hp Hk) as H.
+    + pose proof (flag_ok (f_c s1) t l START_BLOCK USER_SIG SIG_OTHER (other_id t) HI Hp Hk) as H.
+      destruct (wt_flag_misbehaving_tower (f_c s1) t l START_BLOCK USER_SIG SIG_OTHER (other_id t)) as [c2 r]. cbn [snd] in *. subst r. reflexivity.
+    + destruct (Hst TemporaryUnreachable) as [A [B C]]. apply rev_pend_no_abort; assumption.
+    + destruct (Hst TemporaryUnreachable) as [A [B C]]. apply rev_pend_no_abort; assumption.
+    + destruct (Hst TemporaryUnreachable) as [A [B C]]. apply rev_pend_no_abort; assumption.
+    + destruct (Hst TemporaryUnreachable) as [A [B C]]. apply rev_pend_no_abort; assumption.
+    + destruct (Hst SubscriptionError) as [A [B C]]. apply rev_pend_no_abort; assumption.
+    + pose proof (add_invalid_ok (f_c s1) t l BLOB DELAY HI Hp Hk) as H.
       destruct (wt_add_invalid_appointment (f_c s1) t l BLOB DELAY) as [c2 r]. cbn [snd] in *. subst r. reflexivity.
-  - destruct (is_misbehaving st); [left; reflexivity|]. left. apply rev_pend_no_abort; assumption.
+  - destruct (is_misbehaving st); [reflexivity|]. apply rev_pend_no_abort; assumption.
 Qed.
 
 Lemma rev_loop_no_abort l replies : forall snap s,
   FInv s -> poisoned s = false ->
   (forall t st, In (t, st) snap -> knownc (f_c s) t /\ (st = Misbehaving -> Mrow (c_db (f_c s)) t)) ->
-  snd (rev_loop s l snap replies) = None \/
-  (exists t, reply_for replies t = AWrongKey /\ snd (rev_loop s l snap replies) = Some PROOF_SITE).
+  snd (rev_loop s l snap replies) = None.
 Proof.
-  induction snap as [|[t st] snap IH]; intros s HF Hp Hsn; cbn [rev_loop]; [left; reflexivity|].
+  induction snap as [|[t st] snap IH]; intros s HF Hp Hsn; cbn [rev_loop]; [reflexivity|].
   destruct (Hsn t st (or_introl eq_refl)) as [Hk Hm].
   pose proof (rev_tower_no_abort s l t st (reply_for replies t) HF Hp Hk) as Hna.
-  destruct (rev_tower s l t st (reply_for replies t)) as [s1 o1] eqn:E1. cbn [snd] in Hna.
-  destruct (FInv_rev_tower s l t st _ s1 o1 HF Hk Hm E1) as [HF1 [_ [Hg1 [Hkn1 Hok1]]]].
-  destruct o1 as [site|].
-  - cbn [snd]. destruct Hna as [Hna|[Hs [Hw _]]]; [discriminate|]. right. exists t. split; [exact Hw|exact Hs].
-  - destruct (Hok1 eq_refl) as [Hp1 _]. apply IH; [exact HF1|exact Hp1|].
-    intros t0 st0 Hin. destruct (Hsn t0 st0 (or_intror Hin)) as [A B]. split; [apply Hkn1, A|]. intros H. apply Hg1, B, H.
+  destruct (rev_tower s l t st (reply_for replies t)) as [s1 o1] eqn:E1. cbn [snd] in Hna. subst o1.
+  destruct (FInv_rev_tower s l t st _ s1 None HF Hk Hm E1) as [HF1 [_ [Hg1 [Hkn1 Hok1]]]].
+  destruct (Hok1 eq_refl) as [Hp1 _]. apply IH; [exact HF1|exact Hp1|].
+  intros t0 st0 Hin. destruct (Hsn t0 st0 (or_intror Hin)) as [A B]. split; [apply Hkn1, A|]. intros H. apply Hg1, B, H.
 Qed.
 
 Lemma revocation_no_abort s l order replies :
-  FInv s -> poisoned s = false ->
-  snd (f_revocation s l order replies) = OOk \/
-  (exists t, reply_for replies t = AWrongKey /\ snd (f_revocation s l order replies) = OPanic PROOF_SITE).
+  FInv s -> poisoned s = false -> snd (f_revocation s l order replies) = OOk.
 Proof.
   intros HF Hp. unfold f_revocation. rewrite Hp.
   set (snap := reorder_towers order (towers_snapshot (f_c s))).
@@ -3090,8 +3098,7 @@ Proof.
   { intros t st Hin. apply reorder_towers_In, towers_snapshot_In in Hin. destruct HF as [_ [_ [HV _]]]. destruct (HV Hp) as [V1 _].
     split; [|intros ->; apply V1, Hin]. unfold knownc, amem. unfold stat in Hin. destruct (aget (c_towers (f_c s)) t); [reflexivity|discriminate]. }
   pose proof (rev_loop_no_abort l replies snap s HF Hp Hsn) as H.
-  destruct (rev_loop s l snap replies) as [s1 o]. cbn [snd] in H.
-  destruct H as [->|[t [Hw ->]]]; [left; reflexivity|right; exists t; split; [exact Hw|reflexivity]].
+  destruct (rev_loop s l snap replies) as [s1 o]. cbn [snd] in H. subst o. reflexivity.
 Qed.
 
 (* ---- the retry path ---- *)
@@ -3102,7 +3109,7 @@ Lemma run_for_cons t l locs s adds :
   | (s1, adds1, Some r) => (s1, adds1, Some r)
   end.
 Proof.
-  cbn [run_for]. destruct (poisoned s); [reflexivity|]. destruct (dbm_load_appointment (c_db (f_c s)) l); [|reflexivity].
+  cbn [run_for]. destruct (poisoned s); [reflexivity|]. destruct (load_pending (f_c s) t l); [|reflexivity].
   destruct (next_reply adds) as [rp adds1]. destruct rp; try reflexivity.
   - destruct (wt_add_appointment_receipt _ _ _ _ _ _ _) as [c2 r2]. destruct (lift_site r2); [reflexivity|].
     destruct (wt_remove_pending_appointment c2 t l) as [c3 r3]. destruct (lift_site r3); reflexivity.
@@ -3117,11 +3124,11 @@ Proof.
 Qed.
 
 Lemma run_for_one_no_abort t l s adds :
-  RunPre s t -> In l (retrier_pending s t) -> no_abort (snd (run_for s t [l] adds)).
+  RunPre s t -> no_abort (snd (run_for s t [l] adds)).
 Proof.
-  intros [HF [Hp [Hk Hrun]]] Hl. pose proof HF as [HI [HD [HV HT]]]. destruct (HV Hp) as [V1 [V2 _]].
-  assert (HPl : Prow (c_db (f_c s)) t l) by (apply V2; [exact Hk|]; rewrite tracked_eq; apply in_or_app; left; exact Hl).
-  cbn [run_for]. rewrite Hp. destruct (pending_body _ t l (proj1 HI) HPl) as [body ->].
+  intros [HF [Hp [Hk Hrun]]]. pose proof HF as [HI [HD [HV HT]]].
+  pose proof (load_pending_spec (f_c s) t l HI Hp) as Hlp.
+  cbn [run_for]. rewrite Hp. destruct (load_pending (f_c s) t l) as [body|]; [|exact I]. destruct Hlp as [_ HPl].
   set (s1 := log_req s (ReqAdd t l)).
   assert (HF1 : FInv s1) by (apply (FInv_core s); auto).
   destruct (next_reply adds) as [rp adds1]. destruct rp; cbn [snd no_abort]; try exact I.
@@ -3129,23 +3136,24 @@ Proof.
     pose proof (add_receipt_ok (f_c s1) t l slots START_BLOCK USER_SIG SIG_TOWER HI Hp Hk) as Hok.
     destruct (wt_add_appointment_receipt (f_c s1) t l slots START_BLOCK USER_SIG SIG_TOWER) as [c2 r2] eqn:E2. cbn [snd] in Hok. subst r2.
     destruct (add_receipt_spec_for_move _ _ _ _ _ _ HI Hp Hk E2) as [S1 [S2 [S3 [S4 [S5 [S6 S7]]]]]].
-    pose proof (FInv_move_generic s1 t l 0 c2 ROk HF1 Hp Hk Hrun Hl (or_introl eq_refl) S1 S2 S3 S4 S5 S6 S7) as Hmove.
+    pose proof (FInv_move_generic s1 t l 0 c2 ROk HF1 Hp Hk HPl (or_introl eq_refl) S1 S2 S3 S4 S5 S6 S7) as Hmove.
     cbn [lift_site] in *. destruct (wt_remove_pending_appointment c2 t l) as [c3 r3]. cbn [fst snd] in Hmove. destruct Hmove as [M1 _]. rewrite M1. exact I.
   - rewrite f_c_retrier_drop.
     pose proof (add_invalid_ok (f_c s1) t l (col body C_appointments_encrypted_blob) (col body C_appointments_to_self_delay) HI Hp Hk) as Hok.
     destruct (wt_add_invalid_appointment (f_c s1) t l (col body C_appointments_encrypted_blob) (col body C_appointments_to_self_delay)) as [c2 r2] eqn:E2.
     cbn [snd] in Hok. subst r2.
     destruct (add_invalid_spec_for_move _ _ _ _ _ _ _ HI Hp Hk E2) as [S1 [S2 [S3 [S4 [S5 [S6 S7]]]]]].
-    pose proof (FInv_move_generic s1 t l 2 c2 ROk HF1 Hp Hk Hrun Hl (or_intror eq_refl) S1 S2 S3 S4 S5 S6 S7) as Hmove.
+    pose proof (FInv_move_generic s1 t l 2 c2 ROk HF1 Hp Hk HPl (or_intror eq_refl) S1 S2 S3 S4 S5 S6 S7) as Hmove.
     cbn [lift_site] in *. destruct (wt_remove_pending_appointment c2 t l) as [c3 r3]. cbn [fst snd] in Hmove. destruct Hmove as [M1 _]. rewrite M1. exact I.
 Qed.
 
+(* Retrier::run has no panic site left (fix 8108569): whatever the retrier's set holds *)
 Lemma run_for_no_abort t : forall locs s adds,
   RunPre s t -> NoDup locs -> (forall l, In l locs -> In l (retrier_pending s t)) -> no_abort (snd (run_for s t locs adds)).
 Proof.
   induction locs as [|l locs IH]; intros s adds Hpre Hnd Hsub; [exact I|].
   rewrite run_for_cons. inversion Hnd as [|? ? Hnl Hnd']. subst.
-  pose proof (run_for_one_no_abort t l s adds Hpre (Hsub l (or_introl eq_refl))) as H1.
+  pose proof (run_for_one_no_abort t l s adds Hpre) as H1.
   destruct (run_for s t [l] adds) as [[s1 adds1] r1] eqn:E1. cbn [snd] in H1.
   destruct r1 as [r|]; [exact H1|].
   assert (Hnd1 : NoDup [l]) by (constructor; [intros []|constructor]).
@@ -3154,20 +3162,23 @@ Proof.
   apply IH; [|exact Hnd'|].
   - split; [exact A|]. split; [exact Hp1|]. split; [apply Hk1, Hk|].
     pose proof (run_for_same t [l] s adds) as [_ Hs]. rewrite E1 in Hs. cbn [fst] in Hs. rewrite Hs. exact Hrun.
-  - (* the remaining locators are still in the retrier's set *)
+  - (* the remaining locators are still in the retrier's set: the set only lost l *)
     intros x Hx.
-    destruct (run_for_log t [l] s adds s1 adds1 None E1) as [dn [rest [Hsplit [_ Hrest]]]].
-    (* the set only lost l *)
     clear - E1 Hx Hsub Hnl Hp. cbn [run_for] in E1. unfold poisoned in Hp. unfold poisoned in E1. rewrite Hp in E1.
-    destruct (dbm_load_appointment (c_db (f_c s)) l); [|discriminate]. destruct (next_reply adds) as [rp a1]. destruct rp; try discriminate.
+    assert (Hdrop : forall sx, retrier_pending sx t = set_remove l (retrier_pending s t) -> In x (retrier_pending sx t)).
+    { intros sx HX. rewrite HX. apply In_set_remove. split; [apply (Hsub x); right; exact Hx|]. intros ->. contradiction. }
+    destruct (load_pending (f_c s) t l); [|inversion E1; subst; apply Hdrop; rewrite retrier_pending_drop, N.eqb_refl; reflexivity].
+    destruct (next_reply adds) as [rp a1]. destruct rp; try discriminate.
     + destruct (wt_add_appointment_receipt _ _ _ _ _ _ _) as [c2 r2]. destruct (lift_site r2); [discriminate|].
       destruct (wt_remove_pending_appointment c2 t l) as [c3 r3]. destruct (lift_site r3); [discriminate|]. inversion E1. subst.
+      apply Hdrop.
       change (retrier_pending (wr_c (wr_c (retrier_drop (log_req s (ReqAdd t l)) t l) c2) c3) t) with (retrier_pending (retrier_drop (log_req s (ReqAdd t l)) t l) t).
-      rewrite retrier_pending_drop, N.eqb_refl. apply In_set_remove. split; [apply (Hsub x); right; exact Hx|]. intros ->. contradiction.
+      rewrite retrier_pending_drop, N.eqb_refl. reflexivity.
     + destruct (wt_add_invalid_appointment _ _ _ _ _) as [c2 r2]. destruct (lift_site r2); [discriminate|].
       destruct (wt_remove_pending_appointment c2 t l) as [c3 r3]. destruct (lift_site r3); [discriminate|]. inversion E1. subst.
+      apply Hdrop.
       change (retrier_pending (wr_c (wr_c (retrier_drop (log_req s (ReqAdd t l)) t l) c2) c3) t) with (retrier_pending (retrier_drop (log_req s (ReqAdd t l)) t l) t).
-      rewrite retrier_pending_drop, N.eqb_refl. apply In_set_remove. split; [apply (Hsub x); right; exact Hx|]. intros ->. contradiction.
+      rewrite retrier_pending_drop, N.eqb_refl. reflexivity.
 Qed.
 
 (* registration / renewal never aborts in a state of the invariant *)
@@ -3258,41 +3269,14 @@ Proof.
 Qed.
 
 
-(* the locator a wrong-key reply was about is still in the retrier's set when run returns *)
-Lemma run_for_misbehaving t : forall locs s adds s' adds' l0,
-  (forall l, In l locs -> In l (retrier_pending s t)) -> NoDup locs ->
-  run_for s t locs adds = (s', adds', Some (RunErr (EMisbehaving l0))) -> In l0 (retrier_pending s' t).
-Proof.
-  induction locs as [|l locs IH]; intros s adds s' adds' l0 Hsub Hnd E; [discriminate|].
-  rewrite run_for_cons in E. inversion Hnd as [|? ? Hnl Hnd']. subst.
-  destruct (run_for s t [l] adds) as [[s1 adds1] r1] eqn:E1.
-  cbn [run_for] in E1. destruct (poisoned s); [inversion E1; subst; discriminate|].
-  destruct (dbm_load_appointment (c_db (f_c s)) l); [|inversion E1; subst; discriminate].
-  destruct (next_reply adds) as [rp a1].
-  assert (Hcont : forall sx, (forall k, retrier_pending sx k = retrier_pending (retrier_drop (log_req s (ReqAdd t l)) t l) k) ->
-            run_for sx t locs adds1 = (s', adds', Some (RunErr (EMisbehaving l0))) -> In l0 (retrier_pending s' t)).
-  { intros sx Hx Ex. apply (IH sx adds1 s' adds' l0); [|exact Hnd'|exact Ex].
-    intros x Hin. rewrite Hx, retrier_pending_drop, N.eqb_refl. apply In_set_remove. split; [apply Hsub; right; exact Hin|]. intros ->. contradiction. }
-  destruct rp; try (inversion E1; subst; discriminate).
-  - destruct (wt_add_appointment_receipt _ _ _ _ _ _ _) as [c2 r2]. destruct (lift_site r2); [inversion E1; subst; discriminate|].
-    destruct (wt_remove_pending_appointment c2 t l) as [c3 r3]. destruct (lift_site r3); [inversion E1; subst; discriminate|].
-    inversion E1. subst. eapply Hcont; [|exact E]. reflexivity.
-  - inversion E1. subst. inversion E. subst. apply Hsub. left. reflexivity.
-  - destruct (wt_add_invalid_appointment _ _ _ _ _) as [c2 r2]. destruct (lift_site r2); [inversion E1; subst; discriminate|].
-    destruct (wt_remove_pending_appointment c2 t l) as [c3 r3]. destruct (lift_site r3); [inversion E1; subst; discriminate|].
-    inversion E1. subst. eapply Hcont; [|exact E]. reflexivity.
-Qed.
-
 Lemma run_while_no_abort t hint : forall fuel s adds,
-  RunPre s t ->
-  (match snd (run_while fuel s t hint adds) with RunAbort _ => False | _ => True end) /\
-  (forall l0, snd (run_while fuel s t hint adds) = RunErr (EMisbehaving l0) -> In l0 (retrier_pending (fst (run_while fuel s t hint adds)) t)).
+  RunPre s t -> match snd (run_while fuel s t hint adds) with RunAbort _ => False | _ => True end.
 Proof.
-  induction fuel as [|f IH]; intros s adds Hpre; cbn [run_while]; [split; [exact I|discriminate]|].
-  destruct (retrier_pending s t) as [|x p] eqn:Ep; [split; [exact I|discriminate]|].
+  induction fuel as [|f IH]; intros s adds Hpre; cbn [run_while]; [exact I|].
+  destruct (retrier_pending s t) as [|x p] eqn:Ep; [exact I|].
   pose proof Hpre as [HF [Hp [Hk Hrun]]].
   assert (Hnd : NoDup (x :: p)).
-  { destruct HF as [_ [_ [HV _]]]. destruct (HV Hp) as [_ [_ [_ [V4 _]]]]. unfold retrier_pending in Ep.
+  { destruct HF as [_ [_ [HV _]]]. destruct (HV Hp) as [_ [_ [V4 _]]]. unfold retrier_pending in Ep.
     destruct (aget (f_mgr s) t) as [r|] eqn:Er; [|discriminate]. rewrite <- Ep. eapply V4, Er. }
   pose proof (NoDup_reorder hint _ Hnd) as Hndr.
   assert (Hsub : forall l, In l (reorder hint (x :: p)) -> In l (retrier_pending s t)) by (intros l Hl; rewrite Ep; apply In_reorder in Hl; exact Hl).
@@ -3300,55 +3284,48 @@ Proof.
   destruct (run_for s t (reorder hint (x :: p)) adds) as [[s1 adds1] r1] eqn:E1. cbn [snd] in Hna.
   destruct (FInv_run_for t _ s adds s1 adds1 r1 Hpre Hndr Hsub E1) as [A [B _]].
   destruct r1 as [r|]; cbn [fst snd].
-  - split; [destruct r; auto|]. intros l0 ->. eapply run_for_misbehaving; [exact Hsub|exact Hndr|exact E1].
+  - destruct r; auto.
   - destruct (B I) as [Hp1 Hk1]. apply IH. split; [exact A|]. split; [exact Hp1|]. split; [apply Hk1, Hk|].
     pose proof (run_for_same t (reorder hint (x :: p)) s adds) as [_ Hs]. rewrite E1 in Hs. cbn [fst] in Hs. rewrite Hs. exact Hrun.
 Qed.
 
 Lemma run_attempt_no_abort s t a :
   FInv s -> poisoned s = false -> rstat s t = Some RRunning ->
-  (match snd (run_attempt s t a) with RunAbort _ => False | _ => True end) /\
-  (forall l0, snd (run_attempt s t a) = RunErr (EMisbehaving l0) -> In l0 (retrier_pending (fst (run_attempt s t a)) t)).
+  match snd (run_attempt s t a) with RunAbort _ => False | _ => True end.
 Proof.
   intros HF Hp Hrun. unfold run_attempt. rewrite Hp.
-  destruct (aget (c_towers (f_c s)) t) as [su|] eqn:Et; [|split; [exact I|discriminate]].
+  destruct (aget (c_towers (f_c s)) t) as [su|] eqn:Et; [|exact I].
   assert (Hk : knownc (f_c s) t) by (unfold knownc, amem; rewrite Et; reflexivity).
+  destruct (is_misbehaving (su_status su)); [exact I|].
   destruct (is_subscription_error (su_status su)).
   2:{ apply run_while_no_abort. exact (conj HF (conj Hp (conj Hk Hrun))). }
   set (s1 := log_req s (ReqRegister t)).
   assert (HF1 : FInv s1) by (apply (FInv_core s); auto).
-  destruct (at_reg a) as [slots start expiry sig_ok| | | |]; cbn [fst snd]; try (split; [exact I|discriminate]).
-  destruct (negb sig_ok); cbn [fst snd]; [split; [exact I|discriminate]|].
+  destruct (at_reg a) as [slots start expiry sig_ok| | | |]; cbn [fst snd]; try exact I.
+  destruct (negb sig_ok); cbn [fst snd]; [exact I|].
   pose proof (add_update_tower_ok (f_c s1) t (su_addr su) slots start expiry REG_SIG (proj1 HF) Hp) as Hok.
   destruct (wt_add_update_tower (f_c s1) t (su_addr su) slots start expiry REG_SIG) as [c' r] eqn:Eu. cbn [snd] in Hok.
   destruct (FInv_renew s1 t _ _ _ _ _ c' r HF1 Hp Hk Eu) as [HF2 Hok2]. destruct (Hok2 Hok) as [Hp2 Hkn2].
-  destruct r; cbn [fst snd]; try (split; [exact I|discriminate]); [|discriminate Hok].
+  destruct r; cbn [fst snd]; try exact I; [|discriminate Hok].
   apply run_while_no_abort. split; [exact HF2|]. split; [exact Hp2|]. split; [apply Hkn2, Hk|exact Hrun].
 Qed.
 
-Lemma task_step_abort s t r more site :
-  FInv s -> poisoned s = false ->
+(* the arms after retry_notify never panic (flag_misbehaving_tower does not abort any more: fix d35e2bc) *)
+Lemma task_step_no_abort s t r more site :
+  Inv (f_c s) -> poisoned s = false ->
   (match r with RunAbort _ => False | _ => True end) ->
-  (forall l0, r = RunErr (EMisbehaving l0) -> In l0 (retrier_pending s t)) ->
-  snd (task_step s t r more) = OutAbort site -> site = PROOF_SITE /\ Mrow (c_db (f_c s)) t.
+  snd (task_step s t r more) <> OutAbort site.
 Proof.
-  intros HF Hp Hna Hl0. unfold task_step. destruct r as [|e|st|]; cbn [snd]; try discriminate; [|contradiction].
+  intros HI Hp Hna. unfold task_step. destruct r as [|e|st|]; cbn [snd]; try discriminate; [|contradiction].
   destruct (negb (is_permanent e) && more); [discriminate|].
   set (s1 := if is_permanent e then retrier_set_status s t RFailed else s).
   assert (Ec1 : f_c s1 = f_c s) by (unfold s1; destruct (is_permanent e); [apply f_c_retrier_set_status|reflexivity]).
-  destruct e as [[|]| |l|]; cbn [snd]; try discriminate.
+  destruct e as [[|]| |l| |]; cbn [snd]; try discriminate.
   rewrite Ec1. destruct (wt_flag_misbehaving_tower (f_c s) t l START_BLOCK USER_SIG SIG_OTHER (other_id t)) as [c2 r2] eqn:E2.
-  destruct r2; cbn [lift_site snd]; try discriminate. intros H. inversion H. subst site. clear H.
-  pose proof (flag_abort_site (f_c s) t l START_BLOCK USER_SIG SIG_OTHER (other_id t) s0) as Hs. rewrite E2 in Hs. cbn [snd] in Hs. rewrite (Hs eq_refl).
-  split; [reflexivity|].
-  destruct (classic_Mrow (c_db (f_c s)) t) as [Hm|Hm]; [exact Hm|]. exfalso.
-  pose proof HF as [HI [[_ [U _]] [HV _]]]. destruct (HV Hp) as [_ [V2 _]].
-  assert (Hk : knownc (f_c s) t).
-  { unfold knownc, amem. unfold wt_flag_misbehaving_tower in E2. destruct (aget (c_towers (f_c s)) t); [reflexivity|inversion E2]. }
-  assert (HP : Prow (c_db (f_c s)) t l).
-  { apply V2; [exact Hk|]. rewrite tracked_eq. apply in_or_app. left. apply Hl0. reflexivity. }
-  assert (HR : ~ Rrow (c_db (f_c s)) t l) by (destruct (U t l Hm) as [A _]; tauto).
-  pose proof (flag_ok (f_c s) t l START_BLOCK USER_SIG SIG_OTHER (other_id t) HI Hp Hk HR Hm) as Hok. rewrite E2 in Hok. discriminate.
+  destruct r2; cbn [lift_site snd]; try discriminate. exfalso.
+  destruct (amem (c_towers (f_c s)) t) eqn:Ek.
+  - pose proof (flag_ok (f_c s) t l START_BLOCK USER_SIG SIG_OTHER (other_id t) HI Hp Ek) as Hok. rewrite E2 in Hok. discriminate.
+  - unfold wt_flag_misbehaving_tower, amem in *. destruct (aget (c_towers (f_c s)) t); [discriminate|inversion E2].
 Qed.
 
 Lemma task_step_not_running s t r more :
@@ -3372,7 +3349,7 @@ Proof.
     { unfold s1. destruct (is_permanent e); [|split; [reflexivity|discriminate]]. split; [apply retrier_set_status_tasks|].
       intros _. rewrite rstat_retrier_set_status, N.eqb_refl. unfold rstat. rewrite Er. reflexivity. }
     destruct Hs1 as [Ht1 Hf1].
-    destruct e as [[|]| |l|]; cbn [fst snd].
+    destruct e as [[|]| |l| |]; cbn [fst snd].
     + split; [|apply Hnot; exact Ht1]. change (rstat (end_task (set_c s1 (wt_set_tower_status (f_c s1) t SubscriptionError)) t) t) with (rstat s1 t).
       rewrite (Hf1 eq_refl). discriminate.
     + split; [|apply Hnot; rewrite retrier_clear_tasks, retrier_set_status_tasks; exact Ht1].
@@ -3389,6 +3366,7 @@ Proof.
       destruct (lift_site r2); cbn [fst snd]; [exact I|]. split; [|apply Hnot; exact Ht1].
       change (rstat (end_task (wr_c s1 c2) t) t) with (rstat s1 t). rewrite (Hf1 eq_refl). discriminate.
     + split; [|apply Hnot; exact Ht1]. change (rstat (end_task s1 t) t) with (rstat s1 t). rewrite (Hf1 eq_refl). discriminate.
+    + split; [|apply Hnot; exact Ht1]. change (rstat (end_task s1 t) t) with (rstat s1 t). rewrite (Hf1 eq_refl). discriminate.
 Qed.
 
 Lemma register_no_abort s t rp : Inv (f_c s) -> poisoned s = false -> forall site, snd (f_register s t t rp) <> OPanic site.
@@ -3400,36 +3378,59 @@ Proof.
   destruct r; cbn [snd]; try discriminate.
 Qed.
 
-(* C14 no_reply_aborts, strongest true form: in every state of every guarded operation sequence, whatever a tower
-   replies to register / add_appointment, on the notification path and on the retry path, nothing panics and the
-   model's fuel is never exhausted — with ONE exception: the acknowledgement signed with another key coming from a
-   tower whose misbehaviour proof is ALREADY stored (flag_misbehaving_tower unwraps the duplicate insert) *)
+(* the manager: Retrier::start has no panic site left, so a sweep never stops early *)
+Lemma sweep_never_aborts elapsed : forall keys s started woke, snd (sweep s keys elapsed started woke) = None.
+Proof.
+  induction keys as [|t keys IH]; intros s started woke; cbn [sweep]; [reflexivity|].
+  destruct (aget (f_mgr s) t) as [r|]; [|apply IH].
+  destruct (should_start r).
+  - pose proof (retrier_start_no_abort s t r) as H. destruct (retrier_start s t r) as [s1 o]. cbn [snd] in H. subst o. apply IH.
+  - destruct (is_idle (r_status r) && memN t elapsed); apply IH.
+Qed.
+
+Lemma manager_tick_no_abort s elapsed site : poisoned s = false -> snd (f_manager_tick s elapsed) <> OPanic site.
+Proof.
+  intros Hp. unfold f_manager_tick. destruct (f_mgr_dead s); [discriminate|].
+  destruct (f_chan s) as [|[t data] rest].
+  - unfold mgr_sweep. rewrite Hp. cbn [andb]. cbv zeta.
+    change (poisoned (retain_state s)) with (poisoned s). rewrite Hp. cbn [andb].
+    pose proof (sweep_never_aborts elapsed (map fst (f_mgr (retain_state s))) (retain_state s) [] []) as H.
+    destruct (sweep (retain_state s) (map fst (f_mgr (retain_state s))) elapsed [] []) as [[[s2 st] wk] o]. cbn [snd] in H. subst o. discriminate.
+  - unfold mgr_receive. change (poisoned (set_chan s rest)) with (poisoned s). rewrite Hp.
+    destruct (negb (amem (c_towers (f_c (set_chan s rest))) t)); [discriminate|].
+    destruct (aget (f_mgr (set_chan s rest)) t) as [r|]; [destruct (is_idle (r_status r)); [destruct (rdata_is_none data)|]|]; discriminate.
+Qed.
+
+(* C14 no_reply_aborts, FULL statement: in every state of EVERY operation sequence, whatever a tower replies to
+   register / add_appointment, on the notification path and on the retry path, nothing panics and the model's fuel is
+   never exhausted; the retry manager never panics either *)
 Theorem no_reply_aborts ops :
-  ops_fresh f_init ops = true -> let s := frun f_init ops in poisoned s = false ->
+  let s := frun f_init ops in poisoned s = false ->
   (forall t rp site, snd (fstep s (FRegister t rp)) <> OPanic site) /\
-  (forall l order replies, snd (fstep s (FRevocation l order replies)) = OOk \/
-       exists t, reply_for replies t = AWrongKey /\ snd (fstep s (FRevocation l order replies)) = OPanic PROOF_SITE) /\
+  (forall l order replies, snd (fstep s (FRevocation l order replies)) = OOk) /\
+  (forall elapsed site, snd (fstep s (FManagerTick elapsed)) <> OPanic site) /\
   (forall t a, In t (f_tasks s) ->
      let s1 := fst (run_attempt s t a) in let r := snd (run_attempt s t a) in
      (match r with RunAbort _ | RunFuel => False | _ => True end) /\
-     (forall site, snd (task_step s1 t r (at_more a)) = OutAbort site -> site = PROOF_SITE /\ Mrow (c_db (f_c s1)) t) /\
+     (forall site, snd (task_step s1 t r (at_more a)) <> OutAbort site) /\
      (match snd (task_step s1 t r (at_more a)) with
       | OutDelivered | OutIdle _ | OutFailed _ =>
         rstat (fst (task_step s1 t r (at_more a))) t <> Some RRunning /\ ~ In t (f_tasks (fst (task_step s1 t r (at_more a))))
       | _ => True end)).
 Proof.
-  intros Hg s Hp. pose proof (FInv_frun ops f_init FInv_init Hg) as HF. fold s in HF.
+  intros s Hp. pose proof (FInv_frun ops f_init FInv_init) as HF. fold s in HF.
   split; [intros t rp site; cbn [fstep]; apply register_no_abort; [apply HF|exact Hp]|].
   split; [intros l order replies; cbn [fstep]; apply revocation_no_abort; assumption|].
+  split; [intros elapsed site; cbn [fstep]; apply manager_tick_no_abort; exact Hp|].
   intros t a Hin s1 r.
   assert (Hrun : rstat s t = Some RRunning) by (apply HF, Hin).
-  destruct (run_attempt_no_abort s t a HF Hp Hrun) as [Hna Hmis]. fold r in Hna, Hmis. fold s1 in Hmis.
+  pose proof (run_attempt_no_abort s t a HF Hp Hrun) as Hna. fold r in Hna.
   destruct (run_attempt s t a) as [sx rx] eqn:E1. cbn [fst snd] in s1, r. subst s1 r.
   destruct (FInv_run_attempt s t a sx rx HF Hrun E1) as [HF1 [Hnp _]].
   assert (Hnf : rx <> RunFuel).
-  { pose proof (run_bounded ops t a Hg Hin) as [_ [Hb _]]. fold s in Hb. rewrite E1 in Hb. exact Hb. }
+  { pose proof (run_bounded ops t a Hin) as [_ [Hb _]]. fold s in Hb. rewrite E1 in Hb. exact Hb. }
   split; [destruct rx; auto|]. split.
-  - intros site Ho. apply (task_step_abort sx t rx (at_more a) site HF1 (Hnp Hna) Hna Hmis Ho).
+  - intros site. apply (task_step_no_abort sx t rx (at_more a) site (proj1 HF1) (Hnp Hna) Hna).
   - apply task_step_not_running; [apply HF1|].
     pose proof (run_attempt_same s t a) as [Ht _]. rewrite E1 in Ht. cbn [fst] in Ht. rewrite Ht. exact Hin.
 Qed.
@@ -3437,59 +3438,280 @@ Qed.
 (* ====================================================================== *)
 (* C14 misbehaviour_flagged: the flagging itself                           *)
 (* ====================================================================== *)
-(* notification path: a reachable tower without a record of l and without a stored proof answers with a signature of
-   another key: the proof is stored and the tower is misbehaving in memory; nothing panics *)
+(* notification path: a reachable tower without a record of l answers with a signature of another key: a proof is
+   stored (the one already there is kept), the tower is misbehaving in memory, nothing panics — whatever is already
+   stored for the tower (fix d35e2bc) *)
 Lemma flagged_on_notification s l t st :
   FInv s -> poisoned s = false -> knownc (f_c s) t -> is_reachable st = true ->
-  wt_has_appointment (f_c s) t l = false -> ~ Mrow (c_db (f_c s)) t ->
+  wt_has_appointment (f_c s) t l = false ->
   let s' := fst (rev_tower s l t st AWrongKey) in
   snd (rev_tower s l t st AWrongKey) = None /\ Mrow (c_db (f_c s')) t /\ stat (f_c s') t = Some Misbehaving /\
-  Rrow (c_db (f_c s')) t l /\ In (ReqAdd t l) (f_log s').
+  (~ Mrow (c_db (f_c s)) t -> Rrow (c_db (f_c s')) t l) /\ In (ReqAdd t l) (f_log s') /\ poisoned s' = false.
 Proof.
-  intros HF Hp Hk Hr Hha Hm. pose proof HF as [HI _]. unfold rev_tower. rewrite Hp, Hha, Hr. cbn zeta.
-  pose proof (has_appointment_iff _ t l HI Hp Hk) as Hiff.
-  assert (NR : ~ Rrow (c_db (f_c s)) t l) by (intros H; rewrite Hha in Hiff; assert (false = true) by (apply Hiff; tauto); discriminate).
-  pose proof (flag_ok (f_c s) t l START_BLOCK USER_SIG SIG_OTHER (other_id t) HI Hp Hk NR Hm) as Hok.
+  intros HF Hp Hk Hr Hha. pose proof HF as [HI _]. unfold rev_tower. rewrite Hp, Hha, Hr. cbn zeta.
+  pose proof (flag_ok (f_c s) t l START_BLOCK USER_SIG SIG_OTHER (other_id t) HI Hp Hk) as Hok.
   change (f_c (log_req s (ReqAdd t l))) with (f_c s).
   destruct (wt_flag_misbehaving_tower (f_c s) t l START_BLOCK USER_SIG SIG_OTHER (other_id t)) as [c2 r] eqn:E. cbn [snd] in Hok. subst r.
-  destruct (prim_flag _ _ _ _ _ _ _ _ _ HI Hp E) as [_ [_ [_ [[_ [_ Hne]]|[_ [_ [_ [Hst [T5 [T6 _]]]]]]]]]]; [contradiction Hne; reflexivity|].
-  cbn [fst snd lift_site f_c wr_c f_log log_req]. split; [reflexivity|]. split; [apply (Mrow_app _ _ _ _ _ t T6); right; reflexivity|].
-  split; [rewrite Hst, N.eqb_refl; reflexivity|]. split; [apply (Rrow_app _ _ _ _ _ _ _ t l T5); right; split; reflexivity|].
-  apply in_or_app. right. left. reflexivity.
+  destruct (prim_flag _ _ _ _ _ _ _ _ _ HI Hp E) as [_ [_ [_ [[_ [_ Hne]]|[_ [Hp2 [_ [Hst [M1 [_ [ER _]]]]]]]]]]]; [contradiction Hne; reflexivity|].
+  cbn [fst snd lift_site f_c wr_c f_log log_req]. split; [reflexivity|]. split; [exact M1|].
+  split; [rewrite Hst, N.eqb_refl; reflexivity|]. split; [intros Hm; apply ER; right; auto|].
+  split; [apply in_or_app; right; left; reflexivity|exact Hp2].
 Qed.
 
-(* retry path: the task's Err arm for a wrong-key reply about a locator of its set, tower not yet flagged *)
+(* retry path: the task's Err arm for a wrong-key reply *)
 Lemma flagged_on_retry s t l more :
-  FInv s -> poisoned s = false -> knownc (f_c s) t -> In l (retrier_pending s t) -> ~ Mrow (c_db (f_c s)) t ->
+  FInv s -> poisoned s = false -> knownc (f_c s) t ->
   let s' := fst (task_step s t (RunErr (EMisbehaving l)) more) in
   snd (task_step s t (RunErr (EMisbehaving l)) more) = OutFailed (EMisbehaving l) /\
-  Mrow (c_db (f_c s')) t /\ stat (f_c s') t = Some Misbehaving.
+  Mrow (c_db (f_c s')) t /\ stat (f_c s') t = Some Misbehaving /\ poisoned s' = false.
 Proof.
-  intros HF Hp Hk Hl Hm. pose proof HF as [HI [[_ [U _]] [HV _]]]. destruct (HV Hp) as [_ [V2 _]].
-  assert (HP : Prow (c_db (f_c s)) t l) by (apply V2; [exact Hk|]; rewrite tracked_eq; apply in_or_app; left; exact Hl).
-  assert (HR : ~ Rrow (c_db (f_c s)) t l) by (destruct (U t l Hm) as [A _]; tauto).
+  intros HF Hp Hk. pose proof HF as [HI _].
   unfold task_step. cbn [is_permanent negb andb]. rewrite f_c_retrier_set_status.
-  pose proof (flag_ok (f_c s) t l START_BLOCK USER_SIG SIG_OTHER (other_id t) HI Hp Hk HR Hm) as Hok.
+  pose proof (flag_ok (f_c s) t l START_BLOCK USER_SIG SIG_OTHER (other_id t) HI Hp Hk) as Hok.
   destruct (wt_flag_misbehaving_tower (f_c s) t l START_BLOCK USER_SIG SIG_OTHER (other_id t)) as [c2 r] eqn:E. cbn [snd] in Hok. subst r.
-  destruct (prim_flag _ _ _ _ _ _ _ _ _ HI Hp E) as [_ [_ [_ [[_ [_ Hne]]|[_ [_ [_ [Hst [T5 [T6 _]]]]]]]]]]; [contradiction Hne; reflexivity|].
-  cbn [lift_site fst snd f_c end_task set_tasks wr_c]. split; [reflexivity|]. split; [apply (Mrow_app _ _ _ _ _ t T6); right; reflexivity|].
-  rewrite Hst, N.eqb_refl. reflexivity.
+  destruct (prim_flag _ _ _ _ _ _ _ _ _ HI Hp E) as [_ [_ [_ [[_ [_ Hne]]|[_ [Hp2 [_ [Hst [M1 _]]]]]]]]]; [contradiction Hne; reflexivity|].
+  cbn [lift_site fst snd f_c end_task set_tasks wr_c]. split; [reflexivity|]. split; [exact M1|].
+  split; [rewrite Hst, N.eqb_refl; reflexivity|exact Hp2].
 Qed.
 
-(* second refutation of "no later request": the manager starts a stopped retrier of a tower flagged in the meantime
-   and Retrier::start overwrites the misbehaving status with temporary unreachable (model witness; needs a sub-second
-   race in the real plugin) *)
-Definition w_c14b_ops : list fop :=
-  [FRegister 0 (w_good 1); FRevocation 1 [] [(0, AConnErr)]; FManagerTick []; FManagerTick [];
-   FRevocation 2 [] []; FRetrierRun 0 [w_att [AAccept 110] true]; FManagerTick [];
-   FRevocation 3 [] [(0, AWrongKey)]; FManagerTick []; FRetrierRun 0 [w_att [AAccept 110] true]].
+(* ====================================================================== *)
+(* C14 misbehaviour_flagged, FULL strength: no appointment is sent to a tower whose proof is stored *)
+(* ====================================================================== *)
+(* what an operation appends to the request log *)
+Definition log_ext (s s' : fstate) (P : req -> Prop) : Prop := exists new, f_log s' = f_log s ++ new /\ Forall P new.
+Lemma log_ext_refl s P : log_ext s s P.
+Proof. exists []. rewrite app_nil_r. split; [reflexivity|constructor]. Qed.
+Lemma log_ext_same s s' P : f_log s' = f_log s -> log_ext s s' P.
+Proof. intros H. exists []. rewrite app_nil_r. split; [exact H|constructor]. Qed.
+Lemma log_ext_trans a b c P : log_ext a b P -> log_ext b c P -> log_ext a c P.
+Proof.
+  intros [n1 [E1 F1]] [n2 [E2 F2]]. exists (n1 ++ n2). split; [rewrite E2, E1, app_assoc; reflexivity|]. apply Forall_app. split; assumption.
+Qed.
+Lemma log_ext_one s s' r (P : req -> Prop) : f_log s' = f_log s ++ [r] -> P r -> log_ext s s' P.
+Proof. intros H Hr. exists [r]. split; [exact H|]. constructor; [exact Hr|constructor]. Qed.
 
-Lemma misbehaviour_flagged_refuted_guarded :
-  exists ops1 ops2 t, let s1 := frun f_init ops1 in let s2 := frun s1 ops2 in
-    ops_ok f_init (ops1 ++ ops2) = true /\
-    exists_misbehaving_proof (c_db (f_c s1)) t = true /\
-    existsb (is_add_to t) (skipn (length (f_log s1)) (f_log s2)) = true.
-Proof. exists (firstn 8 w_c14b_ops), (skipn 8 w_c14b_ops), 0. vm_compute. repeat split. Qed.
+Definition not_add_to (t : N) (r : req) : Prop := is_add_to t r = false.
+
+Lemma f_log_send_to_retrier s t l : f_log (send_to_retrier s t l) = f_log s.
+Proof. unfold send_to_retrier. destruct (aget (c_retriers (f_c s)) t) as [st|]; [destruct (is_running st)|]; reflexivity. Qed.
+Lemma f_log_rev_pend s l t send : f_log (fst (rev_pend s l t send)) = f_log s.
+Proof.
+  unfold rev_pend. destruct (wt_add_pending_appointment (f_c s) t l BLOB DELAY) as [c2 r]. destruct r; cbn [fst]; try reflexivity;
+    destruct send; try reflexivity; rewrite f_log_send_to_retrier; reflexivity.
+Qed.
+
+(* the notification path logs a request to tower k only when the status it cloned for k is reachable *)
+Lemma rev_tower_log s l k st rp t :
+  (k = t -> is_reachable st = false) -> log_ext s (fst (rev_tower s l k st rp)) (not_add_to t).
+Proof.
+  intros Hnr. unfold rev_tower. destruct (poisoned s); [apply log_ext_refl|].
+  destruct (wt_has_appointment (f_c s) k l); [apply log_ext_refl|].
+  destruct (is_reachable st) eqn:Er.
+  - assert (Hkt : k <> t) by (intros ->; specialize (Hnr eq_refl); discriminate).
+    assert (Hone : forall sx, f_log sx = f_log s ++ [ReqAdd k l] -> log_ext s sx (not_add_to t)).
+    { intros sx Hx. apply (log_ext_one s sx (ReqAdd k l)); [exact Hx|]. unfold not_add_to. cbn. apply N.eqb_neq. exact Hkt. }
+    destruct rp.
+    + destruct (wt_add_appointment_receipt _ _ _ _ _ _ _) as [c2 r]. apply Hone. reflexivity.
+    + destruct (wt_flag_misbehaving_tower _ _ _ _ _ _ _) as [c2 r]. apply Hone. reflexivity.
+    + apply Hone. rewrite f_log_rev_pend. reflexivity.
+    + apply Hone. rewrite f_log_rev_pend. reflexivity.
+    + apply Hone. rewrite f_log_rev_pend. reflexivity.
+    + apply Hone. rewrite f_log_rev_pend. reflexivity.
+    + apply Hone. rewrite f_log_rev_pend. reflexivity.
+    + destruct (wt_add_invalid_appointment _ _ _ _ _) as [c2 r]. apply Hone. reflexivity.
+  - destruct (is_misbehaving st); [apply log_ext_refl|]. apply log_ext_same, f_log_rev_pend.
+Qed.
+
+Lemma rev_loop_log l replies t : forall snap s,
+  (forall st, In (t, st) snap -> is_reachable st = false) -> log_ext s (fst (rev_loop s l snap replies)) (not_add_to t).
+Proof.
+  induction snap as [|[k st] snap IH]; intros s Hsn; cbn [rev_loop]; [apply log_ext_refl|].
+  pose proof (rev_tower_log s l k st (reply_for replies k) t) as H1.
+  destruct (rev_tower s l k st (reply_for replies k)) as [s1 o1]. cbn [fst] in H1.
+  assert (H1' : log_ext s s1 (not_add_to t)) by (apply H1; intros ->; apply Hsn; left; reflexivity).
+  destruct o1; cbn [fst]; [exact H1'|]. eapply log_ext_trans; [exact H1'|]. apply IH. intros st0 Hin. apply Hsn. right. exact Hin.
+Qed.
+
+(* the manager never sends anything *)
+Lemma f_log_wake s t r : f_log (wake s t r) = f_log s.  Proof. reflexivity. Qed.
+Lemma f_log_add_pending s t locs : f_log (add_pending_appointments s t locs) = f_log s.
+Proof. unfold add_pending_appointments. destruct (aget (f_mgr s) t); reflexivity. Qed.
+Lemma f_log_retrier_start s t r : f_log (fst (retrier_start s t r)) = f_log s.
+Proof. unfold retrier_start. destruct (aget (c_towers (f_c s)) t) as [su|]; [destruct (is_misbehaving (su_status su))|]; reflexivity. Qed.
+Lemma f_log_sweep elapsed : forall keys s started woke, f_log (fst (fst (fst (sweep s keys elapsed started woke)))) = f_log s.
+Proof.
+  induction keys as [|t keys IH]; intros s started woke; cbn [sweep]; [reflexivity|].
+  destruct (aget (f_mgr s) t) as [r|]; [|apply IH].
+  destruct (should_start r).
+  - pose proof (f_log_retrier_start s t r) as H. destruct (retrier_start s t r) as [s1 [site|]]; cbn [fst] in *; [exact H|]. rewrite IH. exact H.
+  - destruct (is_idle (r_status r) && memN t elapsed); rewrite IH; reflexivity.
+Qed.
+Lemma f_log_manager_tick s elapsed : f_log (fst (f_manager_tick s elapsed)) = f_log s.
+Proof.
+  unfold f_manager_tick. destruct (f_mgr_dead s); [reflexivity|]. destruct (f_chan s) as [|[t data] rest].
+  - unfold mgr_sweep. match goal with |- context [if ?b then _ else _] => destruct b end; [reflexivity|]. cbv zeta.
+    match goal with |- context [if ?b then _ else _] => destruct b end; [reflexivity|].
+    pose proof (f_log_sweep elapsed (map fst (f_mgr (retain_state s))) (retain_state s) [] []) as H.
+    destruct (sweep (retain_state s) (map fst (f_mgr (retain_state s))) elapsed [] []) as [[[s2 st] wk] [site|]]; exact H.
+  - unfold mgr_receive. destruct (poisoned (set_chan s rest)); [reflexivity|].
+    destruct (negb (amem (c_towers (f_c (set_chan s rest))) t)); [reflexivity|].
+    destruct (aget (f_mgr (set_chan s rest)) t) as [r|]; [destruct (is_idle (r_status r)); [destruct (rdata_is_none data)|]|]; cbn [fst];
+      try reflexivity; rewrite f_log_add_pending; reflexivity.
+Qed.
+
+(* a retry task only talks to its own tower *)
+Definition to_tower (k : N) (r : req) : Prop := match r with ReqRegister k' => k' = k | ReqAdd k' _ => k' = k end.
+Lemma run_while_log t hint : forall fuel s adds, log_ext s (fst (run_while fuel s t hint adds)) (to_tower t).
+Proof.
+  induction fuel as [|f IH]; intros s adds; cbn [run_while]; [apply log_ext_refl|].
+  destruct (retrier_pending s t) as [|x p]; [apply log_ext_refl|].
+  destruct (run_for s t (reorder hint (x :: p)) adds) as [[s1 adds1] r1] eqn:E1.
+  destruct (run_for_log t _ s adds s1 adds1 r1 E1) as [sent [Hlog _]].
+  assert (H1 : log_ext s s1 (to_tower t)).
+  { exists (map (ReqAdd t) sent). split; [exact Hlog|]. apply Forall_forall. intros r Hr. apply in_map_iff in Hr. destruct Hr as [x0 [<- _]]. reflexivity. }
+  destruct r1; cbn [fst]; [exact H1|]. eapply log_ext_trans; [exact H1|apply IH].
+Qed.
+Lemma run_attempt_log s t a : log_ext s (fst (run_attempt s t a)) (to_tower t).
+Proof.
+  unfold run_attempt. destruct (poisoned s); [apply log_ext_refl|].
+  destruct (aget (c_towers (f_c s)) t) as [su|]; [|apply log_ext_refl].
+  destruct (is_misbehaving (su_status su)); [apply log_ext_refl|].
+  destruct (is_subscription_error (su_status su)); [|apply run_while_log].
+  assert (H1 : forall sx, f_log sx = f_log s ++ [ReqRegister t] -> log_ext s sx (to_tower t)).
+  { intros sx Hx. apply (log_ext_one s sx (ReqRegister t)); [exact Hx|reflexivity]. }
+  destruct (at_reg a) as [slots start expiry sig_ok| | | |]; cbn [fst]; try (apply H1; reflexivity).
+  destruct (negb sig_ok); cbn [fst]; [apply H1; reflexivity|].
+  destruct (wt_add_update_tower _ _ _ _ _ _ _) as [c' r]. destruct r; cbn [fst]; try (apply H1; reflexivity).
+  eapply log_ext_trans; [apply (H1 (wr_c (log_req s (ReqRegister t)) c')); reflexivity|apply run_while_log].
+Qed.
+Lemma f_log_retrier_set_status s t st : f_log (retrier_set_status s t st) = f_log s.
+Proof. unfold retrier_set_status. destruct (aget (f_mgr s) t); reflexivity. Qed.
+Lemma f_log_retrier_clear s t : f_log (retrier_clear s t) = f_log s.
+Proof. unfold retrier_clear. destruct (aget (f_mgr s) t); reflexivity. Qed.
+Lemma f_log_task_step s t r more : f_log (fst (task_step s t r more)) = f_log s.
+Proof.
+  unfold task_step. destruct r as [|e|site|]; cbn [fst]; try reflexivity.
+  - cbn [f_log end_task set_tasks]. rewrite f_log_retrier_set_status. reflexivity.
+  - destruct (negb (is_permanent e) && more); [reflexivity|].
+    set (s1 := if is_permanent e then retrier_set_status s t RFailed else s).
+    assert (E1 : f_log s1 = f_log s) by (unfold s1; destruct (is_permanent e); [apply f_log_retrier_set_status|reflexivity]).
+    destruct e as [[|]| |l| |]; cbn [fst f_log end_task set_tasks set_c]; try exact E1.
+    + rewrite f_log_retrier_clear, f_log_retrier_set_status. exact E1.
+    + rewrite f_log_retrier_clear, f_log_retrier_set_status. exact E1.
+    + destruct (wt_flag_misbehaving_tower _ _ _ _ _ _ _) as [c2 r2]. destruct (lift_site r2); cbn [fst f_log end_task set_tasks set_c wr_c]; exact E1.
+Qed.
+Lemma retrier_run_log t : forall atts s, log_ext s (fst (f_retrier_run s t atts)) (to_tower t).
+Proof.
+  induction atts as [|a atts IH]; intros s; cbn [f_retrier_run]; [apply log_ext_refl|].
+  destruct (negb (memN t (f_tasks s))); [apply log_ext_refl|].
+  pose proof (run_attempt_log s t a) as H1. destruct (run_attempt s t a) as [s1 r]. cbn [fst] in H1.
+  pose proof (f_log_task_step s1 t r (at_more a)) as H2. destruct (task_step s1 t r (at_more a)) as [s2 o]. cbn [fst] in H2.
+  assert (H12 : log_ext s s2 (to_tower t)) by (eapply log_ext_trans; [exact H1|apply log_ext_same, H2]).
+  destruct o; try exact H12. destruct atts; [exact H12|]. eapply log_ext_trans; [exact H12|apply IH].
+Qed.
+
+(* the retry task of a flagged tower sends nothing (fix 9d6311c) *)
+Lemma retrier_run_flagged t : forall atts s,
+  FInv s -> Mrow (c_db (f_c s)) t -> f_log (fst (f_retrier_run s t atts)) = f_log s.
+Proof.
+  destruct atts as [|a atts]; intros s HF Hm; cbn [f_retrier_run]; [reflexivity|].
+  destruct (negb (memN t (f_tasks s))); [reflexivity|].
+  assert (Hra : exists r, run_attempt s t a = (s, r) /\ match r with RunOk | RunFuel => False | RunErr e => is_permanent e = true | RunAbort _ => True end).
+  { unfold run_attempt. destruct (poisoned s) eqn:Hp; [eexists; split; [reflexivity|exact I]|].
+    destruct (aget (c_towers (f_c s)) t) as [su|] eqn:Et; [|eexists; split; [reflexivity|reflexivity]].
+    destruct HF as [_ [_ [HV _]]]. destruct (HV Hp) as [_ [V2 _]].
+    assert (Hk : knownc (f_c s) t) by (unfold knownc, amem; rewrite Et; reflexivity).
+    specialize (V2 t Hk Hm). unfold stat in V2. rewrite Et in V2. cbn in V2. inversion V2 as [Hs]. rewrite Hs. cbn.
+    eexists. split; [reflexivity|reflexivity]. }
+  destruct Hra as [r [-> Hr]].
+  pose proof (f_log_task_step s t r (at_more a)) as H2.
+  assert (Ho : match snd (task_step s t r (at_more a)) with OutBackoff _ => False | _ => True end).
+  { unfold task_step. destruct r as [|e|site|]; try contradiction; [|exact I]. rewrite Hr. cbn [negb andb].
+    destruct e as [[|]| |l| |]; try discriminate Hr; cbn [snd]; try exact I.
+    destruct (wt_flag_misbehaving_tower _ _ _ _ _ _ _) as [c2 r2]. destruct (lift_site r2); exact I. }
+  destruct (task_step s t r (at_more a)) as [s2 o]. cbn [fst snd] in *. destruct o; try exact H2. contradiction.
+Qed.
+
+(* FULL statement: from every reachable state in which a misbehaviour proof of tower t is stored, NO operation
+   (notification, manager iteration, retry attempt, user command, restart) sends an appointment to t *)
+Theorem misbehaviour_flagged ops o t :
+  let s := frun f_init ops in
+  exists_misbehaving_proof (c_db (f_c s)) t = true ->
+  exists new, f_log (fst (fstep s o)) = f_log s ++ new /\ existsb (is_add_to t) new = false.
+Proof.
+  intros s Hm. apply proof_iff in Hm. pose proof (FInv_frun ops f_init FInv_init) as HF. fold s in HF.
+  assert (Hfin : log_ext s (fst (fstep s o)) (not_add_to t) ->
+                 exists new, f_log (fst (fstep s o)) = f_log s ++ new /\ existsb (is_add_to t) new = false).
+  { intros [new [E F]]. exists new. split; [exact E|]. apply not_true_is_false. intros Hx. apply existsb_exists in Hx.
+    destruct Hx as [r [Hin Hr]]. rewrite Forall_forall in F. specialize (F r Hin). unfold not_add_to in F. congruence. }
+  apply Hfin. destruct o; cbn [fstep].
+  - (* registertower: one register request *)
+    unfold f_register. destruct (poisoned s); [apply log_ext_refl|].
+    assert (H1 : forall sx, f_log sx = f_log s ++ [ReqRegister t0] -> log_ext s sx (not_add_to t)).
+    { intros sx Hx. apply (log_ext_one s sx (ReqRegister t0)); [exact Hx|reflexivity]. }
+    destruct rp as [slots start expiry sig_ok| | | |]; cbn [fst]; try (apply H1; reflexivity).
+    + destruct (negb sig_ok); [apply H1; reflexivity|]. destruct (wt_add_update_tower _ _ _ _ _ _ _) as [c' r]. destruct r; apply H1; reflexivity.
+    + destruct (amem _ _); [|apply H1; reflexivity]. apply H1. unfold flag_unreachable.
+      destruct (aget _ _) as [su|]; [destruct (_ && _)|]; reflexivity.
+  - (* commitment_revocation: the status cloned for t is misbehaving *)
+    unfold f_revocation. destruct (poisoned s) eqn:Hp; [apply log_ext_refl|].
+    set (snap := reorder_towers order (towers_snapshot (f_c s))).
+    pose proof (rev_loop_log l replies t snap s) as H. destruct (rev_loop s l snap replies) as [s1 o1]. cbn [fst] in H.
+    assert (H' : log_ext s s1 (not_add_to t)).
+    { apply H. intros st Hin. apply reorder_towers_In, towers_snapshot_In in Hin.
+      destruct HF as [_ [_ [HV _]]]. destruct (HV Hp) as [_ [V2 _]].
+      assert (Hk : knownc (f_c s) t) by (unfold knownc, amem; unfold stat in Hin; destruct (aget (c_towers (f_c s)) t); [reflexivity|discriminate]).
+      rewrite (V2 t Hk Hm) in Hin. inversion Hin. reflexivity. }
+    destruct o1; exact H'.
+  - apply log_ext_same, f_log_manager_tick.
+  - (* a retry attempt: of another tower, or of t itself, which is skipped *)
+    destruct (N.eq_dec t0 t) as [->|Hn].
+    + pose proof (retrier_run_flagged t atts s HF Hm) as H. destruct (f_retrier_run s t atts) as [s' o']. apply log_ext_same, H.
+    + pose proof (retrier_run_log t0 atts s) as [new [E F]]. destruct (f_retrier_run s t0 atts) as [s' o']. cbn [fst] in *.
+      exists new. split; [exact E|]. rewrite Forall_forall in *. intros r Hr. specialize (F r Hr). unfold not_add_to.
+      destruct r as [k|k x]; cbn in *; [reflexivity|]. apply N.eqb_neq. congruence.
+  - destruct (f_manual_retry s t0) as [s' o'] eqn:E. apply log_ext_same. unfold f_manual_retry in E.
+    destruct (poisoned s); [inversion E; reflexivity|]. destruct (aget (c_towers (f_c s)) t0) as [su|]; [|inversion E; reflexivity].
+    destruct (aget (c_retriers (f_c s)) t0) as [st|]; [destruct (is_idle st)|destruct (is_retryable (su_status su))]; inversion E; reflexivity.
+  - destruct (f_abandon s t0) as [s' o'] eqn:E. apply log_ext_same. unfold f_abandon in E.
+    destruct (poisoned s); [inversion E; reflexivity|]. destruct (amem (c_towers (f_c s)) t0); [|inversion E; reflexivity].
+    destruct (db_delete CS (c_db (f_c s)) T_towers [C_towers_tower_id] [t0] true); cbn [f_c note_db] in E;
+      destruct (wt_remove_tower (f_c s) t0) as [c' r]; destruct r; inversion E; reflexivity.
+  - apply log_ext_same. reflexivity.
+Qed.
+
+(* ... hence over any continuation along which the proof stays stored (it is deleted only by abandontower: C18) *)
+Fixpoint flagged_along (t : N) (s : fstate) (ops : list fop) : bool :=
+  match ops with
+  | [] => true
+  | o :: rest => exists_misbehaving_proof (c_db (f_c s)) t && flagged_along t (fst (fstep s o)) rest
+  end.
+
+Lemma frun_snoc : forall a s o, frun s (a ++ [o]) = fst (fstep (frun s a) o).
+Proof. induction a as [|x a IH]; intros s o; cbn; [reflexivity|apply IH]. Qed.
+Lemma skipn_app_exact {A} (a b : list A) : skipn (length a) (a ++ b) = b.
+Proof. induction a as [|x a IH]; cbn; [reflexivity|exact IH]. Qed.
+
+Lemma misbehaviour_flagged_along_ext t : forall ops2 ops1,
+  flagged_along t (frun f_init ops1) ops2 = true ->
+  exists new, f_log (frun (frun f_init ops1) ops2) = f_log (frun f_init ops1) ++ new /\ existsb (is_add_to t) new = false.
+Proof.
+  induction ops2 as [|o ops2 IH]; intros ops1 Hf; cbn [frun].
+  - exists []. rewrite app_nil_r. split; reflexivity.
+  - cbn [flagged_along] in Hf. apply andb_true_iff in Hf. destruct Hf as [Hm Hf].
+    destruct (misbehaviour_flagged ops1 o t Hm) as [new1 [E1 Hn1]].
+    specialize (IH (ops1 ++ [o])). rewrite frun_snoc in IH. destruct (IH Hf) as [new2 [E2 Hn2]].
+    exists (new1 ++ new2). split; [rewrite E2, E1, app_assoc; reflexivity|]. rewrite existsb_app, Hn1, Hn2. reflexivity.
+Qed.
+
+Theorem misbehaviour_flagged_along ops1 ops2 t :
+  let s1 := frun f_init ops1 in let s2 := frun s1 ops2 in
+  flagged_along t s1 ops2 = true ->
+  existsb (is_add_to t) (skipn (length (f_log s1)) (f_log s2)) = false.
+Proof.
+  intros s1 s2 Hf. destruct (misbehaviour_flagged_along_ext t ops2 ops1 Hf) as [new [E Hn]].
+  unfold s2, s1. rewrite E, skipn_app_exact. exact Hn.
+Qed.
 
 (* ====================================================================== *)
 (* C13 delivers_on_recovery / gives_up_truthfully: the retry task          *)
@@ -3505,7 +3727,7 @@ Lemma run_for_accept t : forall locs s sl rest,
   end.
 Proof.
   induction locs as [|l locs IH]; intros s sl rest Hlen; cbn [run_for]; [exact I|].
-  destruct (poisoned s); [exact I|]. destruct (dbm_load_appointment (c_db (f_c s)) l); [|exact I].
+  destruct (poisoned s); [exact I|]. destruct (load_pending (f_c s) t l); [|apply IH; cbn in Hlen; lia].
   destruct sl as [|n sl]; [cbn in Hlen; lia|]. cbn [accept_all map app next_reply].
   destruct (wt_add_appointment_receipt _ _ _ _ _ _ _) as [c2 r2]. destruct (lift_site r2); [exact I|].
   destruct (wt_remove_pending_appointment c2 t l) as [c3 r3]. destruct (lift_site r3); [exact I|].
@@ -3519,16 +3741,115 @@ Proof.
   - apply NoDup_incl_length; [exact Hp|]. intros x Hx. apply In_reorder. exact Hx.
 Qed.
 
+(* an attempt of run never makes a tower misbehaving in memory (only the arms after retry_notify flag): pure memory fact *)
+Definition mis_back (c c' : client) : Prop := forall k, stat c' k = Some Misbehaving -> stat c k = Some Misbehaving.
+Lemma mis_back_refl c : mis_back c c.  Proof. intros k H. exact H. Qed.
+Lemma mis_back_trans a b c : mis_back a b -> mis_back b c -> mis_back a c.
+Proof. intros H1 H2 k H. apply H1, H2, H. Qed.
+Lemma mis_back_stat c c' : (forall k, stat c' k = stat c k) -> mis_back c c'.
+Proof. intros H k Hk. rewrite <- H. exact Hk. Qed.
+
+Lemma stat_aset_keep c t su su' k : aget (c_towers c) t = Some su -> su_status su' = su_status su ->
+  option_map su_status (aget (aset (c_towers c) t su') k) = stat c k.
+Proof. apply stat_aset_same_status. Qed.
+
+Lemma stat_add_receipt c t l slots sb u g k : stat (fst (wt_add_appointment_receipt c t l slots sb u g)) k = stat c k.
+Proof.
+  unfold wt_add_appointment_receipt. destruct (aget (c_towers c) t) as [su|] eqn:Et; [|reflexivity].
+  destruct (dbm_load_appointment_receipt (c_db c) t l); [reflexivity|].
+  destruct (dbm_store_appointment_receipt (c_db c) t l slots sb u g); cbn [fst]; unfold stat; cbn [c_towers with_db with_towers poison];
+    (eapply stat_aset_same_status; [exact Et|reflexivity]).
+Qed.
+Lemma stat_add_invalid c t l b dl k : stat (fst (wt_add_invalid_appointment c t l b dl)) k = stat c k.
+Proof.
+  unfold wt_add_invalid_appointment. destruct (aget (c_towers c) t) as [su|] eqn:Et; [|reflexivity].
+  destruct (memN l (su_invalid su)); [reflexivity|].
+  destruct (dbm_store_invalid_appointment (c_db c) t l b dl); cbn [fst]; unfold stat; cbn [c_towers with_db with_towers poison];
+    (eapply stat_aset_same_status; [exact Et|reflexivity]).
+Qed.
+Lemma stat_remove_pending c t l k : stat (fst (wt_remove_pending_appointment c t l)) k = stat c k.
+Proof.
+  unfold wt_remove_pending_appointment. destruct (aget (c_towers c) t) as [su|] eqn:Et; [|reflexivity].
+  destruct (dbm_delete_pending_appointment (c_db c) t l); cbn [fst]; unfold stat; cbn [c_towers with_db with_towers poison];
+    (eapply stat_aset_same_status; [exact Et|reflexivity]).
+Qed.
+Lemma stat_set_status c t st k :
+  stat (wt_set_tower_status c t st) k = if N.eqb k t then option_map (fun old => sticky old st) (stat c t) else stat c k.
+Proof.
+  unfold stat, wt_set_tower_status. destruct (aget (c_towers c) t) as [su|] eqn:E.
+  - destruct (is_misbehaving (su_status su) && negb (is_misbehaving st)) eqn:Eb.
+    + destruct (N.eqb k t) eqn:Ek; [|reflexivity]. apply N.eqb_eq in Ek. subst. rewrite E. cbn. unfold sticky. rewrite Eb. reflexivity.
+    + cbn [c_towers with_towers]. rewrite aget_aset. destruct (N.eqb k t) eqn:Ek; [|reflexivity]. cbn. unfold sticky. rewrite Eb. reflexivity.
+  - destruct (N.eqb k t) eqn:Ek; [|reflexivity]. apply N.eqb_eq in Ek. subst. rewrite E. reflexivity.
+Qed.
+Lemma mis_back_set_status c t st : st <> Misbehaving -> mis_back c (wt_set_tower_status c t st).
+Proof.
+  intros Hst k Hk. rewrite stat_set_status in Hk. destruct (N.eqb k t) eqn:Ek; [|exact Hk]. apply N.eqb_eq in Ek. subst k.
+  destruct (stat c t) as [old|]; cbn in Hk; [|discriminate]. injection Hk as Hk. apply sticky_misbehaving in Hk. destruct Hk as [->|Hk]; [reflexivity|contradiction].
+Qed.
+Lemma mis_back_add_update_tower c t addr slots start expiry sg : knownc c t -> mis_back c (fst (wt_add_update_tower c t addr slots start expiry sg)).
+Proof.
+  intros Hk. unfold knownc, amem in Hk. unfold wt_add_update_tower. destruct (aget (c_towers c) t) as [su|] eqn:Et; [|discriminate].
+  destruct (N.leb expiry (su_expiry su)); [apply mis_back_refl|].
+  destruct (load_tower_record (c_db c) t) as [|info|st]; [intros k H; exact H| |intros k H; exact H].
+  destruct (N.leb slots (ti_slots info)); [apply mis_back_refl|].
+  destruct (dbm_store_tower_record (c_db c) t addr slots start expiry sg); cbn [fst]; [|intros k H; exact H].
+  apply mis_back_stat. intros k. unfold stat. cbn [c_towers with_db with_towers]. eapply stat_aset_same_status; [exact Et|reflexivity].
+Qed.
+
+Lemma run_for_mis_back t : forall locs s adds, mis_back (f_c s) (f_c (fst (fst (run_for s t locs adds)))).
+Proof.
+  induction locs as [|l locs IH]; intros s adds; cbn [run_for]; [apply mis_back_refl|].
+  destruct (poisoned s); [apply mis_back_refl|].
+  destruct (load_pending (f_c s) t l) as [body|].
+  2:{ eapply mis_back_trans; [|apply IH]. rewrite f_c_retrier_drop. apply mis_back_refl. }
+  destruct (next_reply adds) as [rp adds1].
+  destruct rp; cbn [fst f_c log_req set_c]; try apply mis_back_refl.
+  - rewrite f_c_retrier_drop. pose proof (stat_add_receipt (f_c (log_req s (ReqAdd t l))) t l slots START_BLOCK USER_SIG SIG_TOWER) as H2.
+    destruct (wt_add_appointment_receipt _ _ _ _ _ _ _) as [c2 r2]. cbn [fst] in H2.
+    destruct (lift_site r2); cbn [fst f_c wr_c]; [apply mis_back_stat, H2|].
+    pose proof (stat_remove_pending c2 t l) as H3. destruct (wt_remove_pending_appointment c2 t l) as [c3 r3]. cbn [fst] in H3.
+    assert (H23 : mis_back (f_c s) c3) by (apply mis_back_stat; intros k; rewrite H3; apply H2).
+    destruct (lift_site r3); cbn [fst f_c wr_c]; [exact H23|]. eapply mis_back_trans; [exact H23|apply (IH (wr_c (wr_c (retrier_drop (log_req s (ReqAdd t l)) t l) c2) c3))].
+  - apply mis_back_set_status. discriminate.
+  - rewrite f_c_retrier_drop. pose proof (stat_add_invalid (f_c (log_req s (ReqAdd t l))) t l (col body C_appointments_encrypted_blob) (col body C_appointments_to_self_delay)) as H2.
+    destruct (wt_add_invalid_appointment _ _ _ _ _) as [c2 r2]. cbn [fst] in H2.
+    destruct (lift_site r2); cbn [fst f_c wr_c]; [apply mis_back_stat, H2|].
+    pose proof (stat_remove_pending c2 t l) as H3. destruct (wt_remove_pending_appointment c2 t l) as [c3 r3]. cbn [fst] in H3.
+    assert (H23 : mis_back (f_c s) c3) by (apply mis_back_stat; intros k; rewrite H3; apply H2).
+    destruct (lift_site r3); cbn [fst f_c wr_c]; [exact H23|]. eapply mis_back_trans; [exact H23|apply (IH (wr_c (wr_c (retrier_drop (log_req s (ReqAdd t l)) t l) c2) c3))].
+Qed.
+Lemma run_while_mis_back t hint : forall fuel s adds, mis_back (f_c s) (f_c (fst (run_while fuel s t hint adds))).
+Proof.
+  induction fuel as [|f IH]; intros s adds; cbn [run_while]; [apply mis_back_refl|].
+  destruct (retrier_pending s t) as [|x p]; [apply mis_back_refl|].
+  pose proof (run_for_mis_back t (reorder hint (x :: p)) s adds) as H1.
+  destruct (run_for s t (reorder hint (x :: p)) adds) as [[s1 adds1] [r|]]; cbn [fst] in *; [exact H1|]. eapply mis_back_trans; [exact H1|apply IH].
+Qed.
+Lemma run_attempt_mis_back s t a : mis_back (f_c s) (f_c (fst (run_attempt s t a))).
+Proof.
+  unfold run_attempt. destruct (poisoned s); [apply mis_back_refl|].
+  destruct (aget (c_towers (f_c s)) t) as [su|] eqn:Et; [|apply mis_back_refl].
+  destruct (is_misbehaving (su_status su)); [apply mis_back_refl|].
+  destruct (is_subscription_error (su_status su)); [|apply run_while_mis_back].
+  destruct (at_reg a) as [slots start expiry sig_ok| | | |]; cbn [fst]; try apply mis_back_refl.
+  destruct (negb sig_ok); cbn [fst]; [apply mis_back_refl|].
+  assert (Hk : knownc (f_c (log_req s (ReqRegister t))) t) by (unfold knownc, amem; cbn [f_c log_req]; rewrite Et; reflexivity).
+  pose proof (mis_back_add_update_tower (f_c (log_req s (ReqRegister t))) t (su_addr su) slots start expiry REG_SIG Hk) as H1.
+  destruct (wt_add_update_tower _ _ _ _ _ _ _) as [c' r]. cbn [fst] in H1. destruct r; cbn [fst f_c set_c]; try exact H1.
+  eapply mis_back_trans; [exact H1|apply (run_while_mis_back t (at_order a) _ (wr_c (log_req s (ReqRegister t)) c'))].
+Qed.
+
 (* one attempt against a tower that accepts everything (and, after a subscription error, renews the subscription
    with an extending receipt first): run returns Ok *)
 Lemma run_attempt_accept s t a sl rest :
-  FInv s -> poisoned s = false -> rstat s t = Some RRunning -> knownc (f_c s) t ->
+  FInv s -> poisoned s = false -> rstat s t = Some RRunning -> knownc (f_c s) t -> stat (f_c s) t <> Some Misbehaving ->
   at_adds a = accept_all sl ++ rest -> (length (retrier_pending s t) <= length sl)%nat ->
   (stat (f_c s) t = Some SubscriptionError ->
      exists slots start expiry, at_reg a = RReceipt slots start expiry true /\ reg_extends (f_c s) t slots expiry = true) ->
   snd (run_attempt s t a) = RunOk.
 Proof.
-  intros HF Hp Hrun Hk Hadds Hlen Hreg.
+  intros HF Hp Hrun Hk Hnm Hadds Hlen Hreg.
   assert (Hgo : forall s0, FInv s0 -> poisoned s0 = false -> knownc (f_c s0) t -> rstat s0 t = Some RRunning ->
             retrier_pending s0 t = retrier_pending s t ->
             snd (run_while (run_fuel s0 t) s0 t (at_order a) (at_adds a)) = RunOk).
@@ -3544,7 +3865,7 @@ Proof.
        end). clear Efuel.
     destruct (retrier_pending s0 t) as [|x p] eqn:Ep; [reflexivity|].
     assert (Hnd : NoDup (x :: p)).
-    { destruct H0 as [_ [_ [HV _]]]. destruct (HV Hp0) as [_ [_ [_ [V4 _]]]]. unfold retrier_pending in Ep.
+    { destruct H0 as [_ [_ [HV _]]]. destruct (HV Hp0) as [_ [_ [V4 _]]]. unfold retrier_pending in Ep.
       destruct (aget (f_mgr s0) t) as [r|] eqn:Er; [|discriminate]. rewrite <- Ep. eapply V4, Er. }
     pose proof (NoDup_reorder (at_order a) _ Hnd) as Hndr.
     assert (Hsub : forall l, In l (reorder (at_order a) (x :: p)) -> In l (retrier_pending s0 t)) by (intros l Hl; rewrite Ep; apply In_reorder in Hl; exact Hl).
@@ -3562,6 +3883,8 @@ Proof.
         destruct (retrier_pending s1 t) as [|y q]; [reflexivity|]. exfalso. apply (Hno y). left. reflexivity. }
       cbn [run_while]. rewrite Hempty. reflexivity. }
   unfold run_attempt. rewrite Hp. unfold knownc, amem in Hk. destruct (aget (c_towers (f_c s)) t) as [su|] eqn:Et; [|discriminate].
+  destruct (is_misbehaving (su_status su)) eqn:Emis.
+  { exfalso. apply Hnm. unfold stat. rewrite Et. cbn. destruct (su_status su); try discriminate. reflexivity. }
   destruct (is_subscription_error (su_status su)) eqn:Esub.
   2:{ apply Hgo; auto. unfold knownc, amem. rewrite Et. reflexivity. }
   destruct Hreg as [slots [start [expiry [Hr Hext]]]].
@@ -3579,12 +3902,12 @@ Proof.
   - exfalso. destruct (Hab Hext) as [st ->]. discriminate Hok.
 Qed.
 
-(* DELIVERY: a live retry task of a known tower that now accepts: ONE attempt delivers the whole retrier set; the
-   task ends, the tower is reachable, its retrier stopped with an empty set, none of the delivered locators is a
-   pending row any more, and each still has a record *)
+(* DELIVERY: a live retry task of a known tower (not flagged) that now accepts: ONE attempt delivers the whole retrier
+   set; the task ends, the tower is reachable, its retrier stopped with an empty set, no locator of the set is a
+   pending row any more, and each one that WAS a pending row still has a record (the others were stale and dropped) *)
 Theorem delivers_attempt ops t a sl rest :
-  ops_fresh f_init ops = true -> let s := frun f_init ops in poisoned s = false ->
-  In t (f_tasks s) -> knownc (f_c s) t ->
+  let s := frun f_init ops in poisoned s = false ->
+  In t (f_tasks s) -> knownc (f_c s) t -> stat (f_c s) t <> Some Misbehaving ->
   at_adds a = accept_all sl ++ rest -> (length (retrier_pending s t) <= length sl)%nat ->
   (stat (f_c s) t = Some SubscriptionError ->
      exists slots start expiry, at_reg a = RReceipt slots start expiry true /\ reg_extends (f_c s) t slots expiry = true) ->
@@ -3592,16 +3915,18 @@ Theorem delivers_attempt ops t a sl rest :
   snd (fstep s (FRetrierRun t [a])) = ORun OutDelivered /\
   stat (f_c s') t = Some Reachable /\ rstat s' t = Some RStopped /\ retrier_pending s' t = [] /\
   ~ In t (f_tasks s') /\ aget (c_retriers (f_c s')) t = None /\
-  (forall l, In l (retrier_pending s t) -> ~ Prow (c_db (f_c s')) t l /\ recorded (c_db (f_c s')) t l) /\
+  (forall l, In l (retrier_pending s t) -> ~ Prow (c_db (f_c s')) t l /\ (Prow (c_db (f_c s)) t l -> recorded (c_db (f_c s')) t l)) /\
   (forall k x, Prow (c_db (f_c s')) k x -> Prow (c_db (f_c s)) k x).
 Proof.
-  intros Hg s Hp Hin Hk Hadds Hlen Hreg. pose proof (FInv_frun ops f_init FInv_init Hg) as HF. fold s in HF.
+  intros s Hp Hin Hk Hnm Hadds Hlen Hreg. pose proof (FInv_frun ops f_init FInv_init) as HF. fold s in HF.
   assert (Hrun : rstat s t = Some RRunning) by (apply HF, Hin).
-  pose proof (run_attempt_accept s t a sl rest HF Hp Hrun Hk Hadds Hlen Hreg) as Hok.
+  pose proof (run_attempt_accept s t a sl rest HF Hp Hrun Hk Hnm Hadds Hlen Hreg) as Hok.
   cbn [fstep f_retrier_run]. apply (proj2 (memN_In t (f_tasks s))) in Hin. rewrite Hin. cbn [negb].
   destruct (run_attempt s t a) as [s1 r] eqn:E1. cbn [snd] in Hok. subst r.
   destruct (FInv_run_attempt s t a s1 RunOk HF Hrun E1) as [HF1 [Hnp [Hset [K [PA PN]]]]].
   destruct (Hset eq_refl) as [Hempty Hk1].
+  assert (Hnm1 : stat (f_c s1) t <> Some Misbehaving).
+  { intros H. apply Hnm. pose proof (run_attempt_mis_back s t a) as Hb. rewrite E1 in Hb. cbn [fst] in Hb. apply Hb, H. }
   assert (Hrun1 : rstat s1 t = Some RRunning).
   { pose proof (run_attempt_same s t a) as [_ Hs]. rewrite E1 in Hs. cbn [fst] in Hs. rewrite Hs. exact Hrun. }
   assert (Htasks1 : In t (f_tasks s1)).
@@ -3614,7 +3939,8 @@ Proof.
   assert (Ec : f_c s2 = c2) by (unfold s2; cbn [f_c end_task set_tasks]; rewrite f_c_retrier_set_status; reflexivity).
   rewrite Ec. split.
   { destruct (prim_set_status (f_c s1) t Reachable (proj1 HF1)) as [_ [_ [_ [_ [Hs _]]]]]. unfold stat in *. unfold c2. cbn [c_towers with_retriers].
-    rewrite (Hs t), N.eqb_refl. unfold knownc, amem in Hk1. destruct (aget (c_towers (f_c s1)) t); [reflexivity|discriminate]. }
+    rewrite (Hs t), N.eqb_refl. unfold knownc, amem in Hk1. unfold stat in Hnm1.
+    destruct (aget (c_towers (f_c s1)) t) as [su1|]; [|discriminate]. cbn in *. f_equal. apply sticky_other. congruence. }
   split.
   { unfold s2. change (rstat (end_task (retrier_set_status (set_c s1 c2) t RStopped) t) t) with (rstat (retrier_set_status (set_c s1 c2) t RStopped) t).
     rewrite rstat_retrier_set_status, N.eqb_refl. unfold rstat. cbn [f_mgr set_c]. rewrite Er1. reflexivity. }
@@ -3627,8 +3953,7 @@ Proof.
   { unfold c2. cbn [c_retriers with_retriers]. rewrite aget_aremove, N.eqb_refl. reflexivity. }
   split; [|intros k x; unfold c2; cbn [c_db with_retriers]; rewrite DbInv_set_status; apply PA].
   intros l Hl. unfold c2. cbn [c_db with_retriers]. rewrite DbInv_set_status. split; [apply (PN eq_refl l Hl)|].
-  apply K. right. left.
-  destruct HF as [_ [_ [HV _]]]. destruct (HV Hp) as [_ [V2 _]]. apply V2; [exact Hk|]. rewrite tracked_eq. apply in_or_app. left. exact Hl.
+  intros HPl. apply K. right. left. exact HPl.
 Qed.
 
 (* ---- a tower that keeps failing ---- *)
@@ -3636,41 +3961,80 @@ Definition fails (a : attempt) : bool :=
   match at_reg a with RReceipt _ _ _ _ => false | _ => true end &&
   match at_adds a with [] => true | x :: _ => is_request_error x end.
 
-Definition same_but_log (s s' : fstate) : Prop :=
-  f_c s' = f_c s /\ f_mgr s' = f_mgr s /\ f_chan s' = f_chan s /\ f_tasks s' = f_tasks s /\ f_due s' = f_due s /\ f_mgr_dead s' = f_mgr_dead s.
-
-Lemma run_attempt_fails s t a :
-  FInv s -> poisoned s = false -> knownc (f_c s) t -> retrier_pending s t <> [] -> fails a = true ->
-  same_but_log s (fst (run_attempt s t a)) /\
-  (snd (run_attempt s t a) = RunErr EUnreachable \/ snd (run_attempt s t a) = RunErr (ESubscription false)).
+(* what an attempt that fails leaves of the state: everything but the request log, and the locators of the retrier's
+   set that are NOT pending rows of the tower any more (they are dropped on the way: fix 8108569) *)
+Definition dropped_only (t : N) (s s' : fstate) : Prop :=
+  f_c s' = f_c s /\ f_chan s' = f_chan s /\ f_tasks s' = f_tasks s /\ f_due s' = f_due s /\ f_mgr_dead s' = f_mgr_dead s /\
+  (forall k, k <> t -> aget (f_mgr s') k = aget (f_mgr s) k) /\ rstat s' t = rstat s t /\
+  (forall x, In x (retrier_pending s' t) -> In x (retrier_pending s t)) /\
+  (forall x, In x (retrier_pending s t) -> Prow (c_db (f_c s)) t x -> In x (retrier_pending s' t)).
+Lemma dropped_only_refl t s : dropped_only t s s.
+Proof. repeat split; auto. Qed.
+Lemma dropped_only_trans t a b c : dropped_only t a b -> dropped_only t b c -> dropped_only t a c.
 Proof.
-  intros HF Hp Hk Hne Hf. unfold fails in Hf. apply andb_true_iff in Hf. destruct Hf as [Hfr Hfa].
-  unfold run_attempt. rewrite Hp. unfold knownc, amem in Hk. destruct (aget (c_towers (f_c s)) t) as [su|] eqn:Et; [|discriminate].
-  destruct (is_subscription_error (su_status su)).
-  { destruct (at_reg a); try discriminate; cbn [fst snd]; (split; [repeat split|right; reflexivity]). }
-  unfold run_fuel. cbn [run_while]. destruct (retrier_pending s t) as [|x p] eqn:Ep; [contradiction|].
-  destruct (reorder (at_order a) (x :: p)) as [|l locs] eqn:Er.
-  { exfalso. assert (In x (reorder (at_order a) (x :: p))) by (apply In_reorder; left; reflexivity). rewrite Er in H. contradiction. }
-  cbn [run_for]. rewrite Hp.
-  assert (Hl : In l (retrier_pending s t)) by (rewrite Ep; apply (In_reorder (at_order a)); rewrite Er; left; reflexivity).
-  pose proof HF as [HI [_ [HV _]]]. destruct (HV Hp) as [_ [V2 _]].
-  assert (HPl : Prow (c_db (f_c s)) t l).
-  { apply V2; [unfold knownc, amem; rewrite Et; reflexivity|]. rewrite tracked_eq. apply in_or_app. left. exact Hl. }
-  destruct (pending_body _ t l (proj1 HI) HPl) as [body ->].
-  destruct (at_adds a) as [|rp adds']; cbn [next_reply]; [cbn [fst snd]; split; [repeat split|left; reflexivity]|].
-  destruct rp; try discriminate; cbn [fst snd]; (split; [repeat split|left; reflexivity]).
+  intros [A1 [A2 [A3 [A4 [A5 [A6 [A7 [A8 A9]]]]]]]] [B1 [B2 [B3 [B4 [B5 [B6 [B7 [B8 B9]]]]]]]].
+  split; [congruence|]. split; [congruence|]. split; [congruence|]. split; [congruence|]. split; [congruence|].
+  split; [intros k Hk; rewrite B6, A6; auto|]. split; [congruence|]. split; [intros x Hx; apply A8, B8, Hx|].
+  intros x Hx HP. apply B9; [apply A9; assumption|rewrite A1; exact HP].
+Qed.
+Lemma dropped_only_log t s r : dropped_only t s (log_req s r).
+Proof. repeat split; auto. Qed.
+Lemma dropped_only_drop t s l : ~ Prow (c_db (f_c s)) t l -> dropped_only t s (retrier_drop s t l).
+Proof.
+  intros Hn. unfold retrier_drop. destruct (aget (f_mgr s) t) as [r|] eqn:Er; [|apply dropped_only_refl].
+  split; [reflexivity|]. split; [reflexivity|]. split; [reflexivity|]. split; [reflexivity|]. split; [reflexivity|].
+  split; [intros k Hk; cbn [f_mgr put_retrier set_mgr]; apply aget_aset_other; exact Hk|].
+  split; [rewrite rstat_put, N.eqb_refl; unfold rstat; rewrite Er; reflexivity|].
+  split.
+  - intros x Hx. rewrite retrier_pending_put, N.eqb_refl in Hx. cbn [r_pending] in Hx. apply In_set_remove in Hx. unfold retrier_pending. rewrite Er. tauto.
+  - intros x Hx HP. rewrite retrier_pending_put, N.eqb_refl. cbn [r_pending]. apply In_set_remove. unfold retrier_pending in Hx. rewrite Er in Hx.
+    split; [exact Hx|]. intros ->. contradiction.
 Qed.
 
-Lemma stat_set_status c t st k : stat (wt_set_tower_status c t st) k = if N.eqb k t then option_map (fun _ => st) (stat c t) else stat c k.
+(* the for loop against a tower whose next reply is a request error: it drops what is not pending any more, and stops
+   at the first locator that is; it finishes only if nothing of its list is a pending row *)
+Lemma run_for_fails t : forall locs s adds,
+  Inv (f_c s) -> poisoned s = false -> (match adds with [] => true | x :: _ => is_request_error x end) = true ->
+  dropped_only t s (fst (fst (run_for s t locs adds))) /\
+  (snd (run_for s t locs adds) = Some (RunErr EUnreachable) \/
+   (snd (run_for s t locs adds) = None /\ forall l, In l locs -> ~ Prow (c_db (f_c s)) t l)).
 Proof.
-  unfold stat, wt_set_tower_status. destruct (aget (c_towers c) t) as [su|] eqn:E.
-  - cbn [c_towers with_towers]. rewrite aget_aset. destruct (N.eqb k t) eqn:Ek; [|reflexivity]. reflexivity.
-  - destruct (N.eqb k t) eqn:Ek; [|reflexivity]. apply N.eqb_eq in Ek. subst. rewrite E. reflexivity.
+  induction locs as [|l locs IH]; intros s adds HI Hp Hf; cbn [run_for].
+  { split; [apply dropped_only_refl|]. right. split; [reflexivity|intros l []]. }
+  unfold poisoned in *. rewrite Hp. pose proof (load_pending_spec (f_c s) t l HI Hp) as Hlp.
+  destruct (load_pending (f_c s) t l) as [body|].
+  - destruct adds as [|rp adds']; cbn [next_reply]; [cbn [fst snd]; split; [apply dropped_only_log|left; reflexivity]|].
+    destruct rp; try discriminate Hf; cbn [fst snd]; (split; [apply dropped_only_log|left; reflexivity]).
+  - assert (HI2 : Inv (f_c (retrier_drop s t l))) by (rewrite f_c_retrier_drop; exact HI).
+    assert (Hp2 : c_poisoned (f_c (retrier_drop s t l)) = false) by (rewrite f_c_retrier_drop; exact Hp).
+    destruct (IH (retrier_drop s t l) adds HI2 Hp2 Hf) as [A B].
+    split; [eapply dropped_only_trans; [apply dropped_only_drop, Hlp|exact A]|].
+    destruct B as [B|[B1 B2]]; [left; exact B|right]. split; [exact B1|]. intros x [<-|Hx]; [exact Hlp|].
+    specialize (B2 x Hx). rewrite f_c_retrier_drop in B2. exact B2.
+Qed.
+
+Lemma run_attempt_fails s t a l0 :
+  FInv s -> poisoned s = false -> knownc (f_c s) t -> stat (f_c s) t <> Some Misbehaving ->
+  In l0 (retrier_pending s t) -> Prow (c_db (f_c s)) t l0 -> fails a = true ->
+  dropped_only t s (fst (run_attempt s t a)) /\
+  (snd (run_attempt s t a) = RunErr EUnreachable \/ snd (run_attempt s t a) = RunErr (ESubscription false)).
+Proof.
+  intros HF Hp Hk Hnm Hl0 HP0 Hf. unfold fails in Hf. apply andb_true_iff in Hf. destruct Hf as [Hfr Hfa].
+  unfold run_attempt. rewrite Hp. unfold knownc, amem in Hk. destruct (aget (c_towers (f_c s)) t) as [su|] eqn:Et; [|discriminate].
+  destruct (is_misbehaving (su_status su)) eqn:Emis.
+  { exfalso. apply Hnm. unfold stat. rewrite Et. cbn. destruct (su_status su); try discriminate. reflexivity. }
+  destruct (is_subscription_error (su_status su)).
+  { destruct (at_reg a); try discriminate; cbn [fst snd]; (split; [apply dropped_only_log|right; reflexivity]). }
+  unfold run_fuel. cbn [run_while]. destruct (retrier_pending s t) as [|x p] eqn:Ep; [contradiction|].
+  destruct (run_for_fails t (reorder (at_order a) (x :: p)) s (at_adds a) (proj1 HF) Hp Hfa) as [A B].
+  destruct (run_for s t (reorder (at_order a) (x :: p)) (at_adds a)) as [[s1 adds1] r1]. cbn [fst snd] in *.
+  destruct B as [->|[-> B2]]; [split; [exact A|left; reflexivity]|].
+  exfalso. apply (B2 l0); [apply In_reorder; exact Hl0|exact HP0].
 Qed.
 
 (* the task gives up (the back-off is exhausted) on a transient error: idle, unreachable, rows untouched *)
 Lemma idle_arm s t e :
-  is_permanent e = false -> (e = EUnreachable \/ e = ESubscription false) -> knownc (f_c s) t ->
+  is_permanent e = false -> (e = EUnreachable \/ e = ESubscription false) -> knownc (f_c s) t -> stat (f_c s) t <> Some Misbehaving ->
   forall r0, aget (f_mgr s) t = Some r0 ->
   let s' := fst (task_step s t (RunErr e) false) in
   snd (task_step s t (RunErr e) false) = OutIdle e /\
@@ -3678,7 +4042,7 @@ Lemma idle_arm s t e :
   aget (c_retriers (f_c s')) t = Some RIdle /\ c_db (f_c s') = c_db (f_c s) /\ f_tasks s' = remove_one t (f_tasks s) /\
   f_chan s' = f_chan s /\ f_mgr_dead s' = f_mgr_dead s /\ poisoned s' = poisoned s.
 Proof.
-  intros Hperm He Hk r0 Er. unfold task_step. rewrite Hperm. cbn [negb andb].
+  intros Hperm He Hk Hnm r0 Er. unfold task_step. rewrite Hperm. cbn [negb andb].
   set (c1 := with_retriers (f_c s) (aset (c_retriers (f_c s)) t RIdle)).
   set (c2 := wt_set_tower_status c1 t Unreachable).
   set (s' := end_task (retrier_clear (retrier_set_status (set_c s c2) t RIdle) t) t).
@@ -3689,8 +4053,8 @@ Proof.
     assert (Er2 : aget (f_mgr (retrier_set_status (set_c s c2) t RIdle)) t = Some {| r_status := RIdle; r_pending := r_pending r0 |}).
     { rewrite (retrier_set_status_eq (set_c s c2) t RIdle r0 Er). unfold put_retrier, set_mgr. cbn [f_mgr]. apply aget_aset_same. }
     rewrite Ec. split.
-    { unfold c2. rewrite stat_set_status, N.eqb_refl. unfold stat, c1. cbn [c_towers with_retriers]. unfold knownc, amem in Hk.
-      destruct (aget (c_towers (f_c s)) t); [reflexivity|discriminate]. }
+    { unfold c2. rewrite stat_set_status, N.eqb_refl. unfold stat, c1 in *. cbn [c_towers with_retriers]. unfold knownc, amem in Hk.
+      destruct (aget (c_towers (f_c s)) t) as [su0|]; [|discriminate]. cbn in *. f_equal. apply sticky_other. congruence. }
     split.
     { unfold s'. change (rstat (end_task (retrier_clear (retrier_set_status (set_c s c2) t RIdle) t) t) t) with (rstat (retrier_clear (retrier_set_status (set_c s c2) t RIdle) t) t).
       rewrite rstat_retrier_clear. unfold rstat. rewrite Er2. reflexivity. }
@@ -3706,31 +4070,33 @@ Proof.
   destruct He as [-> | ->]; cbn [fst snd]; (split; [reflexivity|exact Hmain]).
 Qed.
 
-Lemma gives_up_one s t a :
-  FInv s -> poisoned s = false -> In t (f_tasks s) -> knownc (f_c s) t -> retrier_pending s t <> [] -> fails a = true ->
+Lemma gives_up_one s t a l0 :
+  FInv s -> poisoned s = false -> In t (f_tasks s) -> knownc (f_c s) t -> stat (f_c s) t <> Some Misbehaving ->
+  In l0 (retrier_pending s t) -> Prow (c_db (f_c s)) t l0 -> fails a = true ->
   let s' := fst (f_retrier_run s t [a]) in
-  (at_more a = true -> same_but_log s s' /\ exists e, snd (f_retrier_run s t [a]) = OutBackoff e) /\
+  (at_more a = true -> dropped_only t s s' /\ exists e, snd (f_retrier_run s t [a]) = OutBackoff e) /\
   (at_more a = false ->
      (exists e, snd (f_retrier_run s t [a]) = OutIdle e) /\
      stat (f_c s') t = Some Unreachable /\ rstat s' t = Some RIdle /\ retrier_pending s' t = [] /\
      aget (c_retriers (f_c s')) t = Some RIdle /\ c_db (f_c s') = c_db (f_c s) /\ ~ In t (f_tasks s') /\
      f_chan s' = f_chan s /\ f_mgr_dead s' = f_mgr_dead s /\ poisoned s' = false).
 Proof.
-  intros HF Hp Hin Hk Hne Hf. cbn [f_retrier_run]. apply (proj2 (memN_In t (f_tasks s))) in Hin as Hm. rewrite Hm. cbn [negb].
-  destruct (run_attempt_fails s t a HF Hp Hk Hne Hf) as [Hsame Hres].
+  intros HF Hp Hin Hk Hnm Hl0 HP0 Hf. cbn [f_retrier_run]. apply (proj2 (memN_In t (f_tasks s))) in Hin as Hm. rewrite Hm. cbn [negb].
+  destruct (run_attempt_fails s t a l0 HF Hp Hk Hnm Hl0 HP0 Hf) as [Hsame Hres].
   destruct (run_attempt s t a) as [s1 r]. cbn [fst snd] in Hsame, Hres.
-  destruct Hsame as [E1 [E2 [E3 [E4 [E5 E6]]]]].
+  pose proof Hsame as [E1 [E3 [E4 [E5 [E6 [E2 [Ers _]]]]]]].
   assert (He : exists e, r = RunErr e /\ is_permanent e = false /\ (e = EUnreachable \/ e = ESubscription false)).
   { destruct Hres as [->| ->]; eexists; split; try reflexivity; split; try reflexivity; auto. }
   destruct He as [e [-> [Hperm Hcase]]].
   assert (Hrun : rstat s t = Some RRunning) by (apply HF, Hin).
-  unfold rstat in Hrun. destruct (aget (f_mgr s) t) as [r0|] eqn:Er; [|discriminate].
+  assert (Hrun1 : rstat s1 t = Some RRunning) by (rewrite Ers; exact Hrun).
+  unfold rstat in Hrun1. destruct (aget (f_mgr s1) t) as [r1|] eqn:Er1; [|discriminate].
   split.
-  - intros Hmore. unfold task_step. rewrite Hperm, Hmore. cbn [negb andb fst snd]. split; [repeat split; assumption|eexists; reflexivity].
+  - intros Hmore. unfold task_step. rewrite Hperm, Hmore. cbn [negb andb fst snd]. split; [exact Hsame|eexists; reflexivity].
   - intros Hmore. rewrite Hmore.
-    assert (Er1 : aget (f_mgr s1) t = Some r0) by (rewrite E2; exact Er).
     assert (Hk1 : knownc (f_c s1) t) by (rewrite E1; exact Hk).
-    destruct (idle_arm s1 t e Hperm Hcase Hk1 r0 Er1) as [A [B [C [D [F [G [H [I0 [J K]]]]]]]]].
+    assert (Hnm1 : stat (f_c s1) t <> Some Misbehaving) by (rewrite E1; exact Hnm).
+    destruct (idle_arm s1 t e Hperm Hcase Hk1 Hnm1 r1 Er1) as [A [B [C [D [F [G [H [I0 [J K]]]]]]]]].
     destruct (task_step s1 t (RunErr e) false) as [s2 o]. cbn [fst snd] in *. subst o. cbn [fst snd].
     split; [exists e; reflexivity|]. split; [exact B|]. split; [exact C|]. split; [exact D|]. split; [exact F|].
     split; [rewrite G, E1; reflexivity|]. split.
@@ -3739,23 +4105,25 @@ Proof.
 Qed.
 
 (* C13 gives_up_truthfully, the retry task: against a tower that keeps failing (connection refused, garbage, reset,
-   undecodable signature; a failing re-registration after a subscription error) every attempt leaves the state
-   untouched while the back-off goes on, and when the back-off is exhausted the tower is shown unreachable, its
-   retrier idle (also in WTClient::retriers, so retrytower is accepted), the in-memory set cleared and the database
-   - every pending row - untouched *)
-Theorem gives_up_truthfully ops t a :
-  ops_fresh f_init ops = true -> let s := frun f_init ops in poisoned s = false ->
-  In t (f_tasks s) -> knownc (f_c s) t -> retrier_pending s t <> [] -> fails a = true ->
+   undecodable signature; a failing re-registration after a subscription error), with something really pending for it,
+   every attempt leaves the state untouched while the back-off goes on (but for the stale locators it drops from its
+   set), and when the back-off is exhausted the tower is shown unreachable, its retrier idle (also in
+   WTClient::retriers, so retrytower is accepted), the in-memory set cleared and the database - every pending row -
+   untouched *)
+Theorem gives_up_truthfully ops t a l0 :
+  let s := frun f_init ops in poisoned s = false ->
+  In t (f_tasks s) -> knownc (f_c s) t -> stat (f_c s) t <> Some Misbehaving ->
+  In l0 (retrier_pending s t) -> Prow (c_db (f_c s)) t l0 -> fails a = true ->
   let s' := fst (fstep s (FRetrierRun t [a])) in
-  (at_more a = true -> same_but_log s s' /\ exists e, snd (fstep s (FRetrierRun t [a])) = ORun (OutBackoff e)) /\
+  (at_more a = true -> dropped_only t s s' /\ exists e, snd (fstep s (FRetrierRun t [a])) = ORun (OutBackoff e)) /\
   (at_more a = false ->
      (exists e, snd (fstep s (FRetrierRun t [a])) = ORun (OutIdle e)) /\
      stat (f_c s') t = Some Unreachable /\ rstat s' t = Some RIdle /\ retrier_pending s' t = [] /\
      aget (c_retriers (f_c s')) t = Some RIdle /\ c_db (f_c s') = c_db (f_c s) /\ ~ In t (f_tasks s') /\
      retry_allowed s' t = true).
 Proof.
-  intros Hg s Hp Hin Hk Hne Hf. pose proof (FInv_frun ops f_init FInv_init Hg) as HF. fold s in HF.
-  destruct (gives_up_one s t a HF Hp Hin Hk Hne Hf) as [A B]. cbn [fstep].
+  intros s Hp Hin Hk Hnm Hl0 HP0 Hf. pose proof (FInv_frun ops f_init FInv_init) as HF. fold s in HF.
+  destruct (gives_up_one s t a l0 HF Hp Hin Hk Hnm Hl0 HP0 Hf) as [A B]. cbn [fstep].
   destruct (f_retrier_run s t [a]) as [s2 o]. cbn [fst snd] in *. split.
   - intros Hm. destruct (A Hm) as [X [e ->]]. split; [exact X|exists e; reflexivity].
   - intros Hm. destruct (B Hm) as [[e ->] [B1 [B2 [B3 [B4 [B5 [B6 [B7 [B8 B9]]]]]]]]].
@@ -3786,9 +4154,17 @@ Proof.
   repeat split; auto.
 Qed.
 
+Lemma put_tsame t s k r : k <> t -> tsame t s (put_retrier s k r).
+Proof.
+  intros Hn. unfold tsame, poisoned. cbn [f_mgr f_c f_chan f_tasks f_mgr_dead put_retrier set_mgr].
+  rewrite aget_aset_other by congruence. repeat split; auto.
+Qed.
+
 Lemma start_tsame t s k r s' : k <> t -> retrier_start s k r = (s', None) -> tsame t s s'.
 Proof.
-  intros Hn. unfold retrier_start. destruct (aget (c_towers (f_c s)) k) as [su|]; [|discriminate]. intros E. inversion E. subst s'. clear E.
+  intros Hn. unfold retrier_start. destruct (aget (c_towers (f_c s)) k) as [su|]; [|intros E; inversion E; apply put_tsame, Hn].
+  destruct (is_misbehaving (su_status su)); [intros E; inversion E; apply put_tsame, Hn|].
+  intros E. inversion E. subst s'. clear E.
   unfold tsame. cbn [f_mgr f_c f_chan f_tasks f_mgr_dead set_tasks put_retrier set_mgr set_c c_retriers c_db with_retriers].
   assert (Et : N.eqb t k = false) by (apply N.eqb_neq; congruence).
   rewrite aget_aset_other by congruence. rewrite aget_aset, Et.
@@ -3834,7 +4210,7 @@ Proof. intros H. unfold retrier_drop. destruct (aget (f_mgr s) t); [apply MgrKey
 Lemma MgrKeys_run_for t : forall locs s adds, MgrKeys s -> MgrKeys (fst (fst (run_for s t locs adds))).
 Proof.
   induction locs as [|l locs IH]; intros s adds H; cbn [run_for]; [exact H|].
-  destruct (poisoned s); [exact H|]. destruct (dbm_load_appointment (c_db (f_c s)) l); [|exact H].
+  destruct (poisoned s); [exact H|]. destruct (load_pending (f_c s) t l); [|apply IH, MgrKeys_drop, H].
   destruct (next_reply adds) as [rp a1]. destruct rp; cbn [fst]; try exact H.
   - destruct (wt_add_appointment_receipt _ _ _ _ _ _ _) as [c2 r2]. destruct (lift_site r2); cbn [fst]; [apply (MgrKeys_drop (log_req s _)), H|].
     destruct (wt_remove_pending_appointment c2 t l) as [c3 r3]. destruct (lift_site r3); cbn [fst]; [apply (MgrKeys_drop (log_req s _)), H|].
@@ -3854,6 +4230,7 @@ Qed.
 Lemma MgrKeys_run_attempt s t a : MgrKeys s -> MgrKeys (fst (run_attempt s t a)).
 Proof.
   intros H. unfold run_attempt. destruct (poisoned s); [exact H|]. destruct (aget (c_towers (f_c s)) t) as [su|]; [|exact H].
+  destruct (is_misbehaving (su_status su)); [exact H|].
   destruct (is_subscription_error (su_status su)); [|apply MgrKeys_run_while, H].
   destruct (at_reg a); try exact H. destruct (negb sig_ok); [exact H|].
   destruct (wt_add_update_tower _ _ _ _ _ _ _) as [c' r]. destruct r; try exact H. apply MgrKeys_run_while. exact H.
@@ -3870,7 +4247,7 @@ Proof.
   - apply (MgrKeys_set_status (set_c s _)). exact H.
   - destruct (negb (is_permanent e) && more); [exact H|].
     assert (H1 : MgrKeys (if is_permanent e then retrier_set_status s t RFailed else s)) by (destruct (is_permanent e); [apply MgrKeys_set_status|]; exact H).
-    destruct e as [[|]| |l|]; cbn [fst]; try exact H1.
+    destruct e as [[|]| |l| |]; cbn [fst]; try exact H1.
     + apply MgrKeys_clear. apply (MgrKeys_set_status (set_c _ _)). exact H1.
     + apply MgrKeys_clear. apply (MgrKeys_set_status (set_c _ _)). exact H1.
     + destruct (wt_flag_misbehaving_tower _ _ _ _ _ _ _) as [c2 r2]. destruct (lift_site r2); exact H1.
@@ -3891,9 +4268,10 @@ Lemma MgrKeys_sweep elapsed : forall keys s st wk, MgrKeys s -> MgrKeys (fst (fs
 Proof.
   induction keys as [|k keys IH]; intros s st wk H; cbn [sweep]; [exact H|].
   destruct (aget (f_mgr s) k) as [r|]; [|apply IH, H]. destruct (should_start r).
-  - destruct (retrier_start s k r) as [s1 [site|]] eqn:E; cbn [fst].
-    + unfold retrier_start in E. destruct (aget (c_towers (f_c s)) k); inversion E. exact H.
-    + apply IH. unfold retrier_start in E. destruct (aget (c_towers (f_c s)) k); inversion E. apply (MgrKeys_put (set_c s _)). exact H.
+  - assert (H1 : MgrKeys (fst (retrier_start s k r))).
+    { unfold retrier_start. destruct (aget (c_towers (f_c s)) k) as [su|]; [destruct (is_misbehaving (su_status su))|]; cbn [fst];
+        first [apply MgrKeys_put; exact H|apply (MgrKeys_put (set_c s _)); exact H]. }
+    destruct (retrier_start s k r) as [s1 [site|]]; cbn [fst] in *; [exact H1|apply IH, H1].
   - destruct (is_idle (r_status r) && memN k elapsed); apply IH; [apply MgrKeys_wake|]; exact H.
 Qed.
 
@@ -3951,42 +4329,6 @@ Proof.
     eapply tsame_trans; [apply wake_tsame; exact Hk|apply IH; assumption].
 Qed.
 
-(* no stopped retrier with data belongs to an abandoned tower: then no start panics *)
-Definition starts_safe (s : fstate) : Prop :=
-  forall k r, aget (f_mgr s) k = Some r -> should_start r = true -> knownc (f_c s) k.
-
-Lemma knownc_start s k r s1 x : retrier_start s k r = (s1, None) -> (knownc (f_c s1) x <-> knownc (f_c s) x).
-Proof.
-  unfold retrier_start. destruct (aget (c_towers (f_c s)) k) as [su|]; [|discriminate]. intros E. inversion E. subst. clear E.
-  cbn [f_c set_tasks put_retrier set_mgr set_c]. unfold knownc. cbn [c_towers with_retriers].
-  destruct (is_subscription_error (su_status su)); [tauto|apply knownc_set_status].
-Qed.
-
-Lemma sweep_no_abort elapsed : forall keys s st wk,
-  NoDup keys ->
-  (forall k r, In k keys -> aget (f_mgr s) k = Some r -> should_start r = true -> knownc (f_c s) k) ->
-  snd (sweep s keys elapsed st wk) = None.
-Proof.
-  induction keys as [|k keys IH]; intros s st wk Hnd Hs; cbn [sweep]; [reflexivity|]. inversion Hnd as [|? ? Hk Hnd']. subst.
-  destruct (aget (f_mgr s) k) as [r|] eqn:Er.
-  2:{ apply IH; [exact Hnd'|]. intros x rx Hx. apply Hs. right. exact Hx. }
-  destruct (should_start r) eqn:Ess.
-  - pose proof (Hs k r (or_introl eq_refl) Er Ess) as Hkn.
-    destruct (retrier_start s k r) as [s1 o] eqn:E. unfold retrier_start in E. unfold knownc, amem in Hkn.
-    destruct (aget (c_towers (f_c s)) k) as [su|] eqn:Et; [|discriminate]. inversion E. subst s1 o.
-    apply IH; [exact Hnd'|]. intros x rx Hx Hrx Hsx.
-    assert (x <> k) by (intros ->; contradiction).
-    cbn [f_mgr set_tasks put_retrier set_mgr set_c] in Hrx. rewrite aget_aset_other in Hrx by assumption.
-    pose proof (Hs x rx (or_intror Hx) Hrx Hsx) as Hx0.
-    cbn [f_c set_tasks put_retrier set_mgr set_c]. unfold knownc. cbn [c_towers with_retriers].
-    destruct (is_subscription_error (su_status su)); [exact Hx0|apply knownc_set_status; exact Hx0].
-  - destruct (is_idle (r_status r) && memN k elapsed).
-    + apply IH; [exact Hnd'|]. intros x rx Hx Hrx Hsx. assert (x <> k) by (intros ->; contradiction).
-      unfold wake in Hrx. cbn [f_mgr put_retrier set_mgr set_c] in Hrx. rewrite aget_aset_other in Hrx by assumption.
-      exact (Hs x rx (or_intror Hx) Hrx Hsx).
-    + apply IH; [exact Hnd'|]. intros x rx Hx. apply Hs. right. exact Hx.
-Qed.
-
 Lemma NoDup_split_at (t : N) keys : NoDup keys -> In t keys -> exists pre post, keys = pre ++ t :: post /\ ~ In t pre /\ ~ In t post.
 Proof.
   intros Hnd Hin. apply in_split in Hin. destruct Hin as [pre [post ->]]. exists pre, post. split; [reflexivity|].
@@ -4018,31 +4360,25 @@ Proof.
   - split; [|discriminate]. destruct (is_idle (r_status r) && memN t elapsed); apply (sweep_frame t elapsed post _ _ _ Hpost Hwhole).
 Qed.
 
-Lemma starts_safe_retain s : starts_safe s -> starts_safe (retain_state s).
-Proof.
-  intros H k r Hk Hs. unfold retain_state, set_mgr in Hk. cbn [f_mgr] in Hk. rewrite aget_aretain in Hk.
-  destruct (retrier_kept s k); [|discriminate]. exact (H k r Hk Hs).
-Qed.
-
 (* C13 gives_up_truthfully / delivers_on_recovery, the manager: an idle retrier whose auto-retry delay has elapsed is
    woken by the next tick of a drained manager: stopped, its set = every pending row of the tower, out of
    WTClient::retriers; nothing else about the tower changes *)
 Theorem manager_wakes s t r0 elapsed :
-  FInv s -> MgrKeys s -> starts_safe s -> poisoned s = false -> f_mgr_dead s = false -> f_chan s = [] ->
+  FInv s -> MgrKeys s -> poisoned s = false -> f_mgr_dead s = false -> f_chan s = [] ->
   aget (f_mgr s) t = Some r0 -> r_status r0 = RIdle -> memN t elapsed = true ->
   let s1 := fst (f_manager_tick s elapsed) in
   aget (f_mgr s1) t = Some {| r_status := RStopped; r_pending := set_union (r_pending r0) (pending_locators (c_db (f_c s)) t) |} /\
   aget (c_retriers (f_c s1)) t = None /\ stat (f_c s1) t = stat (f_c s) t /\ c_db (f_c s1) = c_db (f_c s) /\
   f_chan s1 = [] /\ f_mgr_dead s1 = false /\ (In t (f_tasks s1) <-> In t (f_tasks s)) /\ poisoned s1 = false.
 Proof.
-  intros HF HK Hsafe Hp Hd Ec Hr Hidle Hel. unfold f_manager_tick. rewrite Hd, Ec. unfold mgr_sweep. rewrite Hp. cbn [andb]. cbv zeta.
+  intros HF HK Hp Hd Ec Hr Hidle Hel. unfold f_manager_tick. rewrite Hd, Ec. unfold mgr_sweep. rewrite Hp. cbn [andb]. cbv zeta.
   change (poisoned (retain_state s)) with (poisoned s). rewrite Hp. cbn [andb].
   set (sR := retain_state s).
   assert (HrR : aget (f_mgr sR) t = Some r0).
   { unfold sR, retain_state, set_mgr. cbn [f_mgr]. rewrite aget_aretain. unfold retrier_kept. rewrite Hr. unfold keep_retrier. rewrite Hidle. cbn. rewrite orb_true_r. reflexivity. }
   assert (HndR : NoDup (map fst (f_mgr sR))) by (unfold sR, retain_state, set_mgr; cbn [f_mgr]; apply NoDup_keys_aretain, HK).
   assert (Hwhole : snd (sweep sR (map fst (f_mgr sR)) elapsed [] []) = None).
-  { apply sweep_no_abort; [exact HndR|]. intros k r _ Hk Hs. exact (starts_safe_retain s Hsafe k r Hk Hs). }
+  { apply sweep_never_aborts. }
   destruct (sweep_at_t t elapsed sR r0 HndR HrR Hwhole) as [sA [HA [HB _]]].
   assert (Hss : should_start r0 = false) by (unfold should_start; rewrite Hidle; reflexivity).
   rewrite Hss, Hidle, Hel in HB. cbn [is_idle andb] in HB.
@@ -4064,39 +4400,45 @@ Qed.
 (* ... and a stopped retrier holding data is started by the next tick: Running (also in WTClient::retriers), one
    live task, the tower shown temporary unreachable (or still subscription error: the renewal comes first) *)
 Theorem manager_starts s t r0 elapsed :
-  FInv s -> MgrKeys s -> starts_safe s -> poisoned s = false -> f_mgr_dead s = false -> f_chan s = [] ->
-  aget (f_mgr s) t = Some r0 -> should_start r0 = true ->
+  FInv s -> MgrKeys s -> poisoned s = false -> f_mgr_dead s = false -> f_chan s = [] ->
+  aget (f_mgr s) t = Some r0 -> should_start r0 = true -> knownc (f_c s) t -> stat (f_c s) t <> Some Misbehaving ->
   let s1 := fst (f_manager_tick s elapsed) in
   aget (f_mgr s1) t = Some {| r_status := RRunning; r_pending := r_pending r0 |} /\
   aget (c_retriers (f_c s1)) t = Some RRunning /\ In t (f_tasks s1) /\
   stat (f_c s1) t = (if match stat (f_c s) t with Some SubscriptionError => true | _ => false end then stat (f_c s) t else Some TemporaryUnreachable) /\
   c_db (f_c s1) = c_db (f_c s) /\ f_chan s1 = [] /\ f_mgr_dead s1 = false /\ poisoned s1 = false.
 Proof.
-  intros HF HK Hsafe Hp Hd Ec Hr Hss. unfold f_manager_tick. rewrite Hd, Ec. unfold mgr_sweep. rewrite Hp. cbn [andb]. cbv zeta.
+  intros HF HK Hp Hd Ec Hr Hss Hk Hnm. unfold f_manager_tick. rewrite Hd, Ec. unfold mgr_sweep. rewrite Hp. cbn [andb]. cbv zeta.
   change (poisoned (retain_state s)) with (poisoned s). rewrite Hp. cbn [andb].
   set (sR := retain_state s).
   assert (HrR : aget (f_mgr sR) t = Some r0).
   { unfold sR, retain_state, set_mgr. cbn [f_mgr]. rewrite aget_aretain. unfold retrier_kept. rewrite Hr. unfold keep_retrier. rewrite Hss. reflexivity. }
   assert (HndR : NoDup (map fst (f_mgr sR))) by (unfold sR, retain_state, set_mgr; cbn [f_mgr]; apply NoDup_keys_aretain, HK).
   assert (Hwhole : snd (sweep sR (map fst (f_mgr sR)) elapsed [] []) = None).
-  { apply sweep_no_abort; [exact HndR|]. intros k r _ Hk Hs. exact (starts_safe_retain s Hsafe k r Hk Hs). }
+  { apply sweep_never_aborts. }
   destruct (sweep_at_t t elapsed sR r0 HndR HrR Hwhole) as [sA [HA [HB HC]]]. rewrite Hss in HB. specialize (HC Hss).
   destruct (sweep sR (map fst (f_mgr sR)) elapsed [] []) as [[[sF st] wk] o] eqn:ES. cbn [snd] in Hwhole. subst o. cbn [fst] in *.
   destruct HA as [A1 [A2 [A3 [A4 [A5 [A6 [A7 A8]]]]]]].
   destruct (retrier_start sA t r0) as [sB oB] eqn:EB. cbn [fst snd] in HB, HC. subst oB.
   destruct HB as [B1 [B2 [B3 [B4 [B5 [B6 [B7 B8]]]]]]].
-  unfold retrier_start in EB. destruct (aget (c_towers (f_c sA)) t) as [su|] eqn:Et; [|discriminate]. inversion EB. subst sB. clear EB.
-  cbn [f_mgr f_c f_chan f_tasks f_mgr_dead set_tasks put_retrier set_mgr set_c c_retriers c_db with_retriers] in *.
+  change (stat (f_c sR) t) with (stat (f_c s) t) in A3.
+  unfold retrier_start in EB. destruct (aget (c_towers (f_c sA)) t) as [su|] eqn:Et.
+  2:{ exfalso. unfold knownc, amem in Hk. unfold stat in A3. rewrite Et in A3. destruct (aget (c_towers (f_c s)) t); discriminate. }
   assert (Hst : stat (f_c s) t = Some (su_status su)).
-  { change (stat (f_c sR) t) with (stat (f_c s) t) in A3. rewrite <- A3. unfold stat. rewrite Et. reflexivity. }
+  { rewrite <- A3. unfold stat. rewrite Et. reflexivity. }
+  destruct (is_misbehaving (su_status su)) eqn:Emis.
+  { exfalso. apply Hnm. rewrite Hst. destruct (su_status su); try discriminate. reflexivity. }
+  inversion EB. subst sB. clear EB.
+  cbn [f_mgr f_c f_chan f_tasks f_mgr_dead set_tasks put_retrier set_mgr set_c c_retriers c_db with_retriers] in *.
   split; [rewrite B1; apply aget_aset_same|].
   split; [rewrite B2; apply aget_aset_same|].
   split; [apply B6; apply in_or_app; right; left; reflexivity|].
   split.
   { rewrite B3, Hst. unfold stat. cbn [c_towers with_retriers]. destruct (su_status su) eqn:Es; cbn [is_subscription_error];
       try (change (option_map su_status (aget (c_towers (wt_set_tower_status (f_c sA) t TemporaryUnreachable)) t)) with (stat (wt_set_tower_status (f_c sA) t TemporaryUnreachable) t);
-           rewrite stat_set_status, N.eqb_refl; unfold stat; rewrite Et; reflexivity).
-    rewrite Et. cbn. rewrite Es. reflexivity. }
+           rewrite stat_set_status, N.eqb_refl; unfold stat; rewrite Et; cbn; rewrite Es; reflexivity).
+    - rewrite Et. cbn. rewrite Es. reflexivity.
+    - discriminate Emis. }
   split.
   { rewrite B4. destruct (is_subscription_error (su_status su)); [exact A4|rewrite DbInv_set_status; exact A4]. }
   split; [rewrite B5, A5; exact Ec|]. split; [rewrite B7, A7; exact Hd|].
@@ -4113,42 +4455,6 @@ Proof.
   destruct Hin as [Hin|Hin]; [inversion Hin; subst; rewrite N.eqb_refl in E; discriminate|apply IH, Hin].
 Qed.
 
-(* after a tick that wakes only t, the only retrier the next tick will start is t's *)
-Lemma starts_safe_after_wake_tick s t :
-  MgrKeys s -> starts_safe s -> poisoned s = false -> f_mgr_dead s = false -> f_chan s = [] -> knownc (f_c s) t ->
-  starts_safe (fst (f_manager_tick s [t])).
-Proof.
-  intros HK Hsafe Hp Hd Ec Hkt. unfold f_manager_tick in *. rewrite Hd, Ec in *. unfold mgr_sweep in *. rewrite Hp in *. cbn [andb] in *. cbv zeta in *.
-  change (poisoned (retain_state s)) with (poisoned s) in *. rewrite Hp in *. cbn [andb] in *.
-  set (sR := retain_state s) in *.
-  assert (HndR : NoDup (map fst (f_mgr sR))) by (unfold sR, retain_state, set_mgr; cbn [f_mgr]; apply NoDup_keys_aretain, HK).
-  assert (Hwhole : snd (sweep sR (map fst (f_mgr sR)) [t] [] []) = None).
-  { apply sweep_no_abort; [exact HndR|]. intros k r _ Hk Hs. exact (starts_safe_retain s Hsafe k r Hk Hs). }
-  intros k r Hk Hs.
-  destruct (aget (f_mgr sR) k) as [rk|] eqn:Erk.
-  - destruct (sweep_at_t k [t] sR rk HndR Erk Hwhole) as [sA [HA [HB HC]]].
-    destruct (sweep sR (map fst (f_mgr sR)) [t] [] []) as [[[sF st] wk] o] eqn:ES. cbn [snd] in Hwhole. subst o. cbn [fst] in *.
-    destruct HA as [A1 [_ [A3 _]]].
-    destruct (should_start rk) eqn:Essk.
-    + (* it was started: Running now *)
-      exfalso. specialize (HC eq_refl). destruct (retrier_start sA k rk) as [sB oB] eqn:EB. cbn [fst snd] in HB, HC. subst oB.
-      destruct HB as [B1 _]. unfold retrier_start in EB. destruct (aget (c_towers (f_c sA)) k); [|discriminate]. inversion EB. subst sB.
-      cbn [f_mgr set_tasks put_retrier set_mgr set_c] in B1. rewrite aget_aset_same in B1. rewrite B1 in Hk. inversion Hk. subst r. discriminate Hs.
-    + destruct (is_idle (r_status rk) && memN k [t]) eqn:Ew.
-      * (* woken: only t *)
-        apply andb_true_iff in Ew. destruct Ew as [_ Ew]. cbn in Ew. rewrite orb_false_r in Ew. apply N.eqb_eq in Ew. subst k.
-        destruct HB as [_ [_ [B3 _]]]. unfold wake in B3. cbn [f_c put_retrier set_mgr set_c] in B3. unfold stat in B3 at 2. cbn [c_towers with_retriers] in B3.
-        apply (knownc_of_stat (f_c sA) (f_c sF) t); [exact B3|]. apply (knownc_of_stat (f_c sR) (f_c sA) t A3). exact Hkt.
-      * exfalso. destruct HB as [B1 _]. rewrite B1, A1, Erk in Hk. inversion Hk. subst r. congruence.
-  - exfalso. assert (Hnin : ~ In k (map fst (f_mgr sR))).
-    { intros Hin. apply in_map_iff in Hin. destruct Hin as [[k' v] [E Hin]]. cbn in E. subst k'.
-      apply (aget_of_In _ _ _ Hin). exact Erk. }
-    pose proof (sweep_frame k [t] (map fst (f_mgr sR)) sR [] [] Hnin Hwhole) as [F1 _].
-    destruct (sweep sR (map fst (f_mgr sR)) [t] [] []) as [[[sF st] wk] o]. cbn [snd] in Hwhole. subst o. cbn [fst] in *. rewrite F1, Erk in Hk. discriminate.
-Qed.
-
-Lemma ops_fresh_app : forall a b s, ops_fresh s (a ++ b) = ops_fresh s a && ops_fresh (frun s a) b.
-Proof. induction a as [|o a IH]; intros b s; cbn; [reflexivity|]. rewrite IH, andb_assoc. reflexivity. Qed.
 Lemma frun_app : forall a b s, frun s (a ++ b) = frun (frun s a) b.
 Proof. induction a as [|o a IH]; intros b s; cbn; [reflexivity|apply IH]. Qed.
 
@@ -4157,9 +4463,10 @@ Proof. induction a as [|o a IH]; intros b s; cbn; [reflexivity|apply IH]. Qed.
    extra tick per message still queued).  The tower accepts from now on: every pending row of the tower is delivered,
    the tower is shown reachable, its retrier stopped and empty (the next tick drops it), no retry task left. *)
 Theorem delivers_on_recovery ops t r0 a sl rest :
-  ops_fresh f_init ops = true -> let s := frun f_init ops in
-  poisoned s = false -> f_mgr_dead s = false -> f_chan s = [] -> starts_safe s ->
-  aget (f_mgr s) t = Some r0 -> r_status r0 = RIdle -> knownc (f_c s) t -> stat (f_c s) t <> Some SubscriptionError ->
+  let s := frun f_init ops in
+  poisoned s = false -> f_mgr_dead s = false -> f_chan s = [] ->
+  aget (f_mgr s) t = Some r0 -> r_status r0 = RIdle -> knownc (f_c s) t ->
+  stat (f_c s) t <> Some SubscriptionError -> stat (f_c s) t <> Some Misbehaving ->
   set_union (r_pending r0) (pending_locators (c_db (f_c s)) t) <> [] ->
   at_adds a = accept_all sl ++ rest ->
   (length (set_union (r_pending r0) (pending_locators (c_db (f_c s)) t)) <= length sl)%nat ->
@@ -4167,25 +4474,24 @@ Theorem delivers_on_recovery ops t r0 a sl rest :
   pending_locators (c_db (f_c s3)) t = [] /\ stat (f_c s3) t = Some Reachable /\ rstat s3 t = Some RStopped /\
   retrier_pending s3 t = [] /\ ~ In t (f_tasks s3) /\ aget (c_retriers (f_c s3)) t = None.
 Proof.
-  intros Hg s Hp Hd Ec Hsafe Hr Hidle Hk Hnsub Hne Hadds Hlen.
-  pose proof (FInv_frun ops f_init FInv_init Hg) as HF. fold s in HF.
+  intros s Hp Hd Ec Hr Hidle Hk Hnsub Hnm Hne Hadds Hlen.
+  pose proof (FInv_frun ops f_init FInv_init) as HF. fold s in HF.
   assert (HK : MgrKeys s) by (apply MgrKeys_frun; constructor).
   cbn [frun].
   (* tick 1: wake *)
-  destruct (manager_wakes s t r0 [t] HF HK Hsafe Hp Hd Ec Hr Hidle) as [W1 [W2 [W3 [W4 [W5 [W6 [W7 W8]]]]]]]; [cbn; rewrite N.eqb_refl; reflexivity|].
-  pose proof (starts_safe_after_wake_tick s t HK Hsafe Hp Hd Ec Hk) as Hsafe1.
-  assert (HF1 : FInv (fst (fstep s (FManagerTick [t])))) by (apply FInv_fstep; [exact HF|reflexivity]).
+  destruct (manager_wakes s t r0 [t] HF HK Hp Hd Ec Hr Hidle) as [W1 [W2 [W3 [W4 [W5 [W6 [W7 W8]]]]]]]; [cbn; rewrite N.eqb_refl; reflexivity|].
+  assert (HF1 : FInv (fst (fstep s (FManagerTick [t])))) by (apply FInv_fstep; exact HF).
   assert (HK1 : MgrKeys (fst (fstep s (FManagerTick [t])))) by (apply MgrKeys_fstep, HK).
   cbn [fstep] in *. set (s1 := fst (f_manager_tick s [t])) in *.
   set (P := set_union (r_pending r0) (pending_locators (c_db (f_c s)) t)) in *.
   assert (Hss : should_start {| r_status := RStopped; r_pending := P |} = true) by (unfold should_start; cbn; destruct P; [contradiction|reflexivity]).
+  assert (Hk1 : knownc (f_c s1) t) by (apply (knownc_of_stat (f_c s) (f_c s1) t W3), Hk).
+  assert (Hnm1 : stat (f_c s1) t <> Some Misbehaving) by (rewrite W3; exact Hnm).
   (* tick 2: start *)
-  destruct (manager_starts s1 t _ [] HF1 HK1 Hsafe1 W8 W6 W5 W1 Hss) as [S1 [S2 [S3 [S4 [S5 [S6 [S7 S8]]]]]]].
+  destruct (manager_starts s1 t _ [] HF1 HK1 W8 W6 W5 W1 Hss Hk1 Hnm1) as [S1 [S2 [S3 [S4 [S5 [S6 [S7 S8]]]]]]].
   cbn [r_pending] in S1.
   set (s2 := fst (f_manager_tick s1 [])) in *.
   (* the attempt *)
-  assert (Hg2 : ops_fresh f_init (ops ++ [FManagerTick [t]; FManagerTick []]) = true).
-  { rewrite ops_fresh_app, Hg. reflexivity. }
   assert (E2 : frun f_init (ops ++ [FManagerTick [t]; FManagerTick []]) = s2).
   { rewrite frun_app. reflexivity. }
   assert (Hk2 : knownc (f_c s2) t).
@@ -4195,8 +4501,10 @@ Proof.
   assert (Hpend2 : retrier_pending s2 t = P) by (unfold retrier_pending; rewrite S1; reflexivity).
   assert (Hst2 : stat (f_c s2) t <> Some SubscriptionError).
   { rewrite S4, W3. destruct (stat (f_c s) t) as [[]|]; try discriminate; try (intros H; apply Hnsub; exact H). }
-  pose proof (delivers_attempt (ops ++ [FManagerTick [t]; FManagerTick []]) t a sl rest Hg2) as D. cbv zeta in D. rewrite E2 in D.
-  destruct D as [D1 [D2 [D3 [D4 [D5 [D6 [D7 D8]]]]]]]; [exact S8|exact S3|exact Hk2|exact Hadds|rewrite Hpend2; exact Hlen|intros H; contradiction|].
+  assert (Hnm2 : stat (f_c s2) t <> Some Misbehaving).
+  { rewrite S4, W3. destruct (stat (f_c s) t) as [[]|]; try discriminate; try (intros H; apply Hnm; exact H). }
+  pose proof (delivers_attempt (ops ++ [FManagerTick [t]; FManagerTick []]) t a sl rest) as D. cbv zeta in D. rewrite E2 in D.
+  destruct D as [D1 [D2 [D3 [D4 [D5 [D6 [D7 D8]]]]]]]; [exact S8|exact S3|exact Hk2|exact Hnm2|exact Hadds|rewrite Hpend2; exact Hlen|intros H; contradiction|].
   cbn [fstep] in *. destruct (f_retrier_run s2 t [a]) as [s3 o]. cbn [fst snd] in *.
   split; [|repeat (split; [assumption|]); assumption].
   (* no pending row of t is left: each one was a pending row before the ticks, hence in the woken set, hence delivered *)
@@ -4249,7 +4557,8 @@ Proof.
   assert (Hnd1 : NoDup [l]) by (constructor; [intros []|constructor]).
   destruct (FInv_run_for t [l] s adds s1 adds1 res Hpre Hnd1) as [A _]; [intros x [<-|[]]; exact Hl|exact E|].
   cbn [run_for] in E. unfold poisoned in Hp. unfold poisoned in E. rewrite Hp in E.
-  destruct (dbm_load_appointment (c_db (f_c s)) l) as [body|]; [|inversion E; subst; split; [exact Hok|reflexivity]].
+  destruct (load_pending (f_c s) t l) as [body|].
+  2:{ inversion E; subst. split; [apply (DbsOk_same _ s); [apply f_dbs_retrier_drop|exact Hok]|apply f_due_retrier_drop]. }
   set (s0 := log_req s (ReqAdd t l)) in *.
   destruct (next_reply adds) as [rp a1]. destruct rp; try (inversion E; subst; split; [exact Hok|reflexivity]).
   - rewrite f_c_retrier_drop in E.
@@ -4309,15 +4618,20 @@ Proof.
     pose proof (run_for_same t [l] s adds) as [_ Hs]. rewrite E1 in Hs. cbn [fst] in Hs. rewrite Hs. exact Hrun. }
   assert (Hsub1 : forall x, In x locs -> In x (retrier_pending s1 t)).
   { intros x Hx. clear - E1 Hx Hsub Hnl Hp. cbn [run_for] in E1. unfold poisoned in Hp. unfold poisoned in E1. rewrite Hp in E1.
-    destruct (dbm_load_appointment (c_db (f_c s)) l); [|discriminate]. destruct (next_reply adds) as [rp a1]. destruct rp; try discriminate.
+    assert (Hdrop : forall sx, retrier_pending sx t = set_remove l (retrier_pending s t) -> In x (retrier_pending sx t)).
+    { intros sx HX. rewrite HX. apply In_set_remove. split; [apply (Hsub x); right; exact Hx|]. intros ->. contradiction. }
+    destruct (load_pending (f_c s) t l); [|inversion E1; subst; apply Hdrop; rewrite retrier_pending_drop, N.eqb_refl; reflexivity].
+    destruct (next_reply adds) as [rp a1]. destruct rp; try discriminate.
     + destruct (wt_add_appointment_receipt _ _ _ _ _ _ _) as [c2 r2]. destruct (lift_site r2); [discriminate|].
       destruct (wt_remove_pending_appointment c2 t l) as [c3 r3]. destruct (lift_site r3); [discriminate|]. inversion E1. subst.
+      apply Hdrop.
       change (retrier_pending (wr_c (wr_c (retrier_drop (log_req s (ReqAdd t l)) t l) c2) c3) t) with (retrier_pending (retrier_drop (log_req s (ReqAdd t l)) t l) t).
-      rewrite retrier_pending_drop, N.eqb_refl. apply In_set_remove. split; [apply (Hsub x); right; exact Hx|]. intros ->. contradiction.
+      rewrite retrier_pending_drop, N.eqb_refl. reflexivity.
     + destruct (wt_add_invalid_appointment _ _ _ _ _) as [c2 r2]. destruct (lift_site r2); [discriminate|].
       destruct (wt_remove_pending_appointment c2 t l) as [c3 r3]. destruct (lift_site r3); [discriminate|]. inversion E1. subst.
+      apply Hdrop.
       change (retrier_pending (wr_c (wr_c (retrier_drop (log_req s (ReqAdd t l)) t l) c2) c3) t) with (retrier_pending (retrier_drop (log_req s (ReqAdd t l)) t l) t).
-      rewrite retrier_pending_drop, N.eqb_refl. apply In_set_remove. split; [apply (Hsub x); right; exact Hx|]. intros ->. contradiction. }
+      rewrite retrier_pending_drop, N.eqb_refl. reflexivity. }
   rewrite <- Hd1 in Hok1. destruct (IH s1 adds1 Hpre1 Hnd' Hsub1 Hok1) as [X Y]. rewrite Hd1 in X. split; [exact X|congruence].
 Qed.
 
@@ -4329,7 +4643,7 @@ Proof.
   destruct (retrier_pending s t) as [|x p] eqn:Ep; [split; [exact Hok|reflexivity]|].
   pose proof Hpre as [HF [Hp [Hk Hrun]]].
   assert (Hnd : NoDup (x :: p)).
-  { destruct HF as [_ [_ [HV _]]]. destruct (HV Hp) as [_ [_ [_ [V4 _]]]]. unfold retrier_pending in Ep.
+  { destruct HF as [_ [_ [HV _]]]. destruct (HV Hp) as [_ [_ [V4 _]]]. unfold retrier_pending in Ep.
     destruct (aget (f_mgr s) t) as [r|] eqn:Er; [|discriminate]. rewrite <- Ep. eapply V4, Er. }
   pose proof (NoDup_reorder hint _ Hnd) as Hndr.
   assert (Hsub : forall l, In l (reorder hint (x :: p)) -> In l (retrier_pending s t)) by (intros l Hl; rewrite Ep; apply In_reorder in Hl; exact Hl).
@@ -4350,6 +4664,7 @@ Proof.
   intros HF Hrun Hok. unfold run_attempt. destruct (poisoned s) eqn:Hp; [split; [exact Hok|reflexivity]|].
   destruct (aget (c_towers (f_c s)) t) as [su|] eqn:Et; [|split; [exact Hok|reflexivity]].
   assert (Hk : knownc (f_c s) t) by (unfold knownc, amem; rewrite Et; reflexivity).
+  destruct (is_misbehaving (su_status su)); [split; [exact Hok|reflexivity]|].
   destruct (is_subscription_error (su_status su)); [|apply run_while_dbs; [exact (conj HF (conj Hp (conj Hk Hrun)))|exact Hok]].
   set (s1 := log_req s (ReqRegister t)).
   assert (HF1 : FInv s1) by (apply (FInv_core s); auto).
@@ -4386,7 +4701,7 @@ Proof.
     set (s1 := if is_permanent e then retrier_set_status s t RFailed else s) in *.
     assert (H1 : f_dbs s1 = f_dbs s /\ f_due s1 = f_due s) by (unfold s1; destruct (is_permanent e); [split; [apply f_dbs_retrier_set_status|apply f_due_retrier_set_status]|split; reflexivity]).
     destruct H1 as [H1 H2].
-    destruct e as [[|]| |l|]; cbn [fst] in *.
+    destruct e as [[|]| |l| |]; cbn [fst] in *.
     + split; [apply (DbsOk_same _ s); [exact H1|exact Hok]|exact H2].
     + split; [|cbn [f_due end_task set_tasks]; rewrite f_due_retrier_clear, f_due_retrier_set_status; exact H2].
       apply (DbsOk_same _ s); [cbn [f_dbs end_task set_tasks]; rewrite f_dbs_retrier_clear, f_dbs_retrier_set_status; exact H1|exact Hok].
@@ -4398,6 +4713,7 @@ Proof.
       * split; [|exact H2]. intros d Hd. cbn [f_dbs end_task set_tasks wr_c] in Hd. apply in_app_or in Hd. destruct Hd as [Hd|[<-|[]]].
         -- apply Hok. rewrite <- H1. exact Hd.
         -- pose proof HF' as [_ [HD' _]]. cbn [f_c f_due end_task set_tasks wr_c] in HD'. rewrite H2 in HD'. apply AtLeast_DurInv, HD'.
+    + split; [apply (DbsOk_same _ s); [exact H1|exact Hok]|exact H2].
     + split; [apply (DbsOk_same _ s); [exact H1|exact Hok]|exact H2].
   - split; [exact Hok|reflexivity].
   - split; [exact Hok|reflexivity].
@@ -4423,14 +4739,15 @@ Proof.
 Qed.
 
 (* the other writing operations *)
-Lemma register_dbs s t rp : FInv s -> fresh_ok s (FRegister t rp) = true -> DbsOk (f_due s) s ->
+Lemma register_dbs s t rp : FInv s -> DbsOk (f_due s) s ->
   DbsOk (f_due s) (fst (f_register s t t rp)).
 Proof.
-  intros HF Hg Hok. pose proof (FInv_register s t rp HF Hg) as HF'. unfold f_register in *.
+  intros HF Hok. pose proof (FInv_register s t rp HF) as HF'. unfold f_register in *.
   destruct (poisoned s); [exact Hok|]. destruct rp as [slots start expiry sig_ok| | | |]; cbn [fst] in *; try exact Hok.
   - destruct (negb sig_ok); [exact Hok|]. destruct (wt_add_update_tower _ _ _ _ _ _ _) as [c' r]. destruct r; cbn [fst] in *; try exact Hok.
     apply DbsOk_wr; [exact Hok|]. apply AtLeast_DurInv. apply HF'.
-  - destruct (amem _ _); exact Hok.
+  - destruct (amem _ _); [|exact Hok]. apply (DbsOk_same _ s); [|exact Hok]. unfold flag_unreachable.
+    destruct (aget _ _) as [su|]; [destruct (_ && _)|]; reflexivity.
 Qed.
 
 Lemma rev_pend_dbs s l t send s' o : FInv s' -> f_due s' = f_due s -> rev_pend s l t send = (s', o) -> DbsOk (f_due s) s -> DbsOk (f_due s) s'.
@@ -4481,8 +4798,9 @@ Lemma f_dbs_sweep elapsed : forall keys s st wk, f_dbs (fst (fst (fst (sweep s k
 Proof.
   induction keys as [|k keys IH]; intros s st wk; cbn [sweep]; [reflexivity|].
   destruct (aget (f_mgr s) k) as [r|]; [|apply IH]. destruct (should_start r).
-  - destruct (retrier_start s k r) as [s1 [site|]] eqn:E; cbn [fst];
-      unfold retrier_start in E; destruct (aget (c_towers (f_c s)) k); inversion E; try reflexivity. rewrite IH. reflexivity.
+  - assert (H1 : f_dbs (fst (retrier_start s k r)) = f_dbs s).
+    { unfold retrier_start. destruct (aget (c_towers (f_c s)) k) as [su|]; [destruct (is_misbehaving (su_status su))|]; reflexivity. }
+    destruct (retrier_start s k r) as [s1 [site|]]; cbn [fst] in *; [exact H1|]. rewrite IH. exact H1.
   - destruct (is_idle (r_status r) && memN k elapsed); rewrite IH; reflexivity.
 Qed.
 
@@ -4500,20 +4818,20 @@ Qed.
    still holds AT LEAST ONE record for every (tower, locator) owed before the operation, as long as the tower row and
    no misbehaviour proof are in that state *)
 Theorem recorded_at_least_one_at_crash ops o :
-  ops_fresh f_init ops = true -> let s := frun f_init ops in fresh_ok s o = true ->
+  let s := frun f_init ops in
   forall d, In d (crash_states o s) ->
   forall t l, In (t, l) (f_due s) -> tower_row d t = true -> exists_misbehaving_proof d t = false ->
   (1 <= record_count d t l)%nat.
 Proof.
-  intros Hg s Hfo d Hd t l Hin Ht Hm.
-  pose proof (FInv_frun ops f_init FInv_init Hg) as HF. fold s in HF.
+  intros s d Hd t l Hin Ht Hm.
+  pose proof (FInv_frun ops f_init FInv_init) as HF. fold s in HF.
   assert (HF0 : FInv (clear_dbs s)) by (apply (FInv_core s); auto).
   assert (Hok0 : DbsOk (f_due s) (clear_dbs s)) by (intros x []).
   assert (Hall : AtLeast d (f_due s)).
   { unfold crash_states in Hd. destruct Hd as [<-|Hd]; [apply AtLeast_DurInv, HF|].
     assert (Hdbs : DbsOk (f_due s) (fst (fstep (clear_dbs s) o))); [|apply Hdbs, Hd].
     destruct o; cbn [fstep].
-    - apply (register_dbs (clear_dbs s)); [exact HF0|exact Hfo|exact Hok0].
+    - apply (register_dbs (clear_dbs s)); [exact HF0|exact Hok0].
     - unfold f_revocation. change (poisoned (clear_dbs s)) with (poisoned s). destruct (poisoned s) eqn:Hp; [exact Hok0|].
       set (snap := reorder_towers order (towers_snapshot (f_c (clear_dbs s)))).
       assert (Hsn : forall t0 st, In (t0, st) snap -> knownc (f_c (clear_dbs s)) t0 /\ (st = Misbehaving -> Mrow (c_db (f_c (clear_dbs s))) t0)).
@@ -4564,3 +4882,38 @@ Lemma manual_retry_refuses_misbehaving s t su :
   aget (c_towers (f_c s)) t = Some su -> su_status su = Misbehaving -> aget (c_retriers (f_c s)) t = None ->
   f_manual_retry s t = (s, OErr E_not_retryable) \/ f_manual_retry s t = (s, OPanic (SClient Site_poisoned)).
 Proof. intros H1 H2 H3. unfold f_manual_retry. destruct (poisoned s); [right; reflexivity|]. rewrite H1, H3, H2. left. reflexivity. Qed.
+
+(* ====================================================================== *)
+(* the repaired status handling (fixes 70d4134, b2b8ee7)                   *)
+(* ====================================================================== *)
+(* misbehaving is never left: in every reachable state a known tower whose proof is stored is misbehaving in memory *)
+Theorem misbehaving_is_kept ops t :
+  let s := frun f_init ops in poisoned s = false ->
+  exists_misbehaving_proof (c_db (f_c s)) t = true -> knownc (f_c s) t -> stat (f_c s) t = Some Misbehaving.
+Proof.
+  intros s Hp Hm Hk. pose proof (FInv_frun ops f_init FInv_init) as [_ [_ [HV _]]]. fold s in HV.
+  destruct (HV Hp) as [_ [V2 _]]. apply V2; [exact Hk|apply proof_iff, Hm].
+Qed.
+
+(* registertower that cannot connect: the status of the tower changes only from reachable to temporary unreachable,
+   only when something is pending for it, and then together with a message that makes the retry manager take the tower *)
+Theorem register_conn_error_hands_over s t :
+  let s' := fst (f_register s t t RConnErr) in
+  snd (f_register s t t RConnErr) = OErr E_connection \/ snd (f_register s t t RConnErr) = OPanic (SClient Site_poisoned) ->
+  (forall k, stat (f_c s') k = stat (f_c s) k) /\ f_chan s' = f_chan s \/
+  (exists su, aget (c_towers (f_c s)) t = Some su /\ su_status su = Reachable /\ su_pending su <> [] /\
+     stat (f_c s') t = Some TemporaryUnreachable /\ (forall k, k <> t -> stat (f_c s') k = stat (f_c s) k) /\
+     f_chan s' = f_chan s ++ [(t, DStale (su_pending su))]).
+Proof.
+  intros s' _. unfold s', f_register. destruct (poisoned s); [left; split; reflexivity|]. cbn [fst].
+  change (c_towers (f_c (log_req s (ReqRegister t)))) with (c_towers (f_c s)).
+  destruct (amem (c_towers (f_c s)) t); [|left; split; reflexivity].
+  unfold flag_unreachable. change (f_c (log_req s (ReqRegister t))) with (f_c s).
+  destruct (aget (c_towers (f_c s)) t) as [su|] eqn:Et; [|left; split; reflexivity].
+  destruct (is_reachable (su_status su)) eqn:Er; cbn [andb]; [|left; split; reflexivity].
+  destruct (su_pending su) as [|x p] eqn:Epe; [left; split; reflexivity|].
+  right. exists su. split; [reflexivity|]. split; [destruct (su_status su); try discriminate; reflexivity|]. split; [rewrite Epe; discriminate|].
+  cbn [f_c f_chan push_chan set_chan set_c log_req]. split; [|split; [|rewrite Epe; reflexivity]].
+  - rewrite stat_set_status, N.eqb_refl. unfold stat. rewrite Et. cbn. f_equal. apply sticky_other. destruct (su_status su); discriminate.
+  - intros k Hk. rewrite stat_set_status. apply N.eqb_neq in Hk. rewrite Hk. reflexivity.
+Qed.
